@@ -1372,10 +1372,10 @@ Definition gen_evals_by_head : list (bytes * list (list bytes * option (list (by
     ([tok_5; tok_2; tok_6; tok_4], Some [(fld_0, (B "markdown")); (fld_1, (B " ")); (fld_2, v_na); (fld_30, (B "markdown")); (fld_32, (B ";")); (fld_33, (B ":")); (fld_37, v_true); (fld_38, v_true)]);
     ([tok_7; tok_2; tok_8; tok_2], Some [(fld_0, (B "markdown")); (fld_1, (B " ")); (fld_2, v_na); (fld_3, (B ";")); (fld_10, v_true); (fld_30, (B "markdown")); (fld_31, (B ";")); (fld_32, (B " ")); (fld_33, v_na); (fld_39, v_true)])]);
   (tok_49, [
-    ([], Some [(fld_0, (B "nidx")); (fld_1, (B " ")); (fld_2, v_na); (fld_5, (B "([ \t])+")); (fld_30, (B "nidx")); (fld_32, (B " ")); (fld_33, v_na)]);
-    ([tok_1; tok_2; tok_3; tok_4], Some [(fld_0, (B "nidx")); (fld_1, (B ";")); (fld_2, (B ":")); (fld_8, v_true); (fld_9, v_true); (fld_30, (B "nidx")); (fld_32, (B " ")); (fld_33, v_na)]);
+    ([], Some [(fld_0, (B "nidx")); (fld_1, (B " ")); (fld_2, v_na); (fld_5, (B "([ \t])+")); (fld_30, (B "nidx")); (fld_32, (B " ")); (fld_33, v_na); (fld_37, v_true)]);
+    ([tok_1; tok_2; tok_3; tok_4], Some [(fld_0, (B "nidx")); (fld_1, (B ";")); (fld_2, (B ":")); (fld_8, v_true); (fld_9, v_true); (fld_30, (B "nidx")); (fld_32, (B " ")); (fld_33, v_na); (fld_37, v_true)]);
     ([tok_5; tok_2; tok_6; tok_4], Some [(fld_0, (B "nidx")); (fld_1, (B " ")); (fld_2, v_na); (fld_5, (B "([ \t])+")); (fld_30, (B "nidx")); (fld_32, (B ";")); (fld_33, (B ":")); (fld_37, v_true); (fld_38, v_true)]);
-    ([tok_7; tok_2; tok_8; tok_2], Some [(fld_0, (B "nidx")); (fld_1, (B " ")); (fld_2, v_na); (fld_3, (B ";")); (fld_5, (B "([ \t])+")); (fld_10, v_true); (fld_30, (B "nidx")); (fld_31, (B ";")); (fld_32, (B " ")); (fld_33, v_na); (fld_39, v_true)]);
+    ([tok_7; tok_2; tok_8; tok_2], Some [(fld_0, (B "nidx")); (fld_1, (B " ")); (fld_2, v_na); (fld_3, (B ";")); (fld_5, (B "([ \t])+")); (fld_10, v_true); (fld_30, (B "nidx")); (fld_31, (B ";")); (fld_32, (B " ")); (fld_33, v_na); (fld_37, v_true); (fld_39, v_true)]);
     ([tok_236; tok_237], Some [(fld_0, (B "nidx")); (fld_1, (bs [9]%N)); (fld_2, v_na); (fld_8, v_true); (fld_30, (B "nidx")); (fld_32, (bs [9]%N)); (fld_33, v_na); (fld_37, v_true)]);
     ([tok_236; tok_237; tok_1; tok_2; tok_3; tok_4], Some [(fld_0, (B "nidx")); (fld_1, (B ";")); (fld_2, (B ":")); (fld_8, v_true); (fld_9, v_true); (fld_30, (B "nidx")); (fld_32, (bs [9]%N)); (fld_33, v_na); (fld_37, v_true)]);
     ([tok_236; tok_237; tok_5; tok_2; tok_6; tok_4], Some [(fld_0, (B "nidx")); (fld_1, (bs [9]%N)); (fld_2, v_na); (fld_8, v_true); (fld_30, (B "nidx")); (fld_32, (B ";")); (fld_33, (B ":")); (fld_37, v_true); (fld_38, v_true)]);
@@ -1385,10 +1385,10 @@ Definition gen_evals_by_head : list (bytes * list (list bytes * option (list (by
     ([tok_236; tok_238; tok_239; tok_5; tok_2; tok_6; tok_4], Some [(fld_0, (B "nidx")); (fld_1, (B " ")); (fld_2, v_na); (fld_4, v_true); (fld_8, v_true); (fld_11, v_true); (fld_30, (B "nidx")); (fld_32, (B ";")); (fld_33, (B ":")); (fld_37, v_true); (fld_38, v_true)]);
     ([tok_236; tok_238; tok_239; tok_7; tok_2; tok_8; tok_2], Some [(fld_0, (B "nidx")); (fld_1, (B " ")); (fld_2, v_na); (fld_3, (B ";")); (fld_4, v_true); (fld_8, v_true); (fld_10, v_true); (fld_11, v_true); (fld_30, (B "nidx")); (fld_31, (B ";")); (fld_32, (B " ")); (fld_33, v_na); (fld_37, v_true); (fld_39, v_true)])]);
   (tok_50, [
-    ([], Some [(fld_0, (B "nidx")); (fld_1, (B " ")); (fld_2, v_na); (fld_5, (B "([ \t])+")); (fld_30, (B "nidx")); (fld_32, (B " ")); (fld_33, v_na)]);
-    ([tok_1; tok_2; tok_3; tok_4], Some [(fld_0, (B "nidx")); (fld_1, (B ";")); (fld_2, (B ":")); (fld_8, v_true); (fld_9, v_true); (fld_30, (B "nidx")); (fld_32, (B " ")); (fld_33, v_na)]);
+    ([], Some [(fld_0, (B "nidx")); (fld_1, (B " ")); (fld_2, v_na); (fld_5, (B "([ \t])+")); (fld_30, (B "nidx")); (fld_32, (B " ")); (fld_33, v_na); (fld_37, v_true)]);
+    ([tok_1; tok_2; tok_3; tok_4], Some [(fld_0, (B "nidx")); (fld_1, (B ";")); (fld_2, (B ":")); (fld_8, v_true); (fld_9, v_true); (fld_30, (B "nidx")); (fld_32, (B " ")); (fld_33, v_na); (fld_37, v_true)]);
     ([tok_5; tok_2; tok_6; tok_4], Some [(fld_0, (B "nidx")); (fld_1, (B " ")); (fld_2, v_na); (fld_5, (B "([ \t])+")); (fld_30, (B "nidx")); (fld_32, (B ";")); (fld_33, (B ":")); (fld_37, v_true); (fld_38, v_true)]);
-    ([tok_7; tok_2; tok_8; tok_2], Some [(fld_0, (B "nidx")); (fld_1, (B " ")); (fld_2, v_na); (fld_3, (B ";")); (fld_5, (B "([ \t])+")); (fld_10, v_true); (fld_30, (B "nidx")); (fld_31, (B ";")); (fld_32, (B " ")); (fld_33, v_na); (fld_39, v_true)])]);
+    ([tok_7; tok_2; tok_8; tok_2], Some [(fld_0, (B "nidx")); (fld_1, (B " ")); (fld_2, v_na); (fld_3, (B ";")); (fld_5, (B "([ \t])+")); (fld_10, v_true); (fld_30, (B "nidx")); (fld_31, (B ";")); (fld_32, (B " ")); (fld_33, v_na); (fld_37, v_true); (fld_39, v_true)])]);
   (tok_51, [
     ([], Some [(fld_30, (B "csvlite")); (fld_31, (bs [30]%N)); (fld_32, (bs [31]%N)); (fld_33, v_na); (fld_37, v_true); (fld_39, v_true)]);
     ([tok_1; tok_2; tok_3; tok_4], Some [(fld_1, (B ";")); (fld_2, (B ":")); (fld_8, v_true); (fld_9, v_true); (fld_30, (B "csvlite")); (fld_31, (bs [30]%N)); (fld_32, (bs [31]%N)); (fld_33, v_na); (fld_37, v_true); (fld_39, v_true)]);
@@ -1500,20 +1500,20 @@ Definition gen_evals_by_head : list (bytes * list (list bytes * option (list (by
     ([tok_5; tok_2; tok_6; tok_4], Some [(fld_0, (B "recutils")); (fld_1, v_na); (fld_2, v_na); (fld_3, v_na); (fld_30, (B "recutils")); (fld_31, v_na); (fld_32, (B ";")); (fld_33, (B ":")); (fld_37, v_true); (fld_38, v_true)]);
     ([tok_7; tok_2; tok_8; tok_2], Some [(fld_0, (B "recutils")); (fld_1, v_na); (fld_2, v_na); (fld_3, (B ";")); (fld_10, v_true); (fld_30, (B "recutils")); (fld_31, (B ";")); (fld_32, v_na); (fld_33, v_na); (fld_39, v_true)])]);
   (tok_73, [
-    ([], Some [(fld_0, (B "tsv")); (fld_1, (bs [9]%N)); (fld_2, v_na); (fld_30, (B "tsv")); (fld_32, (bs [9]%N)); (fld_33, v_na)]);
-    ([tok_1; tok_2; tok_3; tok_4], Some [(fld_0, (B "tsv")); (fld_1, (B ";")); (fld_2, (B ":")); (fld_8, v_true); (fld_9, v_true); (fld_30, (B "tsv")); (fld_32, (bs [9]%N)); (fld_33, v_na)]);
+    ([], Some [(fld_0, (B "tsv")); (fld_1, (bs [9]%N)); (fld_2, v_na); (fld_30, (B "tsv")); (fld_32, (bs [9]%N)); (fld_33, v_na); (fld_37, v_true)]);
+    ([tok_1; tok_2; tok_3; tok_4], Some [(fld_0, (B "tsv")); (fld_1, (B ";")); (fld_2, (B ":")); (fld_8, v_true); (fld_9, v_true); (fld_30, (B "tsv")); (fld_32, (bs [9]%N)); (fld_33, v_na); (fld_37, v_true)]);
     ([tok_5; tok_2; tok_6; tok_4], Some [(fld_0, (B "tsv")); (fld_1, (bs [9]%N)); (fld_2, v_na); (fld_30, (B "tsv")); (fld_32, (B ";")); (fld_33, (B ":")); (fld_37, v_true); (fld_38, v_true)]);
-    ([tok_7; tok_2; tok_8; tok_2], Some [(fld_0, (B "tsv")); (fld_1, (bs [9]%N)); (fld_2, v_na); (fld_3, (B ";")); (fld_10, v_true); (fld_30, (B "tsv")); (fld_31, (B ";")); (fld_32, (bs [9]%N)); (fld_33, v_na); (fld_39, v_true)])]);
+    ([tok_7; tok_2; tok_8; tok_2], Some [(fld_0, (B "tsv")); (fld_1, (bs [9]%N)); (fld_2, v_na); (fld_3, (B ";")); (fld_10, v_true); (fld_30, (B "tsv")); (fld_31, (B ";")); (fld_32, (bs [9]%N)); (fld_33, v_na); (fld_37, v_true); (fld_39, v_true)])]);
   (tok_74, [
-    ([], Some [(fld_0, (B "tsv")); (fld_1, (bs [9]%N)); (fld_2, v_na); (fld_30, (B "tsv")); (fld_32, (bs [9]%N)); (fld_33, v_na)]);
-    ([tok_1; tok_2; tok_3; tok_4], Some [(fld_0, (B "tsv")); (fld_1, (B ";")); (fld_2, (B ":")); (fld_8, v_true); (fld_9, v_true); (fld_30, (B "tsv")); (fld_32, (bs [9]%N)); (fld_33, v_na)]);
+    ([], Some [(fld_0, (B "tsv")); (fld_1, (bs [9]%N)); (fld_2, v_na); (fld_30, (B "tsv")); (fld_32, (bs [9]%N)); (fld_33, v_na); (fld_37, v_true)]);
+    ([tok_1; tok_2; tok_3; tok_4], Some [(fld_0, (B "tsv")); (fld_1, (B ";")); (fld_2, (B ":")); (fld_8, v_true); (fld_9, v_true); (fld_30, (B "tsv")); (fld_32, (bs [9]%N)); (fld_33, v_na); (fld_37, v_true)]);
     ([tok_5; tok_2; tok_6; tok_4], Some [(fld_0, (B "tsv")); (fld_1, (bs [9]%N)); (fld_2, v_na); (fld_30, (B "tsv")); (fld_32, (B ";")); (fld_33, (B ":")); (fld_37, v_true); (fld_38, v_true)]);
-    ([tok_7; tok_2; tok_8; tok_2], Some [(fld_0, (B "tsv")); (fld_1, (bs [9]%N)); (fld_2, v_na); (fld_3, (B ";")); (fld_10, v_true); (fld_30, (B "tsv")); (fld_31, (B ";")); (fld_32, (bs [9]%N)); (fld_33, v_na); (fld_39, v_true)])]);
+    ([tok_7; tok_2; tok_8; tok_2], Some [(fld_0, (B "tsv")); (fld_1, (bs [9]%N)); (fld_2, v_na); (fld_3, (B ";")); (fld_10, v_true); (fld_30, (B "tsv")); (fld_31, (B ";")); (fld_32, (bs [9]%N)); (fld_33, v_na); (fld_37, v_true); (fld_39, v_true)])]);
   (tok_75, [
-    ([], Some [(fld_0, (B "tsv")); (fld_1, (bs [9]%N)); (fld_2, v_na); (fld_30, (B "tsv")); (fld_32, (bs [9]%N)); (fld_33, v_na)]);
-    ([tok_1; tok_2; tok_3; tok_4], Some [(fld_0, (B "tsv")); (fld_1, (B ";")); (fld_2, (B ":")); (fld_8, v_true); (fld_9, v_true); (fld_30, (B "tsv")); (fld_32, (bs [9]%N)); (fld_33, v_na)]);
+    ([], Some [(fld_0, (B "tsv")); (fld_1, (bs [9]%N)); (fld_2, v_na); (fld_30, (B "tsv")); (fld_32, (bs [9]%N)); (fld_33, v_na); (fld_37, v_true)]);
+    ([tok_1; tok_2; tok_3; tok_4], Some [(fld_0, (B "tsv")); (fld_1, (B ";")); (fld_2, (B ":")); (fld_8, v_true); (fld_9, v_true); (fld_30, (B "tsv")); (fld_32, (bs [9]%N)); (fld_33, v_na); (fld_37, v_true)]);
     ([tok_5; tok_2; tok_6; tok_4], Some [(fld_0, (B "tsv")); (fld_1, (bs [9]%N)); (fld_2, v_na); (fld_30, (B "tsv")); (fld_32, (B ";")); (fld_33, (B ":")); (fld_37, v_true); (fld_38, v_true)]);
-    ([tok_7; tok_2; tok_8; tok_2], Some [(fld_0, (B "tsv")); (fld_1, (bs [9]%N)); (fld_2, v_na); (fld_3, (B ";")); (fld_10, v_true); (fld_30, (B "tsv")); (fld_31, (B ";")); (fld_32, (bs [9]%N)); (fld_33, v_na); (fld_39, v_true)])]);
+    ([tok_7; tok_2; tok_8; tok_2], Some [(fld_0, (B "tsv")); (fld_1, (bs [9]%N)); (fld_2, v_na); (fld_3, (B ";")); (fld_10, v_true); (fld_30, (B "tsv")); (fld_31, (B ";")); (fld_32, (bs [9]%N)); (fld_33, v_na); (fld_37, v_true); (fld_39, v_true)])]);
   (tok_76, [
     ([], Some [(fld_0, (B "csvlite")); (fld_1, (bs [9]%N)); (fld_2, v_na); (fld_8, v_true); (fld_30, (B "csvlite")); (fld_32, (bs [9]%N)); (fld_33, v_na); (fld_37, v_true)]);
     ([tok_1; tok_2; tok_3; tok_4], Some [(fld_0, (B "csvlite")); (fld_1, (B ";")); (fld_2, (B ":")); (fld_8, v_true); (fld_9, v_true); (fld_30, (B "csvlite")); (fld_32, (bs [9]%N)); (fld_33, v_na); (fld_37, v_true)]);
@@ -1590,10 +1590,10 @@ Definition gen_evals_by_head : list (bytes * list (list bytes * option (list (by
     ([tok_5; tok_2; tok_6; tok_4], Some [(fld_0, (B "csv")); (fld_2, v_na); (fld_10, v_true); (fld_30, (B "pprint")); (fld_32, (B ";")); (fld_33, (B ":")); (fld_37, v_true); (fld_38, v_true)]);
     ([tok_7; tok_2; tok_8; tok_2], Some [(fld_0, (B "csv")); (fld_2, v_na); (fld_3, (B ";")); (fld_10, v_true); (fld_30, (B "pprint")); (fld_31, (B ";")); (fld_32, (B " ")); (fld_33, v_na); (fld_39, v_true)])]);
   (tok_91, [
-    ([], Some [(fld_0, (B "csv")); (fld_2, v_na); (fld_10, v_true); (fld_30, (B "tsv")); (fld_32, (bs [9]%N)); (fld_33, v_na)]);
-    ([tok_1; tok_2; tok_3; tok_4], Some [(fld_0, (B "csv")); (fld_1, (B ";")); (fld_2, (B ":")); (fld_8, v_true); (fld_9, v_true); (fld_10, v_true); (fld_30, (B "tsv")); (fld_32, (bs [9]%N)); (fld_33, v_na)]);
+    ([], Some [(fld_0, (B "csv")); (fld_2, v_na); (fld_10, v_true); (fld_30, (B "tsv")); (fld_32, (bs [9]%N)); (fld_33, v_na); (fld_37, v_true)]);
+    ([tok_1; tok_2; tok_3; tok_4], Some [(fld_0, (B "csv")); (fld_1, (B ";")); (fld_2, (B ":")); (fld_8, v_true); (fld_9, v_true); (fld_10, v_true); (fld_30, (B "tsv")); (fld_32, (bs [9]%N)); (fld_33, v_na); (fld_37, v_true)]);
     ([tok_5; tok_2; tok_6; tok_4], Some [(fld_0, (B "csv")); (fld_2, v_na); (fld_10, v_true); (fld_30, (B "tsv")); (fld_32, (B ";")); (fld_33, (B ":")); (fld_37, v_true); (fld_38, v_true)]);
-    ([tok_7; tok_2; tok_8; tok_2], Some [(fld_0, (B "csv")); (fld_2, v_na); (fld_3, (B ";")); (fld_10, v_true); (fld_30, (B "tsv")); (fld_31, (B ";")); (fld_32, (bs [9]%N)); (fld_33, v_na); (fld_39, v_true)])]);
+    ([tok_7; tok_2; tok_8; tok_2], Some [(fld_0, (B "csv")); (fld_2, v_na); (fld_3, (B ";")); (fld_10, v_true); (fld_30, (B "tsv")); (fld_31, (B ";")); (fld_32, (bs [9]%N)); (fld_33, v_na); (fld_37, v_true); (fld_39, v_true)])]);
   (tok_92, [
     ([], Some [(fld_0, (B "csv")); (fld_2, v_na); (fld_10, v_true); (fld_30, (B "xtab")); (fld_31, (bs [10;10]%N)); (fld_32, (bs [10]%N)); (fld_33, (B " "))]);
     ([tok_1; tok_2; tok_3; tok_4], Some [(fld_0, (B "csv")); (fld_1, (B ";")); (fld_2, (B ":")); (fld_8, v_true); (fld_9, v_true); (fld_10, v_true); (fld_30, (B "xtab")); (fld_31, (bs [10;10]%N)); (fld_32, (bs [10]%N)); (fld_33, (B " "))]);
@@ -1680,20 +1680,20 @@ Definition gen_evals_by_head : list (bytes * list (list bytes * option (list (by
     ([tok_5; tok_2; tok_6; tok_4], Some [(fld_0, (B "json")); (fld_1, v_na); (fld_2, v_na); (fld_3, v_na); (fld_30, (B "markdown")); (fld_32, (B ";")); (fld_33, (B ":")); (fld_37, v_true); (fld_38, v_true)]);
     ([tok_7; tok_2; tok_8; tok_2], Some [(fld_0, (B "json")); (fld_1, v_na); (fld_2, v_na); (fld_3, (B ";")); (fld_10, v_true); (fld_30, (B "markdown")); (fld_31, (B ";")); (fld_32, (B " ")); (fld_33, v_na); (fld_39, v_true)])]);
   (tok_109, [
-    ([], Some [(fld_0, (B "json")); (fld_1, v_na); (fld_2, v_na); (fld_3, v_na); (fld_30, (B "nidx")); (fld_32, (B " ")); (fld_33, v_na)]);
-    ([tok_1; tok_2; tok_3; tok_4], Some [(fld_0, (B "json")); (fld_1, (B ";")); (fld_2, (B ":")); (fld_3, v_na); (fld_8, v_true); (fld_9, v_true); (fld_30, (B "nidx")); (fld_32, (B " ")); (fld_33, v_na)]);
+    ([], Some [(fld_0, (B "json")); (fld_1, v_na); (fld_2, v_na); (fld_3, v_na); (fld_30, (B "nidx")); (fld_32, (B " ")); (fld_33, v_na); (fld_37, v_true)]);
+    ([tok_1; tok_2; tok_3; tok_4], Some [(fld_0, (B "json")); (fld_1, (B ";")); (fld_2, (B ":")); (fld_3, v_na); (fld_8, v_true); (fld_9, v_true); (fld_30, (B "nidx")); (fld_32, (B " ")); (fld_33, v_na); (fld_37, v_true)]);
     ([tok_5; tok_2; tok_6; tok_4], Some [(fld_0, (B "json")); (fld_1, v_na); (fld_2, v_na); (fld_3, v_na); (fld_30, (B "nidx")); (fld_32, (B ";")); (fld_33, (B ":")); (fld_37, v_true); (fld_38, v_true)]);
-    ([tok_7; tok_2; tok_8; tok_2], Some [(fld_0, (B "json")); (fld_1, v_na); (fld_2, v_na); (fld_3, (B ";")); (fld_10, v_true); (fld_30, (B "nidx")); (fld_31, (B ";")); (fld_32, (B " ")); (fld_33, v_na); (fld_39, v_true)])]);
+    ([tok_7; tok_2; tok_8; tok_2], Some [(fld_0, (B "json")); (fld_1, v_na); (fld_2, v_na); (fld_3, (B ";")); (fld_10, v_true); (fld_30, (B "nidx")); (fld_31, (B ";")); (fld_32, (B " ")); (fld_33, v_na); (fld_37, v_true); (fld_39, v_true)])]);
   (tok_110, [
     ([], Some [(fld_0, (B "json")); (fld_1, v_na); (fld_2, v_na); (fld_3, v_na); (fld_30, (B "pprint")); (fld_32, (B " ")); (fld_33, v_na)]);
     ([tok_1; tok_2; tok_3; tok_4], Some [(fld_0, (B "json")); (fld_1, (B ";")); (fld_2, (B ":")); (fld_3, v_na); (fld_8, v_true); (fld_9, v_true); (fld_30, (B "pprint")); (fld_32, (B " ")); (fld_33, v_na)]);
     ([tok_5; tok_2; tok_6; tok_4], Some [(fld_0, (B "json")); (fld_1, v_na); (fld_2, v_na); (fld_3, v_na); (fld_30, (B "pprint")); (fld_32, (B ";")); (fld_33, (B ":")); (fld_37, v_true); (fld_38, v_true)]);
     ([tok_7; tok_2; tok_8; tok_2], Some [(fld_0, (B "json")); (fld_1, v_na); (fld_2, v_na); (fld_3, (B ";")); (fld_10, v_true); (fld_30, (B "pprint")); (fld_31, (B ";")); (fld_32, (B " ")); (fld_33, v_na); (fld_39, v_true)])]);
   (tok_111, [
-    ([], Some [(fld_0, (B "json")); (fld_1, v_na); (fld_2, v_na); (fld_3, v_na); (fld_30, (B "tsv")); (fld_32, (bs [9]%N)); (fld_33, v_na)]);
-    ([tok_1; tok_2; tok_3; tok_4], Some [(fld_0, (B "json")); (fld_1, (B ";")); (fld_2, (B ":")); (fld_3, v_na); (fld_8, v_true); (fld_9, v_true); (fld_30, (B "tsv")); (fld_32, (bs [9]%N)); (fld_33, v_na)]);
+    ([], Some [(fld_0, (B "json")); (fld_1, v_na); (fld_2, v_na); (fld_3, v_na); (fld_30, (B "tsv")); (fld_32, (bs [9]%N)); (fld_33, v_na); (fld_37, v_true)]);
+    ([tok_1; tok_2; tok_3; tok_4], Some [(fld_0, (B "json")); (fld_1, (B ";")); (fld_2, (B ":")); (fld_3, v_na); (fld_8, v_true); (fld_9, v_true); (fld_30, (B "tsv")); (fld_32, (bs [9]%N)); (fld_33, v_na); (fld_37, v_true)]);
     ([tok_5; tok_2; tok_6; tok_4], Some [(fld_0, (B "json")); (fld_1, v_na); (fld_2, v_na); (fld_3, v_na); (fld_30, (B "tsv")); (fld_32, (B ";")); (fld_33, (B ":")); (fld_37, v_true); (fld_38, v_true)]);
-    ([tok_7; tok_2; tok_8; tok_2], Some [(fld_0, (B "json")); (fld_1, v_na); (fld_2, v_na); (fld_3, (B ";")); (fld_10, v_true); (fld_30, (B "tsv")); (fld_31, (B ";")); (fld_32, (bs [9]%N)); (fld_33, v_na); (fld_39, v_true)])]);
+    ([tok_7; tok_2; tok_8; tok_2], Some [(fld_0, (B "json")); (fld_1, v_na); (fld_2, v_na); (fld_3, (B ";")); (fld_10, v_true); (fld_30, (B "tsv")); (fld_31, (B ";")); (fld_32, (bs [9]%N)); (fld_33, v_na); (fld_37, v_true); (fld_39, v_true)])]);
   (tok_112, [
     ([], Some [(fld_0, (B "json")); (fld_1, v_na); (fld_2, v_na); (fld_3, v_na); (fld_30, (B "xtab")); (fld_31, (bs [10;10]%N)); (fld_32, (bs [10]%N)); (fld_33, (B " "))]);
     ([tok_1; tok_2; tok_3; tok_4], Some [(fld_0, (B "json")); (fld_1, (B ";")); (fld_2, (B ":")); (fld_3, v_na); (fld_8, v_true); (fld_9, v_true); (fld_30, (B "xtab")); (fld_31, (bs [10;10]%N)); (fld_32, (bs [10]%N)); (fld_33, (B " "))]);
@@ -1730,20 +1730,20 @@ Definition gen_evals_by_head : list (bytes * list (list bytes * option (list (by
     ([tok_5; tok_2; tok_6; tok_4], Some [(fld_0, (B "json")); (fld_1, v_na); (fld_2, v_na); (fld_3, v_na); (fld_30, (B "markdown")); (fld_32, (B ";")); (fld_33, (B ":")); (fld_37, v_true); (fld_38, v_true)]);
     ([tok_7; tok_2; tok_8; tok_2], Some [(fld_0, (B "json")); (fld_1, v_na); (fld_2, v_na); (fld_3, (B ";")); (fld_10, v_true); (fld_30, (B "markdown")); (fld_31, (B ";")); (fld_32, (B " ")); (fld_33, v_na); (fld_39, v_true)])]);
   (tok_119, [
-    ([], Some [(fld_0, (B "json")); (fld_1, v_na); (fld_2, v_na); (fld_3, v_na); (fld_30, (B "nidx")); (fld_32, (B " ")); (fld_33, v_na)]);
-    ([tok_1; tok_2; tok_3; tok_4], Some [(fld_0, (B "json")); (fld_1, (B ";")); (fld_2, (B ":")); (fld_3, v_na); (fld_8, v_true); (fld_9, v_true); (fld_30, (B "nidx")); (fld_32, (B " ")); (fld_33, v_na)]);
+    ([], Some [(fld_0, (B "json")); (fld_1, v_na); (fld_2, v_na); (fld_3, v_na); (fld_30, (B "nidx")); (fld_32, (B " ")); (fld_33, v_na); (fld_37, v_true)]);
+    ([tok_1; tok_2; tok_3; tok_4], Some [(fld_0, (B "json")); (fld_1, (B ";")); (fld_2, (B ":")); (fld_3, v_na); (fld_8, v_true); (fld_9, v_true); (fld_30, (B "nidx")); (fld_32, (B " ")); (fld_33, v_na); (fld_37, v_true)]);
     ([tok_5; tok_2; tok_6; tok_4], Some [(fld_0, (B "json")); (fld_1, v_na); (fld_2, v_na); (fld_3, v_na); (fld_30, (B "nidx")); (fld_32, (B ";")); (fld_33, (B ":")); (fld_37, v_true); (fld_38, v_true)]);
-    ([tok_7; tok_2; tok_8; tok_2], Some [(fld_0, (B "json")); (fld_1, v_na); (fld_2, v_na); (fld_3, (B ";")); (fld_10, v_true); (fld_30, (B "nidx")); (fld_31, (B ";")); (fld_32, (B " ")); (fld_33, v_na); (fld_39, v_true)])]);
+    ([tok_7; tok_2; tok_8; tok_2], Some [(fld_0, (B "json")); (fld_1, v_na); (fld_2, v_na); (fld_3, (B ";")); (fld_10, v_true); (fld_30, (B "nidx")); (fld_31, (B ";")); (fld_32, (B " ")); (fld_33, v_na); (fld_37, v_true); (fld_39, v_true)])]);
   (tok_120, [
     ([], Some [(fld_0, (B "json")); (fld_1, v_na); (fld_2, v_na); (fld_3, v_na); (fld_30, (B "pprint")); (fld_32, (B " ")); (fld_33, v_na)]);
     ([tok_1; tok_2; tok_3; tok_4], Some [(fld_0, (B "json")); (fld_1, (B ";")); (fld_2, (B ":")); (fld_3, v_na); (fld_8, v_true); (fld_9, v_true); (fld_30, (B "pprint")); (fld_32, (B " ")); (fld_33, v_na)]);
     ([tok_5; tok_2; tok_6; tok_4], Some [(fld_0, (B "json")); (fld_1, v_na); (fld_2, v_na); (fld_3, v_na); (fld_30, (B "pprint")); (fld_32, (B ";")); (fld_33, (B ":")); (fld_37, v_true); (fld_38, v_true)]);
     ([tok_7; tok_2; tok_8; tok_2], Some [(fld_0, (B "json")); (fld_1, v_na); (fld_2, v_na); (fld_3, (B ";")); (fld_10, v_true); (fld_30, (B "pprint")); (fld_31, (B ";")); (fld_32, (B " ")); (fld_33, v_na); (fld_39, v_true)])]);
   (tok_121, [
-    ([], Some [(fld_0, (B "json")); (fld_1, v_na); (fld_2, v_na); (fld_3, v_na); (fld_30, (B "tsv")); (fld_32, (bs [9]%N)); (fld_33, v_na)]);
-    ([tok_1; tok_2; tok_3; tok_4], Some [(fld_0, (B "json")); (fld_1, (B ";")); (fld_2, (B ":")); (fld_3, v_na); (fld_8, v_true); (fld_9, v_true); (fld_30, (B "tsv")); (fld_32, (bs [9]%N)); (fld_33, v_na)]);
+    ([], Some [(fld_0, (B "json")); (fld_1, v_na); (fld_2, v_na); (fld_3, v_na); (fld_30, (B "tsv")); (fld_32, (bs [9]%N)); (fld_33, v_na); (fld_37, v_true)]);
+    ([tok_1; tok_2; tok_3; tok_4], Some [(fld_0, (B "json")); (fld_1, (B ";")); (fld_2, (B ":")); (fld_3, v_na); (fld_8, v_true); (fld_9, v_true); (fld_30, (B "tsv")); (fld_32, (bs [9]%N)); (fld_33, v_na); (fld_37, v_true)]);
     ([tok_5; tok_2; tok_6; tok_4], Some [(fld_0, (B "json")); (fld_1, v_na); (fld_2, v_na); (fld_3, v_na); (fld_30, (B "tsv")); (fld_32, (B ";")); (fld_33, (B ":")); (fld_37, v_true); (fld_38, v_true)]);
-    ([tok_7; tok_2; tok_8; tok_2], Some [(fld_0, (B "json")); (fld_1, v_na); (fld_2, v_na); (fld_3, (B ";")); (fld_10, v_true); (fld_30, (B "tsv")); (fld_31, (B ";")); (fld_32, (bs [9]%N)); (fld_33, v_na); (fld_39, v_true)])]);
+    ([tok_7; tok_2; tok_8; tok_2], Some [(fld_0, (B "json")); (fld_1, v_na); (fld_2, v_na); (fld_3, (B ";")); (fld_10, v_true); (fld_30, (B "tsv")); (fld_31, (B ";")); (fld_32, (bs [9]%N)); (fld_33, v_na); (fld_37, v_true); (fld_39, v_true)])]);
   (tok_122, [
     ([], Some [(fld_0, (B "json")); (fld_1, v_na); (fld_2, v_na); (fld_3, v_na); (fld_30, (B "xtab")); (fld_31, (bs [10;10]%N)); (fld_32, (bs [10]%N)); (fld_33, (B " "))]);
     ([tok_1; tok_2; tok_3; tok_4], Some [(fld_0, (B "json")); (fld_1, (B ";")); (fld_2, (B ":")); (fld_3, v_na); (fld_8, v_true); (fld_9, v_true); (fld_30, (B "xtab")); (fld_31, (bs [10;10]%N)); (fld_32, (bs [10]%N)); (fld_33, (B " "))]);
@@ -1775,20 +1775,20 @@ Definition gen_evals_by_head : list (bytes * list (list bytes * option (list (by
     ([tok_5; tok_2; tok_6; tok_4], Some [(fld_0, (B "markdown")); (fld_1, (B " ")); (fld_2, v_na); (fld_30, (B "jsonl")); (fld_31, (B "")); (fld_32, (B ";")); (fld_33, (B ":")); (fld_37, v_true); (fld_38, v_true); (fld_65, v_false); (fld_66, v_true)]);
     ([tok_7; tok_2; tok_8; tok_2], Some [(fld_0, (B "markdown")); (fld_1, (B " ")); (fld_2, v_na); (fld_3, (B ";")); (fld_10, v_true); (fld_30, (B "jsonl")); (fld_31, (B ";")); (fld_32, (B "")); (fld_33, (B "")); (fld_39, v_true); (fld_65, v_false); (fld_66, v_true)])]);
   (tok_128, [
-    ([], Some [(fld_0, (B "markdown")); (fld_1, (B " ")); (fld_2, v_na); (fld_30, (B "nidx")); (fld_32, (B " ")); (fld_33, v_na)]);
-    ([tok_1; tok_2; tok_3; tok_4], Some [(fld_0, (B "markdown")); (fld_1, (B ";")); (fld_2, (B ":")); (fld_8, v_true); (fld_9, v_true); (fld_30, (B "nidx")); (fld_32, (B " ")); (fld_33, v_na)]);
+    ([], Some [(fld_0, (B "markdown")); (fld_1, (B " ")); (fld_2, v_na); (fld_30, (B "nidx")); (fld_32, (B " ")); (fld_33, v_na); (fld_37, v_true)]);
+    ([tok_1; tok_2; tok_3; tok_4], Some [(fld_0, (B "markdown")); (fld_1, (B ";")); (fld_2, (B ":")); (fld_8, v_true); (fld_9, v_true); (fld_30, (B "nidx")); (fld_32, (B " ")); (fld_33, v_na); (fld_37, v_true)]);
     ([tok_5; tok_2; tok_6; tok_4], Some [(fld_0, (B "markdown")); (fld_1, (B " ")); (fld_2, v_na); (fld_30, (B "nidx")); (fld_32, (B ";")); (fld_33, (B ":")); (fld_37, v_true); (fld_38, v_true)]);
-    ([tok_7; tok_2; tok_8; tok_2], Some [(fld_0, (B "markdown")); (fld_1, (B " ")); (fld_2, v_na); (fld_3, (B ";")); (fld_10, v_true); (fld_30, (B "nidx")); (fld_31, (B ";")); (fld_32, (B " ")); (fld_33, v_na); (fld_39, v_true)])]);
+    ([tok_7; tok_2; tok_8; tok_2], Some [(fld_0, (B "markdown")); (fld_1, (B " ")); (fld_2, v_na); (fld_3, (B ";")); (fld_10, v_true); (fld_30, (B "nidx")); (fld_31, (B ";")); (fld_32, (B " ")); (fld_33, v_na); (fld_37, v_true); (fld_39, v_true)])]);
   (tok_129, [
     ([], Some [(fld_0, (B "markdown")); (fld_1, (B " ")); (fld_2, v_na); (fld_30, (B "pprint")); (fld_32, (B " ")); (fld_33, v_na)]);
     ([tok_1; tok_2; tok_3; tok_4], Some [(fld_0, (B "markdown")); (fld_1, (B ";")); (fld_2, (B ":")); (fld_8, v_true); (fld_9, v_true); (fld_30, (B "pprint")); (fld_32, (B " ")); (fld_33, v_na)]);
     ([tok_5; tok_2; tok_6; tok_4], Some [(fld_0, (B "markdown")); (fld_1, (B " ")); (fld_2, v_na); (fld_30, (B "pprint")); (fld_32, (B ";")); (fld_33, (B ":")); (fld_37, v_true); (fld_38, v_true)]);
     ([tok_7; tok_2; tok_8; tok_2], Some [(fld_0, (B "markdown")); (fld_1, (B " ")); (fld_2, v_na); (fld_3, (B ";")); (fld_10, v_true); (fld_30, (B "pprint")); (fld_31, (B ";")); (fld_32, (B " ")); (fld_33, v_na); (fld_39, v_true)])]);
   (tok_130, [
-    ([], Some [(fld_0, (B "markdown")); (fld_1, (B " ")); (fld_2, v_na); (fld_30, (B "tsv")); (fld_32, (bs [9]%N)); (fld_33, v_na)]);
-    ([tok_1; tok_2; tok_3; tok_4], Some [(fld_0, (B "markdown")); (fld_1, (B ";")); (fld_2, (B ":")); (fld_8, v_true); (fld_9, v_true); (fld_30, (B "tsv")); (fld_32, (bs [9]%N)); (fld_33, v_na)]);
+    ([], Some [(fld_0, (B "markdown")); (fld_1, (B " ")); (fld_2, v_na); (fld_30, (B "tsv")); (fld_32, (bs [9]%N)); (fld_33, v_na); (fld_37, v_true)]);
+    ([tok_1; tok_2; tok_3; tok_4], Some [(fld_0, (B "markdown")); (fld_1, (B ";")); (fld_2, (B ":")); (fld_8, v_true); (fld_9, v_true); (fld_30, (B "tsv")); (fld_32, (bs [9]%N)); (fld_33, v_na); (fld_37, v_true)]);
     ([tok_5; tok_2; tok_6; tok_4], Some [(fld_0, (B "markdown")); (fld_1, (B " ")); (fld_2, v_na); (fld_30, (B "tsv")); (fld_32, (B ";")); (fld_33, (B ":")); (fld_37, v_true); (fld_38, v_true)]);
-    ([tok_7; tok_2; tok_8; tok_2], Some [(fld_0, (B "markdown")); (fld_1, (B " ")); (fld_2, v_na); (fld_3, (B ";")); (fld_10, v_true); (fld_30, (B "tsv")); (fld_31, (B ";")); (fld_32, (bs [9]%N)); (fld_33, v_na); (fld_39, v_true)])]);
+    ([tok_7; tok_2; tok_8; tok_2], Some [(fld_0, (B "markdown")); (fld_1, (B " ")); (fld_2, v_na); (fld_3, (B ";")); (fld_10, v_true); (fld_30, (B "tsv")); (fld_31, (B ";")); (fld_32, (bs [9]%N)); (fld_33, v_na); (fld_37, v_true); (fld_39, v_true)])]);
   (tok_131, [
     ([], Some [(fld_0, (B "markdown")); (fld_1, (B " ")); (fld_2, v_na); (fld_30, (B "xtab")); (fld_31, (bs [10;10]%N)); (fld_32, (bs [10]%N)); (fld_33, (B " "))]);
     ([tok_1; tok_2; tok_3; tok_4], Some [(fld_0, (B "markdown")); (fld_1, (B ";")); (fld_2, (B ":")); (fld_8, v_true); (fld_9, v_true); (fld_30, (B "xtab")); (fld_31, (bs [10;10]%N)); (fld_32, (bs [10]%N)); (fld_33, (B " "))]);
@@ -1835,10 +1835,10 @@ Definition gen_evals_by_head : list (bytes * list (list bytes * option (list (by
     ([tok_5; tok_2; tok_6; tok_4], Some [(fld_0, (B "nidx")); (fld_1, (B " ")); (fld_2, v_na); (fld_5, (B "([ \t])+")); (fld_30, (B "pprint")); (fld_32, (B ";")); (fld_33, (B ":")); (fld_37, v_true); (fld_38, v_true)]);
     ([tok_7; tok_2; tok_8; tok_2], Some [(fld_0, (B "nidx")); (fld_1, (B " ")); (fld_2, v_na); (fld_3, (B ";")); (fld_5, (B "([ \t])+")); (fld_10, v_true); (fld_30, (B "pprint")); (fld_31, (B ";")); (fld_32, (B " ")); (fld_33, v_na); (fld_39, v_true)])]);
   (tok_140, [
-    ([], Some [(fld_0, (B "nidx")); (fld_1, (B " ")); (fld_2, v_na); (fld_5, (B "([ \t])+")); (fld_30, (B "tsv")); (fld_32, (bs [9]%N)); (fld_33, v_na)]);
-    ([tok_1; tok_2; tok_3; tok_4], Some [(fld_0, (B "nidx")); (fld_1, (B ";")); (fld_2, (B ":")); (fld_8, v_true); (fld_9, v_true); (fld_30, (B "tsv")); (fld_32, (bs [9]%N)); (fld_33, v_na)]);
+    ([], Some [(fld_0, (B "nidx")); (fld_1, (B " ")); (fld_2, v_na); (fld_5, (B "([ \t])+")); (fld_30, (B "tsv")); (fld_32, (bs [9]%N)); (fld_33, v_na); (fld_37, v_true)]);
+    ([tok_1; tok_2; tok_3; tok_4], Some [(fld_0, (B "nidx")); (fld_1, (B ";")); (fld_2, (B ":")); (fld_8, v_true); (fld_9, v_true); (fld_30, (B "tsv")); (fld_32, (bs [9]%N)); (fld_33, v_na); (fld_37, v_true)]);
     ([tok_5; tok_2; tok_6; tok_4], Some [(fld_0, (B "nidx")); (fld_1, (B " ")); (fld_2, v_na); (fld_5, (B "([ \t])+")); (fld_30, (B "tsv")); (fld_32, (B ";")); (fld_33, (B ":")); (fld_37, v_true); (fld_38, v_true)]);
-    ([tok_7; tok_2; tok_8; tok_2], Some [(fld_0, (B "nidx")); (fld_1, (B " ")); (fld_2, v_na); (fld_3, (B ";")); (fld_5, (B "([ \t])+")); (fld_10, v_true); (fld_30, (B "tsv")); (fld_31, (B ";")); (fld_32, (bs [9]%N)); (fld_33, v_na); (fld_39, v_true)])]);
+    ([tok_7; tok_2; tok_8; tok_2], Some [(fld_0, (B "nidx")); (fld_1, (B " ")); (fld_2, v_na); (fld_3, (B ";")); (fld_5, (B "([ \t])+")); (fld_10, v_true); (fld_30, (B "tsv")); (fld_31, (B ";")); (fld_32, (bs [9]%N)); (fld_33, v_na); (fld_37, v_true); (fld_39, v_true)])]);
   (tok_141, [
     ([], Some [(fld_0, (B "nidx")); (fld_1, (B " ")); (fld_2, v_na); (fld_5, (B "([ \t])+")); (fld_30, (B "xtab")); (fld_31, (bs [10;10]%N)); (fld_32, (bs [10]%N)); (fld_33, (B " "))]);
     ([tok_1; tok_2; tok_3; tok_4], Some [(fld_0, (B "nidx")); (fld_1, (B ";")); (fld_2, (B ":")); (fld_8, v_true); (fld_9, v_true); (fld_30, (B "xtab")); (fld_31, (bs [10;10]%N)); (fld_32, (bs [10]%N)); (fld_33, (B " "))]);
@@ -1875,15 +1875,15 @@ Definition gen_evals_by_head : list (bytes * list (list bytes * option (list (by
     ([tok_5; tok_2; tok_6; tok_4], Some [(fld_0, (B "pprint")); (fld_1, (B " ")); (fld_2, v_na); (fld_4, v_true); (fld_8, v_true); (fld_30, (B "markdown")); (fld_32, (B ";")); (fld_33, (B ":")); (fld_37, v_true); (fld_38, v_true)]);
     ([tok_7; tok_2; tok_8; tok_2], Some [(fld_0, (B "pprint")); (fld_1, (B " ")); (fld_2, v_na); (fld_3, (B ";")); (fld_4, v_true); (fld_8, v_true); (fld_10, v_true); (fld_30, (B "markdown")); (fld_31, (B ";")); (fld_32, (B " ")); (fld_33, v_na); (fld_39, v_true)])]);
   (tok_148, [
-    ([], Some [(fld_0, (B "pprint")); (fld_1, (B " ")); (fld_2, v_na); (fld_4, v_true); (fld_8, v_true); (fld_30, (B "nidx")); (fld_32, (B " ")); (fld_33, v_na)]);
-    ([tok_1; tok_2; tok_3; tok_4], Some [(fld_0, (B "pprint")); (fld_1, (B ";")); (fld_2, (B ":")); (fld_4, v_true); (fld_8, v_true); (fld_9, v_true); (fld_30, (B "nidx")); (fld_32, (B " ")); (fld_33, v_na)]);
+    ([], Some [(fld_0, (B "pprint")); (fld_1, (B " ")); (fld_2, v_na); (fld_4, v_true); (fld_8, v_true); (fld_30, (B "nidx")); (fld_32, (B " ")); (fld_33, v_na); (fld_37, v_true)]);
+    ([tok_1; tok_2; tok_3; tok_4], Some [(fld_0, (B "pprint")); (fld_1, (B ";")); (fld_2, (B ":")); (fld_4, v_true); (fld_8, v_true); (fld_9, v_true); (fld_30, (B "nidx")); (fld_32, (B " ")); (fld_33, v_na); (fld_37, v_true)]);
     ([tok_5; tok_2; tok_6; tok_4], Some [(fld_0, (B "pprint")); (fld_1, (B " ")); (fld_2, v_na); (fld_4, v_true); (fld_8, v_true); (fld_30, (B "nidx")); (fld_32, (B ";")); (fld_33, (B ":")); (fld_37, v_true); (fld_38, v_true)]);
-    ([tok_7; tok_2; tok_8; tok_2], Some [(fld_0, (B "pprint")); (fld_1, (B " ")); (fld_2, v_na); (fld_3, (B ";")); (fld_4, v_true); (fld_8, v_true); (fld_10, v_true); (fld_30, (B "nidx")); (fld_31, (B ";")); (fld_32, (B " ")); (fld_33, v_na); (fld_39, v_true)])]);
+    ([tok_7; tok_2; tok_8; tok_2], Some [(fld_0, (B "pprint")); (fld_1, (B " ")); (fld_2, v_na); (fld_3, (B ";")); (fld_4, v_true); (fld_8, v_true); (fld_10, v_true); (fld_30, (B "nidx")); (fld_31, (B ";")); (fld_32, (B " ")); (fld_33, v_na); (fld_37, v_true); (fld_39, v_true)])]);
   (tok_149, [
-    ([], Some [(fld_0, (B "pprint")); (fld_1, (B " ")); (fld_2, v_na); (fld_4, v_true); (fld_8, v_true); (fld_30, (B "tsv")); (fld_32, (bs [9]%N)); (fld_33, v_na)]);
-    ([tok_1; tok_2; tok_3; tok_4], Some [(fld_0, (B "pprint")); (fld_1, (B ";")); (fld_2, (B ":")); (fld_4, v_true); (fld_8, v_true); (fld_9, v_true); (fld_30, (B "tsv")); (fld_32, (bs [9]%N)); (fld_33, v_na)]);
+    ([], Some [(fld_0, (B "pprint")); (fld_1, (B " ")); (fld_2, v_na); (fld_4, v_true); (fld_8, v_true); (fld_30, (B "tsv")); (fld_32, (bs [9]%N)); (fld_33, v_na); (fld_37, v_true)]);
+    ([tok_1; tok_2; tok_3; tok_4], Some [(fld_0, (B "pprint")); (fld_1, (B ";")); (fld_2, (B ":")); (fld_4, v_true); (fld_8, v_true); (fld_9, v_true); (fld_30, (B "tsv")); (fld_32, (bs [9]%N)); (fld_33, v_na); (fld_37, v_true)]);
     ([tok_5; tok_2; tok_6; tok_4], Some [(fld_0, (B "pprint")); (fld_1, (B " ")); (fld_2, v_na); (fld_4, v_true); (fld_8, v_true); (fld_30, (B "tsv")); (fld_32, (B ";")); (fld_33, (B ":")); (fld_37, v_true); (fld_38, v_true)]);
-    ([tok_7; tok_2; tok_8; tok_2], Some [(fld_0, (B "pprint")); (fld_1, (B " ")); (fld_2, v_na); (fld_3, (B ";")); (fld_4, v_true); (fld_8, v_true); (fld_10, v_true); (fld_30, (B "tsv")); (fld_31, (B ";")); (fld_32, (bs [9]%N)); (fld_33, v_na); (fld_39, v_true)])]);
+    ([tok_7; tok_2; tok_8; tok_2], Some [(fld_0, (B "pprint")); (fld_1, (B " ")); (fld_2, v_na); (fld_3, (B ";")); (fld_4, v_true); (fld_8, v_true); (fld_10, v_true); (fld_30, (B "tsv")); (fld_31, (B ";")); (fld_32, (bs [9]%N)); (fld_33, v_na); (fld_37, v_true); (fld_39, v_true)])]);
   (tok_150, [
     ([], Some [(fld_0, (B "pprint")); (fld_1, (B " ")); (fld_2, v_na); (fld_4, v_true); (fld_8, v_true); (fld_30, (B "xtab")); (fld_31, (bs [10;10]%N)); (fld_32, (bs [10]%N)); (fld_33, (B " "))]);
     ([tok_1; tok_2; tok_3; tok_4], Some [(fld_0, (B "pprint")); (fld_1, (B ";")); (fld_2, (B ":")); (fld_4, v_true); (fld_8, v_true); (fld_9, v_true); (fld_30, (B "xtab")); (fld_31, (bs [10;10]%N)); (fld_32, (bs [10]%N)); (fld_33, (B " "))]);
@@ -1975,20 +1975,20 @@ Definition gen_evals_by_head : list (bytes * list (list bytes * option (list (by
     ([tok_5; tok_2; tok_6; tok_4], Some [(fld_0, (B "xtab")); (fld_1, (bs [10]%N)); (fld_2, (B " ")); (fld_3, (bs [10;10]%N)); (fld_30, (B "markdown")); (fld_32, (B ";")); (fld_33, (B ":")); (fld_37, v_true); (fld_38, v_true)]);
     ([tok_7; tok_2; tok_8; tok_2], Some [(fld_0, (B "xtab")); (fld_1, (bs [10]%N)); (fld_2, (B " ")); (fld_3, (B ";")); (fld_10, v_true); (fld_30, (B "markdown")); (fld_31, (B ";")); (fld_32, (B " ")); (fld_33, v_na); (fld_39, v_true)])]);
   (tok_168, [
-    ([], Some [(fld_0, (B "xtab")); (fld_1, (bs [10]%N)); (fld_2, (B " ")); (fld_3, (bs [10;10]%N)); (fld_30, (B "nidx")); (fld_32, (B " ")); (fld_33, v_na)]);
-    ([tok_1; tok_2; tok_3; tok_4], Some [(fld_0, (B "xtab")); (fld_1, (B ";")); (fld_2, (B ":")); (fld_3, (bs [10;10]%N)); (fld_8, v_true); (fld_9, v_true); (fld_30, (B "nidx")); (fld_32, (B " ")); (fld_33, v_na)]);
+    ([], Some [(fld_0, (B "xtab")); (fld_1, (bs [10]%N)); (fld_2, (B " ")); (fld_3, (bs [10;10]%N)); (fld_30, (B "nidx")); (fld_32, (B " ")); (fld_33, v_na); (fld_37, v_true)]);
+    ([tok_1; tok_2; tok_3; tok_4], Some [(fld_0, (B "xtab")); (fld_1, (B ";")); (fld_2, (B ":")); (fld_3, (bs [10;10]%N)); (fld_8, v_true); (fld_9, v_true); (fld_30, (B "nidx")); (fld_32, (B " ")); (fld_33, v_na); (fld_37, v_true)]);
     ([tok_5; tok_2; tok_6; tok_4], Some [(fld_0, (B "xtab")); (fld_1, (bs [10]%N)); (fld_2, (B " ")); (fld_3, (bs [10;10]%N)); (fld_30, (B "nidx")); (fld_32, (B ";")); (fld_33, (B ":")); (fld_37, v_true); (fld_38, v_true)]);
-    ([tok_7; tok_2; tok_8; tok_2], Some [(fld_0, (B "xtab")); (fld_1, (bs [10]%N)); (fld_2, (B " ")); (fld_3, (B ";")); (fld_10, v_true); (fld_30, (B "nidx")); (fld_31, (B ";")); (fld_32, (B " ")); (fld_33, v_na); (fld_39, v_true)])]);
+    ([tok_7; tok_2; tok_8; tok_2], Some [(fld_0, (B "xtab")); (fld_1, (bs [10]%N)); (fld_2, (B " ")); (fld_3, (B ";")); (fld_10, v_true); (fld_30, (B "nidx")); (fld_31, (B ";")); (fld_32, (B " ")); (fld_33, v_na); (fld_37, v_true); (fld_39, v_true)])]);
   (tok_169, [
     ([], Some [(fld_0, (B "xtab")); (fld_1, (bs [10]%N)); (fld_2, (B " ")); (fld_3, (bs [10;10]%N)); (fld_30, (B "pprint")); (fld_32, (B " ")); (fld_33, v_na)]);
     ([tok_1; tok_2; tok_3; tok_4], Some [(fld_0, (B "xtab")); (fld_1, (B ";")); (fld_2, (B ":")); (fld_3, (bs [10;10]%N)); (fld_8, v_true); (fld_9, v_true); (fld_30, (B "pprint")); (fld_32, (B " ")); (fld_33, v_na)]);
     ([tok_5; tok_2; tok_6; tok_4], Some [(fld_0, (B "xtab")); (fld_1, (bs [10]%N)); (fld_2, (B " ")); (fld_3, (bs [10;10]%N)); (fld_30, (B "pprint")); (fld_32, (B ";")); (fld_33, (B ":")); (fld_37, v_true); (fld_38, v_true)]);
     ([tok_7; tok_2; tok_8; tok_2], Some [(fld_0, (B "xtab")); (fld_1, (bs [10]%N)); (fld_2, (B " ")); (fld_3, (B ";")); (fld_10, v_true); (fld_30, (B "pprint")); (fld_31, (B ";")); (fld_32, (B " ")); (fld_33, v_na); (fld_39, v_true)])]);
   (tok_170, [
-    ([], Some [(fld_0, (B "xtab")); (fld_1, (bs [10]%N)); (fld_2, (B " ")); (fld_3, (bs [10;10]%N)); (fld_30, (B "tsv")); (fld_32, (bs [9]%N)); (fld_33, v_na)]);
-    ([tok_1; tok_2; tok_3; tok_4], Some [(fld_0, (B "xtab")); (fld_1, (B ";")); (fld_2, (B ":")); (fld_3, (bs [10;10]%N)); (fld_8, v_true); (fld_9, v_true); (fld_30, (B "tsv")); (fld_32, (bs [9]%N)); (fld_33, v_na)]);
+    ([], Some [(fld_0, (B "xtab")); (fld_1, (bs [10]%N)); (fld_2, (B " ")); (fld_3, (bs [10;10]%N)); (fld_30, (B "tsv")); (fld_32, (bs [9]%N)); (fld_33, v_na); (fld_37, v_true)]);
+    ([tok_1; tok_2; tok_3; tok_4], Some [(fld_0, (B "xtab")); (fld_1, (B ";")); (fld_2, (B ":")); (fld_3, (bs [10;10]%N)); (fld_8, v_true); (fld_9, v_true); (fld_30, (B "tsv")); (fld_32, (bs [9]%N)); (fld_33, v_na); (fld_37, v_true)]);
     ([tok_5; tok_2; tok_6; tok_4], Some [(fld_0, (B "xtab")); (fld_1, (bs [10]%N)); (fld_2, (B " ")); (fld_3, (bs [10;10]%N)); (fld_30, (B "tsv")); (fld_32, (B ";")); (fld_33, (B ":")); (fld_37, v_true); (fld_38, v_true)]);
-    ([tok_7; tok_2; tok_8; tok_2], Some [(fld_0, (B "xtab")); (fld_1, (bs [10]%N)); (fld_2, (B " ")); (fld_3, (B ";")); (fld_10, v_true); (fld_30, (B "tsv")); (fld_31, (B ";")); (fld_32, (bs [9]%N)); (fld_33, v_na); (fld_39, v_true)])]);
+    ([tok_7; tok_2; tok_8; tok_2], Some [(fld_0, (B "xtab")); (fld_1, (bs [10]%N)); (fld_2, (B " ")); (fld_3, (B ";")); (fld_10, v_true); (fld_30, (B "tsv")); (fld_31, (B ";")); (fld_32, (bs [9]%N)); (fld_33, v_na); (fld_37, v_true); (fld_39, v_true)])]);
   (tok_171, [
     ([], Some [(fld_0, (B "xtab")); (fld_1, (bs [10]%N)); (fld_2, (B " ")); (fld_3, (bs [10;10]%N)); (fld_30, (B "yaml")); (fld_31, v_na); (fld_32, v_na); (fld_33, v_na); (fld_65, v_false); (fld_66, v_true)]);
     ([tok_1; tok_2; tok_3; tok_4], Some [(fld_0, (B "xtab")); (fld_1, (B ";")); (fld_2, (B ":")); (fld_3, (bs [10;10]%N)); (fld_8, v_true); (fld_9, v_true); (fld_30, (B "yaml")); (fld_31, v_na); (fld_32, v_na); (fld_33, v_na); (fld_65, v_false); (fld_66, v_true)]);
@@ -2020,20 +2020,20 @@ Definition gen_evals_by_head : list (bytes * list (list bytes * option (list (by
     ([tok_5; tok_2; tok_6; tok_4], Some [(fld_0, (B "yaml")); (fld_1, v_na); (fld_2, v_na); (fld_3, v_na); (fld_30, (B "markdown")); (fld_32, (B ";")); (fld_33, (B ":")); (fld_37, v_true); (fld_38, v_true)]);
     ([tok_7; tok_2; tok_8; tok_2], Some [(fld_0, (B "yaml")); (fld_1, v_na); (fld_2, v_na); (fld_3, (B ";")); (fld_10, v_true); (fld_30, (B "markdown")); (fld_31, (B ";")); (fld_32, (B " ")); (fld_33, v_na); (fld_39, v_true)])]);
   (tok_177, [
-    ([], Some [(fld_0, (B "yaml")); (fld_1, v_na); (fld_2, v_na); (fld_3, v_na); (fld_30, (B "nidx")); (fld_32, (B " ")); (fld_33, v_na)]);
-    ([tok_1; tok_2; tok_3; tok_4], Some [(fld_0, (B "yaml")); (fld_1, (B ";")); (fld_2, (B ":")); (fld_3, v_na); (fld_8, v_true); (fld_9, v_true); (fld_30, (B "nidx")); (fld_32, (B " ")); (fld_33, v_na)]);
+    ([], Some [(fld_0, (B "yaml")); (fld_1, v_na); (fld_2, v_na); (fld_3, v_na); (fld_30, (B "nidx")); (fld_32, (B " ")); (fld_33, v_na); (fld_37, v_true)]);
+    ([tok_1; tok_2; tok_3; tok_4], Some [(fld_0, (B "yaml")); (fld_1, (B ";")); (fld_2, (B ":")); (fld_3, v_na); (fld_8, v_true); (fld_9, v_true); (fld_30, (B "nidx")); (fld_32, (B " ")); (fld_33, v_na); (fld_37, v_true)]);
     ([tok_5; tok_2; tok_6; tok_4], Some [(fld_0, (B "yaml")); (fld_1, v_na); (fld_2, v_na); (fld_3, v_na); (fld_30, (B "nidx")); (fld_32, (B ";")); (fld_33, (B ":")); (fld_37, v_true); (fld_38, v_true)]);
-    ([tok_7; tok_2; tok_8; tok_2], Some [(fld_0, (B "yaml")); (fld_1, v_na); (fld_2, v_na); (fld_3, (B ";")); (fld_10, v_true); (fld_30, (B "nidx")); (fld_31, (B ";")); (fld_32, (B " ")); (fld_33, v_na); (fld_39, v_true)])]);
+    ([tok_7; tok_2; tok_8; tok_2], Some [(fld_0, (B "yaml")); (fld_1, v_na); (fld_2, v_na); (fld_3, (B ";")); (fld_10, v_true); (fld_30, (B "nidx")); (fld_31, (B ";")); (fld_32, (B " ")); (fld_33, v_na); (fld_37, v_true); (fld_39, v_true)])]);
   (tok_178, [
     ([], Some [(fld_0, (B "yaml")); (fld_1, v_na); (fld_2, v_na); (fld_3, v_na); (fld_30, (B "pprint")); (fld_32, (B " ")); (fld_33, v_na)]);
     ([tok_1; tok_2; tok_3; tok_4], Some [(fld_0, (B "yaml")); (fld_1, (B ";")); (fld_2, (B ":")); (fld_3, v_na); (fld_8, v_true); (fld_9, v_true); (fld_30, (B "pprint")); (fld_32, (B " ")); (fld_33, v_na)]);
     ([tok_5; tok_2; tok_6; tok_4], Some [(fld_0, (B "yaml")); (fld_1, v_na); (fld_2, v_na); (fld_3, v_na); (fld_30, (B "pprint")); (fld_32, (B ";")); (fld_33, (B ":")); (fld_37, v_true); (fld_38, v_true)]);
     ([tok_7; tok_2; tok_8; tok_2], Some [(fld_0, (B "yaml")); (fld_1, v_na); (fld_2, v_na); (fld_3, (B ";")); (fld_10, v_true); (fld_30, (B "pprint")); (fld_31, (B ";")); (fld_32, (B " ")); (fld_33, v_na); (fld_39, v_true)])]);
   (tok_179, [
-    ([], Some [(fld_0, (B "yaml")); (fld_1, v_na); (fld_2, v_na); (fld_3, v_na); (fld_30, (B "tsv")); (fld_32, (bs [9]%N)); (fld_33, v_na)]);
-    ([tok_1; tok_2; tok_3; tok_4], Some [(fld_0, (B "yaml")); (fld_1, (B ";")); (fld_2, (B ":")); (fld_3, v_na); (fld_8, v_true); (fld_9, v_true); (fld_30, (B "tsv")); (fld_32, (bs [9]%N)); (fld_33, v_na)]);
+    ([], Some [(fld_0, (B "yaml")); (fld_1, v_na); (fld_2, v_na); (fld_3, v_na); (fld_30, (B "tsv")); (fld_32, (bs [9]%N)); (fld_33, v_na); (fld_37, v_true)]);
+    ([tok_1; tok_2; tok_3; tok_4], Some [(fld_0, (B "yaml")); (fld_1, (B ";")); (fld_2, (B ":")); (fld_3, v_na); (fld_8, v_true); (fld_9, v_true); (fld_30, (B "tsv")); (fld_32, (bs [9]%N)); (fld_33, v_na); (fld_37, v_true)]);
     ([tok_5; tok_2; tok_6; tok_4], Some [(fld_0, (B "yaml")); (fld_1, v_na); (fld_2, v_na); (fld_3, v_na); (fld_30, (B "tsv")); (fld_32, (B ";")); (fld_33, (B ":")); (fld_37, v_true); (fld_38, v_true)]);
-    ([tok_7; tok_2; tok_8; tok_2], Some [(fld_0, (B "yaml")); (fld_1, v_na); (fld_2, v_na); (fld_3, (B ";")); (fld_10, v_true); (fld_30, (B "tsv")); (fld_31, (B ";")); (fld_32, (bs [9]%N)); (fld_33, v_na); (fld_39, v_true)])]);
+    ([tok_7; tok_2; tok_8; tok_2], Some [(fld_0, (B "yaml")); (fld_1, v_na); (fld_2, v_na); (fld_3, (B ";")); (fld_10, v_true); (fld_30, (B "tsv")); (fld_31, (B ";")); (fld_32, (bs [9]%N)); (fld_33, v_na); (fld_37, v_true); (fld_39, v_true)])]);
   (tok_180, [
     ([], Some [(fld_0, (B "yaml")); (fld_1, v_na); (fld_2, v_na); (fld_3, v_na); (fld_30, (B "xtab")); (fld_31, (bs [10;10]%N)); (fld_32, (bs [10]%N)); (fld_33, (B " "))]);
     ([tok_1; tok_2; tok_3; tok_4], Some [(fld_0, (B "yaml")); (fld_1, (B ";")); (fld_2, (B ":")); (fld_3, v_na); (fld_8, v_true); (fld_9, v_true); (fld_30, (B "xtab")); (fld_31, (bs [10;10]%N)); (fld_32, (bs [10]%N)); (fld_33, (B " "))]);
@@ -2328,7 +2328,7 @@ Definition gen_evals_by_head : list (bytes * list (list bytes * option (list (by
     ([tok_2; tok_24; tok_61], Some [(fld_0, (B "csv")); (fld_1, (B ";")); (fld_2, v_na); (fld_8, v_true); (fld_30, (B "nidx")); (fld_32, (B " ")); (fld_33, v_na); (fld_37, v_true)]);
     ([tok_2; tok_90], Some [(fld_0, (B "csv")); (fld_1, (B ";")); (fld_2, v_na); (fld_8, v_true); (fld_10, v_true); (fld_30, (B "pprint")); (fld_32, (B " ")); (fld_33, v_na)]);
     ([tok_2; tok_24; tok_62], Some [(fld_0, (B "csv")); (fld_1, (B ";")); (fld_2, v_na); (fld_8, v_true); (fld_30, (B "pprint")); (fld_32, (B " ")); (fld_33, v_na)]);
-    ([tok_2; tok_91], Some [(fld_0, (B "csv")); (fld_1, (B ";")); (fld_2, v_na); (fld_8, v_true); (fld_10, v_true); (fld_30, (B "tsv")); (fld_32, (bs [9]%N)); (fld_33, v_na)]);
+    ([tok_2; tok_91], Some [(fld_0, (B "csv")); (fld_1, (B ";")); (fld_2, v_na); (fld_8, v_true); (fld_10, v_true); (fld_30, (B "tsv")); (fld_32, (bs [9]%N)); (fld_33, v_na); (fld_37, v_true)]);
     ([tok_2; tok_24; tok_64], Some [(fld_0, (B "csv")); (fld_1, (B ";")); (fld_2, v_na); (fld_8, v_true); (fld_30, (B "tsv")); (fld_32, (bs [9]%N)); (fld_33, v_na); (fld_37, v_true)]);
     ([tok_2; tok_92], Some [(fld_0, (B "csv")); (fld_1, (B ";")); (fld_2, v_na); (fld_8, v_true); (fld_10, v_true); (fld_30, (B "xtab")); (fld_31, (bs [10;10]%N)); (fld_32, (bs [10]%N)); (fld_33, (B " "))]);
     ([tok_2; tok_24; tok_68], Some [(fld_0, (B "csv")); (fld_1, (B ";")); (fld_2, v_na); (fld_8, v_true); (fld_30, (B "xtab")); (fld_31, (bs [10;10]%N)); (fld_32, (bs [10]%N)); (fld_33, (B " "))]);
@@ -2368,11 +2368,11 @@ Definition gen_evals_by_head : list (bytes * list (list bytes * option (list (by
     ([tok_2; tok_29; tok_58], Some [(fld_0, (B "json")); (fld_1, (B ";")); (fld_2, v_na); (fld_3, v_na); (fld_8, v_true); (fld_30, (B "jsonl")); (fld_31, (B "")); (fld_32, (B "")); (fld_33, (B "")); (fld_65, v_false)]);
     ([tok_2; tok_108], Some [(fld_0, (B "json")); (fld_1, (B ";")); (fld_2, v_na); (fld_3, v_na); (fld_8, v_true); (fld_30, (B "markdown")); (fld_32, (B " ")); (fld_33, v_na)]);
     ([tok_2; tok_29; tok_59], Some [(fld_0, (B "json")); (fld_1, (B ";")); (fld_2, v_na); (fld_3, v_na); (fld_8, v_true); (fld_30, (B "markdown")); (fld_32, (B " ")); (fld_33, v_na)]);
-    ([tok_2; tok_109], Some [(fld_0, (B "json")); (fld_1, (B ";")); (fld_2, v_na); (fld_3, v_na); (fld_8, v_true); (fld_30, (B "nidx")); (fld_32, (B " ")); (fld_33, v_na)]);
+    ([tok_2; tok_109], Some [(fld_0, (B "json")); (fld_1, (B ";")); (fld_2, v_na); (fld_3, v_na); (fld_8, v_true); (fld_30, (B "nidx")); (fld_32, (B " ")); (fld_33, v_na); (fld_37, v_true)]);
     ([tok_2; tok_29; tok_61], Some [(fld_0, (B "json")); (fld_1, (B ";")); (fld_2, v_na); (fld_3, v_na); (fld_8, v_true); (fld_30, (B "nidx")); (fld_32, (B " ")); (fld_33, v_na); (fld_37, v_true)]);
     ([tok_2; tok_110], Some [(fld_0, (B "json")); (fld_1, (B ";")); (fld_2, v_na); (fld_3, v_na); (fld_8, v_true); (fld_30, (B "pprint")); (fld_32, (B " ")); (fld_33, v_na)]);
     ([tok_2; tok_29; tok_62], Some [(fld_0, (B "json")); (fld_1, (B ";")); (fld_2, v_na); (fld_3, v_na); (fld_8, v_true); (fld_30, (B "pprint")); (fld_32, (B " ")); (fld_33, v_na)]);
-    ([tok_2; tok_111], Some [(fld_0, (B "json")); (fld_1, (B ";")); (fld_2, v_na); (fld_3, v_na); (fld_8, v_true); (fld_30, (B "tsv")); (fld_32, (bs [9]%N)); (fld_33, v_na)]);
+    ([tok_2; tok_111], Some [(fld_0, (B "json")); (fld_1, (B ";")); (fld_2, v_na); (fld_3, v_na); (fld_8, v_true); (fld_30, (B "tsv")); (fld_32, (bs [9]%N)); (fld_33, v_na); (fld_37, v_true)]);
     ([tok_2; tok_29; tok_64], Some [(fld_0, (B "json")); (fld_1, (B ";")); (fld_2, v_na); (fld_3, v_na); (fld_8, v_true); (fld_30, (B "tsv")); (fld_32, (bs [9]%N)); (fld_33, v_na); (fld_37, v_true)]);
     ([tok_2; tok_112], Some [(fld_0, (B "json")); (fld_1, (B ";")); (fld_2, v_na); (fld_3, v_na); (fld_8, v_true); (fld_30, (B "xtab")); (fld_31, (bs [10;10]%N)); (fld_32, (bs [10]%N)); (fld_33, (B " "))]);
     ([tok_2; tok_29; tok_68], Some [(fld_0, (B "json")); (fld_1, (B ";")); (fld_2, v_na); (fld_3, v_na); (fld_8, v_true); (fld_30, (B "xtab")); (fld_31, (bs [10;10]%N)); (fld_32, (bs [10]%N)); (fld_33, (B " "))]);
@@ -2390,11 +2390,11 @@ Definition gen_evals_by_head : list (bytes * list (list bytes * option (list (by
     ([tok_2; tok_30; tok_58], Some [(fld_0, (B "json")); (fld_1, (B ";")); (fld_2, v_na); (fld_3, v_na); (fld_8, v_true); (fld_30, (B "jsonl")); (fld_31, (B "")); (fld_32, (B "")); (fld_33, (B "")); (fld_65, v_false)]);
     ([tok_2; tok_118], Some [(fld_0, (B "json")); (fld_1, (B ";")); (fld_2, v_na); (fld_3, v_na); (fld_8, v_true); (fld_30, (B "markdown")); (fld_32, (B " ")); (fld_33, v_na)]);
     ([tok_2; tok_30; tok_59], Some [(fld_0, (B "json")); (fld_1, (B ";")); (fld_2, v_na); (fld_3, v_na); (fld_8, v_true); (fld_30, (B "markdown")); (fld_32, (B " ")); (fld_33, v_na)]);
-    ([tok_2; tok_119], Some [(fld_0, (B "json")); (fld_1, (B ";")); (fld_2, v_na); (fld_3, v_na); (fld_8, v_true); (fld_30, (B "nidx")); (fld_32, (B " ")); (fld_33, v_na)]);
+    ([tok_2; tok_119], Some [(fld_0, (B "json")); (fld_1, (B ";")); (fld_2, v_na); (fld_3, v_na); (fld_8, v_true); (fld_30, (B "nidx")); (fld_32, (B " ")); (fld_33, v_na); (fld_37, v_true)]);
     ([tok_2; tok_30; tok_61], Some [(fld_0, (B "json")); (fld_1, (B ";")); (fld_2, v_na); (fld_3, v_na); (fld_8, v_true); (fld_30, (B "nidx")); (fld_32, (B " ")); (fld_33, v_na); (fld_37, v_true)]);
     ([tok_2; tok_120], Some [(fld_0, (B "json")); (fld_1, (B ";")); (fld_2, v_na); (fld_3, v_na); (fld_8, v_true); (fld_30, (B "pprint")); (fld_32, (B " ")); (fld_33, v_na)]);
     ([tok_2; tok_30; tok_62], Some [(fld_0, (B "json")); (fld_1, (B ";")); (fld_2, v_na); (fld_3, v_na); (fld_8, v_true); (fld_30, (B "pprint")); (fld_32, (B " ")); (fld_33, v_na)]);
-    ([tok_2; tok_121], Some [(fld_0, (B "json")); (fld_1, (B ";")); (fld_2, v_na); (fld_3, v_na); (fld_8, v_true); (fld_30, (B "tsv")); (fld_32, (bs [9]%N)); (fld_33, v_na)]);
+    ([tok_2; tok_121], Some [(fld_0, (B "json")); (fld_1, (B ";")); (fld_2, v_na); (fld_3, v_na); (fld_8, v_true); (fld_30, (B "tsv")); (fld_32, (bs [9]%N)); (fld_33, v_na); (fld_37, v_true)]);
     ([tok_2; tok_30; tok_64], Some [(fld_0, (B "json")); (fld_1, (B ";")); (fld_2, v_na); (fld_3, v_na); (fld_8, v_true); (fld_30, (B "tsv")); (fld_32, (bs [9]%N)); (fld_33, v_na); (fld_37, v_true)]);
     ([tok_2; tok_122], Some [(fld_0, (B "json")); (fld_1, (B ";")); (fld_2, v_na); (fld_3, v_na); (fld_8, v_true); (fld_30, (B "xtab")); (fld_31, (bs [10;10]%N)); (fld_32, (bs [10]%N)); (fld_33, (B " "))]);
     ([tok_2; tok_30; tok_68], Some [(fld_0, (B "json")); (fld_1, (B ";")); (fld_2, v_na); (fld_3, v_na); (fld_8, v_true); (fld_30, (B "xtab")); (fld_31, (bs [10;10]%N)); (fld_32, (bs [10]%N)); (fld_33, (B " "))]);
@@ -2408,11 +2408,11 @@ Definition gen_evals_by_head : list (bytes * list (list bytes * option (list (by
     ([tok_2; tok_31; tok_57], Some [(fld_0, (B "markdown")); (fld_1, (B ";")); (fld_2, v_na); (fld_8, v_true); (fld_30, (B "json")); (fld_31, v_na); (fld_32, v_na); (fld_33, v_na); (fld_65, v_false); (fld_66, v_true)]);
     ([tok_2; tok_127], Some [(fld_0, (B "markdown")); (fld_1, (B ";")); (fld_2, v_na); (fld_8, v_true); (fld_30, (B "jsonl")); (fld_31, (B "")); (fld_32, (B "")); (fld_33, (B "")); (fld_65, v_false); (fld_66, v_true)]);
     ([tok_2; tok_31; tok_58], Some [(fld_0, (B "markdown")); (fld_1, (B ";")); (fld_2, v_na); (fld_8, v_true); (fld_30, (B "jsonl")); (fld_31, (B "")); (fld_32, (B "")); (fld_33, (B "")); (fld_65, v_false); (fld_66, v_true)]);
-    ([tok_2; tok_128], Some [(fld_0, (B "markdown")); (fld_1, (B ";")); (fld_2, v_na); (fld_8, v_true); (fld_30, (B "nidx")); (fld_32, (B " ")); (fld_33, v_na)]);
+    ([tok_2; tok_128], Some [(fld_0, (B "markdown")); (fld_1, (B ";")); (fld_2, v_na); (fld_8, v_true); (fld_30, (B "nidx")); (fld_32, (B " ")); (fld_33, v_na); (fld_37, v_true)]);
     ([tok_2; tok_31; tok_61], Some [(fld_0, (B "markdown")); (fld_1, (B ";")); (fld_2, v_na); (fld_8, v_true); (fld_30, (B "nidx")); (fld_32, (B " ")); (fld_33, v_na); (fld_37, v_true)]);
     ([tok_2; tok_129], Some [(fld_0, (B "markdown")); (fld_1, (B ";")); (fld_2, v_na); (fld_8, v_true); (fld_30, (B "pprint")); (fld_32, (B " ")); (fld_33, v_na)]);
     ([tok_2; tok_31; tok_62], Some [(fld_0, (B "markdown")); (fld_1, (B ";")); (fld_2, v_na); (fld_8, v_true); (fld_30, (B "pprint")); (fld_32, (B " ")); (fld_33, v_na)]);
-    ([tok_2; tok_130], Some [(fld_0, (B "markdown")); (fld_1, (B ";")); (fld_2, v_na); (fld_8, v_true); (fld_30, (B "tsv")); (fld_32, (bs [9]%N)); (fld_33, v_na)]);
+    ([tok_2; tok_130], Some [(fld_0, (B "markdown")); (fld_1, (B ";")); (fld_2, v_na); (fld_8, v_true); (fld_30, (B "tsv")); (fld_32, (bs [9]%N)); (fld_33, v_na); (fld_37, v_true)]);
     ([tok_2; tok_31; tok_64], Some [(fld_0, (B "markdown")); (fld_1, (B ";")); (fld_2, v_na); (fld_8, v_true); (fld_30, (B "tsv")); (fld_32, (bs [9]%N)); (fld_33, v_na); (fld_37, v_true)]);
     ([tok_2; tok_131], Some [(fld_0, (B "markdown")); (fld_1, (B ";")); (fld_2, v_na); (fld_8, v_true); (fld_30, (B "xtab")); (fld_31, (bs [10;10]%N)); (fld_32, (bs [10]%N)); (fld_33, (B " "))]);
     ([tok_2; tok_31; tok_68], Some [(fld_0, (B "markdown")); (fld_1, (B ";")); (fld_2, v_na); (fld_8, v_true); (fld_30, (B "xtab")); (fld_31, (bs [10;10]%N)); (fld_32, (bs [10]%N)); (fld_33, (B " "))]);
@@ -2433,11 +2433,11 @@ Definition gen_evals_by_head : list (bytes * list (list bytes * option (list (by
     ([tok_2; tok_33; tok_58], Some [(fld_0, (B "nidx")); (fld_1, (B ";")); (fld_2, v_na); (fld_8, v_true); (fld_30, (B "jsonl")); (fld_31, (B "")); (fld_32, (B "")); (fld_33, (B "")); (fld_65, v_false); (fld_66, v_true)]);
     ([tok_2; tok_138], Some [(fld_0, (B "nidx")); (fld_1, (B ";")); (fld_2, v_na); (fld_8, v_true); (fld_30, (B "markdown")); (fld_32, (B " ")); (fld_33, v_na)]);
     ([tok_2; tok_33; tok_59], Some [(fld_0, (B "nidx")); (fld_1, (B ";")); (fld_2, v_na); (fld_8, v_true); (fld_30, (B "markdown")); (fld_32, (B " ")); (fld_33, v_na)]);
-    ([tok_2; tok_50], Some [(fld_0, (B "nidx")); (fld_1, (B ";")); (fld_2, v_na); (fld_8, v_true); (fld_30, (B "nidx")); (fld_32, (B " ")); (fld_33, v_na)]);
+    ([tok_2; tok_50], Some [(fld_0, (B "nidx")); (fld_1, (B ";")); (fld_2, v_na); (fld_8, v_true); (fld_30, (B "nidx")); (fld_32, (B " ")); (fld_33, v_na); (fld_37, v_true)]);
     ([tok_2; tok_33; tok_61], Some [(fld_0, (B "nidx")); (fld_1, (B ";")); (fld_2, v_na); (fld_8, v_true); (fld_30, (B "nidx")); (fld_32, (B " ")); (fld_33, v_na); (fld_37, v_true)]);
     ([tok_2; tok_139], Some [(fld_0, (B "nidx")); (fld_1, (B ";")); (fld_2, v_na); (fld_8, v_true); (fld_30, (B "pprint")); (fld_32, (B " ")); (fld_33, v_na)]);
     ([tok_2; tok_33; tok_62], Some [(fld_0, (B "nidx")); (fld_1, (B ";")); (fld_2, v_na); (fld_8, v_true); (fld_30, (B "pprint")); (fld_32, (B " ")); (fld_33, v_na)]);
-    ([tok_2; tok_140], Some [(fld_0, (B "nidx")); (fld_1, (B ";")); (fld_2, v_na); (fld_8, v_true); (fld_30, (B "tsv")); (fld_32, (bs [9]%N)); (fld_33, v_na)]);
+    ([tok_2; tok_140], Some [(fld_0, (B "nidx")); (fld_1, (B ";")); (fld_2, v_na); (fld_8, v_true); (fld_30, (B "tsv")); (fld_32, (bs [9]%N)); (fld_33, v_na); (fld_37, v_true)]);
     ([tok_2; tok_33; tok_64], Some [(fld_0, (B "nidx")); (fld_1, (B ";")); (fld_2, v_na); (fld_8, v_true); (fld_30, (B "tsv")); (fld_32, (bs [9]%N)); (fld_33, v_na); (fld_37, v_true)]);
     ([tok_2; tok_141], Some [(fld_0, (B "nidx")); (fld_1, (B ";")); (fld_2, v_na); (fld_8, v_true); (fld_30, (B "xtab")); (fld_31, (bs [10;10]%N)); (fld_32, (bs [10]%N)); (fld_33, (B " "))]);
     ([tok_2; tok_33; tok_68], Some [(fld_0, (B "nidx")); (fld_1, (B ";")); (fld_2, v_na); (fld_8, v_true); (fld_30, (B "xtab")); (fld_31, (bs [10;10]%N)); (fld_32, (bs [10]%N)); (fld_33, (B " "))]);
@@ -2453,11 +2453,11 @@ Definition gen_evals_by_head : list (bytes * list (list bytes * option (list (by
     ([tok_2; tok_34; tok_58], Some [(fld_0, (B "pprint")); (fld_1, (B " ")); (fld_2, v_na); (fld_4, v_true); (fld_8, v_true); (fld_30, (B "jsonl")); (fld_31, (B "")); (fld_32, (B "")); (fld_33, (B "")); (fld_65, v_false); (fld_66, v_true)]);
     ([tok_2; tok_147], Some [(fld_0, (B "pprint")); (fld_1, (B " ")); (fld_2, v_na); (fld_4, v_true); (fld_8, v_true); (fld_30, (B "markdown")); (fld_32, (B " ")); (fld_33, v_na)]);
     ([tok_2; tok_34; tok_59], Some [(fld_0, (B "pprint")); (fld_1, (B " ")); (fld_2, v_na); (fld_4, v_true); (fld_8, v_true); (fld_30, (B "markdown")); (fld_32, (B " ")); (fld_33, v_na)]);
-    ([tok_2; tok_148], Some [(fld_0, (B "pprint")); (fld_1, (B " ")); (fld_2, v_na); (fld_4, v_true); (fld_8, v_true); (fld_30, (B "nidx")); (fld_32, (B " ")); (fld_33, v_na)]);
+    ([tok_2; tok_148], Some [(fld_0, (B "pprint")); (fld_1, (B " ")); (fld_2, v_na); (fld_4, v_true); (fld_8, v_true); (fld_30, (B "nidx")); (fld_32, (B " ")); (fld_33, v_na); (fld_37, v_true)]);
     ([tok_2; tok_34; tok_61], Some [(fld_0, (B "pprint")); (fld_1, (B " ")); (fld_2, v_na); (fld_4, v_true); (fld_8, v_true); (fld_30, (B "nidx")); (fld_32, (B " ")); (fld_33, v_na); (fld_37, v_true)]);
     ([tok_2; tok_71], Some [(fld_0, (B "pprint")); (fld_1, (B " ")); (fld_2, v_na); (fld_4, v_true); (fld_8, v_true); (fld_30, (B "pprint")); (fld_32, (B " ")); (fld_33, v_na)]);
     ([tok_2; tok_34; tok_62], Some [(fld_0, (B "pprint")); (fld_1, (B " ")); (fld_2, v_na); (fld_4, v_true); (fld_8, v_true); (fld_30, (B "pprint")); (fld_32, (B " ")); (fld_33, v_na)]);
-    ([tok_2; tok_149], Some [(fld_0, (B "pprint")); (fld_1, (B " ")); (fld_2, v_na); (fld_4, v_true); (fld_8, v_true); (fld_30, (B "tsv")); (fld_32, (bs [9]%N)); (fld_33, v_na)]);
+    ([tok_2; tok_149], Some [(fld_0, (B "pprint")); (fld_1, (B " ")); (fld_2, v_na); (fld_4, v_true); (fld_8, v_true); (fld_30, (B "tsv")); (fld_32, (bs [9]%N)); (fld_33, v_na); (fld_37, v_true)]);
     ([tok_2; tok_34; tok_64], Some [(fld_0, (B "pprint")); (fld_1, (B " ")); (fld_2, v_na); (fld_4, v_true); (fld_8, v_true); (fld_30, (B "tsv")); (fld_32, (bs [9]%N)); (fld_33, v_na); (fld_37, v_true)]);
     ([tok_2; tok_150], Some [(fld_0, (B "pprint")); (fld_1, (B " ")); (fld_2, v_na); (fld_4, v_true); (fld_8, v_true); (fld_30, (B "xtab")); (fld_31, (bs [10;10]%N)); (fld_32, (bs [10]%N)); (fld_33, (B " "))]);
     ([tok_2; tok_34; tok_68], Some [(fld_0, (B "pprint")); (fld_1, (B " ")); (fld_2, v_na); (fld_4, v_true); (fld_8, v_true); (fld_30, (B "xtab")); (fld_31, (bs [10;10]%N)); (fld_32, (bs [10]%N)); (fld_33, (B " "))]);
@@ -2479,7 +2479,7 @@ Definition gen_evals_by_head : list (bytes * list (list bytes * option (list (by
     ([tok_2; tok_36; tok_61], Some [(fld_0, (B "tsv")); (fld_1, (B ";")); (fld_2, v_na); (fld_8, v_true); (fld_30, (B "nidx")); (fld_32, (B " ")); (fld_33, v_na); (fld_37, v_true)]);
     ([tok_2; tok_159], Some [(fld_0, (B "tsv")); (fld_1, (B ";")); (fld_2, v_na); (fld_8, v_true); (fld_30, (B "pprint")); (fld_32, (B " ")); (fld_33, v_na)]);
     ([tok_2; tok_36; tok_62], Some [(fld_0, (B "tsv")); (fld_1, (B ";")); (fld_2, v_na); (fld_8, v_true); (fld_30, (B "pprint")); (fld_32, (B " ")); (fld_33, v_na)]);
-    ([tok_2; tok_75], Some [(fld_0, (B "tsv")); (fld_1, (B ";")); (fld_2, v_na); (fld_8, v_true); (fld_30, (B "tsv")); (fld_32, (bs [9]%N)); (fld_33, v_na)]);
+    ([tok_2; tok_75], Some [(fld_0, (B "tsv")); (fld_1, (B ";")); (fld_2, v_na); (fld_8, v_true); (fld_30, (B "tsv")); (fld_32, (bs [9]%N)); (fld_33, v_na); (fld_37, v_true)]);
     ([tok_2; tok_36; tok_64], Some [(fld_0, (B "tsv")); (fld_1, (B ";")); (fld_2, v_na); (fld_8, v_true); (fld_30, (B "tsv")); (fld_32, (bs [9]%N)); (fld_33, v_na); (fld_37, v_true)]);
     ([tok_2; tok_160], Some [(fld_0, (B "tsv")); (fld_1, (B ";")); (fld_2, v_na); (fld_8, v_true); (fld_30, (B "xtab")); (fld_31, (bs [10;10]%N)); (fld_32, (bs [10]%N)); (fld_33, (B " "))]);
     ([tok_2; tok_36; tok_68], Some [(fld_0, (B "tsv")); (fld_1, (B ";")); (fld_2, v_na); (fld_8, v_true); (fld_30, (B "xtab")); (fld_31, (bs [10;10]%N)); (fld_32, (bs [10]%N)); (fld_33, (B " "))]);
@@ -2497,11 +2497,11 @@ Definition gen_evals_by_head : list (bytes * list (list bytes * option (list (by
     ([tok_2; tok_40; tok_58], Some [(fld_0, (B "xtab")); (fld_1, (B ";")); (fld_2, (B " ")); (fld_3, (bs [10;10]%N)); (fld_8, v_true); (fld_30, (B "jsonl")); (fld_31, (B "")); (fld_32, (B "")); (fld_33, (B "")); (fld_65, v_false); (fld_66, v_true)]);
     ([tok_2; tok_167], Some [(fld_0, (B "xtab")); (fld_1, (B ";")); (fld_2, (B " ")); (fld_3, (bs [10;10]%N)); (fld_8, v_true); (fld_30, (B "markdown")); (fld_32, (B " ")); (fld_33, v_na)]);
     ([tok_2; tok_40; tok_59], Some [(fld_0, (B "xtab")); (fld_1, (B ";")); (fld_2, (B " ")); (fld_3, (bs [10;10]%N)); (fld_8, v_true); (fld_30, (B "markdown")); (fld_32, (B " ")); (fld_33, v_na)]);
-    ([tok_2; tok_168], Some [(fld_0, (B "xtab")); (fld_1, (B ";")); (fld_2, (B " ")); (fld_3, (bs [10;10]%N)); (fld_8, v_true); (fld_30, (B "nidx")); (fld_32, (B " ")); (fld_33, v_na)]);
+    ([tok_2; tok_168], Some [(fld_0, (B "xtab")); (fld_1, (B ";")); (fld_2, (B " ")); (fld_3, (bs [10;10]%N)); (fld_8, v_true); (fld_30, (B "nidx")); (fld_32, (B " ")); (fld_33, v_na); (fld_37, v_true)]);
     ([tok_2; tok_40; tok_61], Some [(fld_0, (B "xtab")); (fld_1, (B ";")); (fld_2, (B " ")); (fld_3, (bs [10;10]%N)); (fld_8, v_true); (fld_30, (B "nidx")); (fld_32, (B " ")); (fld_33, v_na); (fld_37, v_true)]);
     ([tok_2; tok_169], Some [(fld_0, (B "xtab")); (fld_1, (B ";")); (fld_2, (B " ")); (fld_3, (bs [10;10]%N)); (fld_8, v_true); (fld_30, (B "pprint")); (fld_32, (B " ")); (fld_33, v_na)]);
     ([tok_2; tok_40; tok_62], Some [(fld_0, (B "xtab")); (fld_1, (B ";")); (fld_2, (B " ")); (fld_3, (bs [10;10]%N)); (fld_8, v_true); (fld_30, (B "pprint")); (fld_32, (B " ")); (fld_33, v_na)]);
-    ([tok_2; tok_170], Some [(fld_0, (B "xtab")); (fld_1, (B ";")); (fld_2, (B " ")); (fld_3, (bs [10;10]%N)); (fld_8, v_true); (fld_30, (B "tsv")); (fld_32, (bs [9]%N)); (fld_33, v_na)]);
+    ([tok_2; tok_170], Some [(fld_0, (B "xtab")); (fld_1, (B ";")); (fld_2, (B " ")); (fld_3, (bs [10;10]%N)); (fld_8, v_true); (fld_30, (B "tsv")); (fld_32, (bs [9]%N)); (fld_33, v_na); (fld_37, v_true)]);
     ([tok_2; tok_40; tok_64], Some [(fld_0, (B "xtab")); (fld_1, (B ";")); (fld_2, (B " ")); (fld_3, (bs [10;10]%N)); (fld_8, v_true); (fld_30, (B "tsv")); (fld_32, (bs [9]%N)); (fld_33, v_na); (fld_37, v_true)]);
     ([tok_2; tok_80], Some [(fld_0, (B "xtab")); (fld_1, (B ";")); (fld_2, (B " ")); (fld_3, (bs [10;10]%N)); (fld_8, v_true); (fld_30, (B "xtab")); (fld_31, (bs [10;10]%N)); (fld_32, (bs [10]%N)); (fld_33, (B " "))]);
     ([tok_2; tok_40; tok_68], Some [(fld_0, (B "xtab")); (fld_1, (B ";")); (fld_2, (B " ")); (fld_3, (bs [10;10]%N)); (fld_8, v_true); (fld_30, (B "xtab")); (fld_31, (bs [10;10]%N)); (fld_32, (bs [10]%N)); (fld_33, (B " "))]);
@@ -2517,11 +2517,11 @@ Definition gen_evals_by_head : list (bytes * list (list bytes * option (list (by
     ([tok_2; tok_41; tok_58], Some [(fld_0, (B "yaml")); (fld_1, (B ";")); (fld_2, v_na); (fld_3, v_na); (fld_8, v_true); (fld_30, (B "jsonl")); (fld_31, (B "")); (fld_32, (B "")); (fld_33, (B "")); (fld_65, v_false)]);
     ([tok_2; tok_176], Some [(fld_0, (B "yaml")); (fld_1, (B ";")); (fld_2, v_na); (fld_3, v_na); (fld_8, v_true); (fld_30, (B "markdown")); (fld_32, (B " ")); (fld_33, v_na)]);
     ([tok_2; tok_41; tok_59], Some [(fld_0, (B "yaml")); (fld_1, (B ";")); (fld_2, v_na); (fld_3, v_na); (fld_8, v_true); (fld_30, (B "markdown")); (fld_32, (B " ")); (fld_33, v_na)]);
-    ([tok_2; tok_177], Some [(fld_0, (B "yaml")); (fld_1, (B ";")); (fld_2, v_na); (fld_3, v_na); (fld_8, v_true); (fld_30, (B "nidx")); (fld_32, (B " ")); (fld_33, v_na)]);
+    ([tok_2; tok_177], Some [(fld_0, (B "yaml")); (fld_1, (B ";")); (fld_2, v_na); (fld_3, v_na); (fld_8, v_true); (fld_30, (B "nidx")); (fld_32, (B " ")); (fld_33, v_na); (fld_37, v_true)]);
     ([tok_2; tok_41; tok_61], Some [(fld_0, (B "yaml")); (fld_1, (B ";")); (fld_2, v_na); (fld_3, v_na); (fld_8, v_true); (fld_30, (B "nidx")); (fld_32, (B " ")); (fld_33, v_na); (fld_37, v_true)]);
     ([tok_2; tok_178], Some [(fld_0, (B "yaml")); (fld_1, (B ";")); (fld_2, v_na); (fld_3, v_na); (fld_8, v_true); (fld_30, (B "pprint")); (fld_32, (B " ")); (fld_33, v_na)]);
     ([tok_2; tok_41; tok_62], Some [(fld_0, (B "yaml")); (fld_1, (B ";")); (fld_2, v_na); (fld_3, v_na); (fld_8, v_true); (fld_30, (B "pprint")); (fld_32, (B " ")); (fld_33, v_na)]);
-    ([tok_2; tok_179], Some [(fld_0, (B "yaml")); (fld_1, (B ";")); (fld_2, v_na); (fld_3, v_na); (fld_8, v_true); (fld_30, (B "tsv")); (fld_32, (bs [9]%N)); (fld_33, v_na)]);
+    ([tok_2; tok_179], Some [(fld_0, (B "yaml")); (fld_1, (B ";")); (fld_2, v_na); (fld_3, v_na); (fld_8, v_true); (fld_30, (B "tsv")); (fld_32, (bs [9]%N)); (fld_33, v_na); (fld_37, v_true)]);
     ([tok_2; tok_41; tok_64], Some [(fld_0, (B "yaml")); (fld_1, (B ";")); (fld_2, v_na); (fld_3, v_na); (fld_8, v_true); (fld_30, (B "tsv")); (fld_32, (bs [9]%N)); (fld_33, v_na); (fld_37, v_true)]);
     ([tok_2; tok_180], Some [(fld_0, (B "yaml")); (fld_1, (B ";")); (fld_2, v_na); (fld_3, v_na); (fld_8, v_true); (fld_30, (B "xtab")); (fld_31, (bs [10;10]%N)); (fld_32, (bs [10]%N)); (fld_33, (B " "))]);
     ([tok_2; tok_41; tok_68], Some [(fld_0, (B "yaml")); (fld_1, (B ";")); (fld_2, v_na); (fld_3, v_na); (fld_8, v_true); (fld_30, (B "xtab")); (fld_31, (bs [10;10]%N)); (fld_32, (bs [10]%N)); (fld_33, (B " "))]);
@@ -2603,7 +2603,7 @@ Definition gen_evals_by_head : list (bytes * list (list bytes * option (list (by
     ([tok_2; tok_24; tok_61], Some [(fld_0, (B "csv")); (fld_2, v_na); (fld_30, (B "nidx")); (fld_32, (B " ")); (fld_33, v_na); (fld_37, v_true)]);
     ([tok_2; tok_90], Some [(fld_0, (B "csv")); (fld_2, v_na); (fld_10, v_true); (fld_30, (B "pprint")); (fld_32, (B ";")); (fld_33, v_na); (fld_37, v_true)]);
     ([tok_2; tok_24; tok_62], Some [(fld_0, (B "csv")); (fld_2, v_na); (fld_30, (B "pprint")); (fld_32, (B ";")); (fld_33, v_na); (fld_37, v_true)]);
-    ([tok_2; tok_91], Some [(fld_0, (B "csv")); (fld_2, v_na); (fld_10, v_true); (fld_30, (B "tsv")); (fld_32, (B ";")); (fld_33, v_na); (fld_37, v_true)]);
+    ([tok_2; tok_91], Some [(fld_0, (B "csv")); (fld_2, v_na); (fld_10, v_true); (fld_30, (B "tsv")); (fld_32, (bs [9]%N)); (fld_33, v_na); (fld_37, v_true)]);
     ([tok_2; tok_24; tok_64], Some [(fld_0, (B "csv")); (fld_2, v_na); (fld_30, (B "tsv")); (fld_32, (bs [9]%N)); (fld_33, v_na); (fld_37, v_true)]);
     ([tok_2; tok_92], Some [(fld_0, (B "csv")); (fld_2, v_na); (fld_10, v_true); (fld_30, (B "xtab")); (fld_31, (bs [10;10]%N)); (fld_32, (B ";")); (fld_33, (B " ")); (fld_37, v_true)]);
     ([tok_2; tok_24; tok_68], Some [(fld_0, (B "csv")); (fld_2, v_na); (fld_30, (B "xtab")); (fld_31, (bs [10;10]%N)); (fld_32, (B ";")); (fld_33, (B " ")); (fld_37, v_true)]);
@@ -2643,11 +2643,11 @@ Definition gen_evals_by_head : list (bytes * list (list bytes * option (list (by
     ([tok_2; tok_29; tok_58], Some [(fld_0, (B "json")); (fld_1, v_na); (fld_2, v_na); (fld_3, v_na); (fld_30, (B "jsonl")); (fld_31, (B "")); (fld_32, (B ";")); (fld_33, (B "")); (fld_37, v_true); (fld_65, v_false)]);
     ([tok_2; tok_108], Some [(fld_0, (B "json")); (fld_1, v_na); (fld_2, v_na); (fld_3, v_na); (fld_30, (B "markdown")); (fld_32, (B ";")); (fld_33, v_na); (fld_37, v_true)]);
     ([tok_2; tok_29; tok_59], Some [(fld_0, (B "json")); (fld_1, v_na); (fld_2, v_na); (fld_3, v_na); (fld_30, (B "markdown")); (fld_32, (B ";")); (fld_33, v_na); (fld_37, v_true)]);
-    ([tok_2; tok_109], Some [(fld_0, (B "json")); (fld_1, v_na); (fld_2, v_na); (fld_3, v_na); (fld_30, (B "nidx")); (fld_32, (B ";")); (fld_33, v_na); (fld_37, v_true)]);
+    ([tok_2; tok_109], Some [(fld_0, (B "json")); (fld_1, v_na); (fld_2, v_na); (fld_3, v_na); (fld_30, (B "nidx")); (fld_32, (B " ")); (fld_33, v_na); (fld_37, v_true)]);
     ([tok_2; tok_29; tok_61], Some [(fld_0, (B "json")); (fld_1, v_na); (fld_2, v_na); (fld_3, v_na); (fld_30, (B "nidx")); (fld_32, (B " ")); (fld_33, v_na); (fld_37, v_true)]);
     ([tok_2; tok_110], Some [(fld_0, (B "json")); (fld_1, v_na); (fld_2, v_na); (fld_3, v_na); (fld_30, (B "pprint")); (fld_32, (B ";")); (fld_33, v_na); (fld_37, v_true)]);
     ([tok_2; tok_29; tok_62], Some [(fld_0, (B "json")); (fld_1, v_na); (fld_2, v_na); (fld_3, v_na); (fld_30, (B "pprint")); (fld_32, (B ";")); (fld_33, v_na); (fld_37, v_true)]);
-    ([tok_2; tok_111], Some [(fld_0, (B "json")); (fld_1, v_na); (fld_2, v_na); (fld_3, v_na); (fld_30, (B "tsv")); (fld_32, (B ";")); (fld_33, v_na); (fld_37, v_true)]);
+    ([tok_2; tok_111], Some [(fld_0, (B "json")); (fld_1, v_na); (fld_2, v_na); (fld_3, v_na); (fld_30, (B "tsv")); (fld_32, (bs [9]%N)); (fld_33, v_na); (fld_37, v_true)]);
     ([tok_2; tok_29; tok_64], Some [(fld_0, (B "json")); (fld_1, v_na); (fld_2, v_na); (fld_3, v_na); (fld_30, (B "tsv")); (fld_32, (bs [9]%N)); (fld_33, v_na); (fld_37, v_true)]);
     ([tok_2; tok_112], Some [(fld_0, (B "json")); (fld_1, v_na); (fld_2, v_na); (fld_3, v_na); (fld_30, (B "xtab")); (fld_31, (bs [10;10]%N)); (fld_32, (B ";")); (fld_33, (B " ")); (fld_37, v_true)]);
     ([tok_2; tok_29; tok_68], Some [(fld_0, (B "json")); (fld_1, v_na); (fld_2, v_na); (fld_3, v_na); (fld_30, (B "xtab")); (fld_31, (bs [10;10]%N)); (fld_32, (B ";")); (fld_33, (B " ")); (fld_37, v_true)]);
@@ -2665,11 +2665,11 @@ Definition gen_evals_by_head : list (bytes * list (list bytes * option (list (by
     ([tok_2; tok_30; tok_58], Some [(fld_0, (B "json")); (fld_1, v_na); (fld_2, v_na); (fld_3, v_na); (fld_30, (B "jsonl")); (fld_31, (B "")); (fld_32, (B ";")); (fld_33, (B "")); (fld_37, v_true); (fld_65, v_false)]);
     ([tok_2; tok_118], Some [(fld_0, (B "json")); (fld_1, v_na); (fld_2, v_na); (fld_3, v_na); (fld_30, (B "markdown")); (fld_32, (B ";")); (fld_33, v_na); (fld_37, v_true)]);
     ([tok_2; tok_30; tok_59], Some [(fld_0, (B "json")); (fld_1, v_na); (fld_2, v_na); (fld_3, v_na); (fld_30, (B "markdown")); (fld_32, (B ";")); (fld_33, v_na); (fld_37, v_true)]);
-    ([tok_2; tok_119], Some [(fld_0, (B "json")); (fld_1, v_na); (fld_2, v_na); (fld_3, v_na); (fld_30, (B "nidx")); (fld_32, (B ";")); (fld_33, v_na); (fld_37, v_true)]);
+    ([tok_2; tok_119], Some [(fld_0, (B "json")); (fld_1, v_na); (fld_2, v_na); (fld_3, v_na); (fld_30, (B "nidx")); (fld_32, (B " ")); (fld_33, v_na); (fld_37, v_true)]);
     ([tok_2; tok_30; tok_61], Some [(fld_0, (B "json")); (fld_1, v_na); (fld_2, v_na); (fld_3, v_na); (fld_30, (B "nidx")); (fld_32, (B " ")); (fld_33, v_na); (fld_37, v_true)]);
     ([tok_2; tok_120], Some [(fld_0, (B "json")); (fld_1, v_na); (fld_2, v_na); (fld_3, v_na); (fld_30, (B "pprint")); (fld_32, (B ";")); (fld_33, v_na); (fld_37, v_true)]);
     ([tok_2; tok_30; tok_62], Some [(fld_0, (B "json")); (fld_1, v_na); (fld_2, v_na); (fld_3, v_na); (fld_30, (B "pprint")); (fld_32, (B ";")); (fld_33, v_na); (fld_37, v_true)]);
-    ([tok_2; tok_121], Some [(fld_0, (B "json")); (fld_1, v_na); (fld_2, v_na); (fld_3, v_na); (fld_30, (B "tsv")); (fld_32, (B ";")); (fld_33, v_na); (fld_37, v_true)]);
+    ([tok_2; tok_121], Some [(fld_0, (B "json")); (fld_1, v_na); (fld_2, v_na); (fld_3, v_na); (fld_30, (B "tsv")); (fld_32, (bs [9]%N)); (fld_33, v_na); (fld_37, v_true)]);
     ([tok_2; tok_30; tok_64], Some [(fld_0, (B "json")); (fld_1, v_na); (fld_2, v_na); (fld_3, v_na); (fld_30, (B "tsv")); (fld_32, (bs [9]%N)); (fld_33, v_na); (fld_37, v_true)]);
     ([tok_2; tok_122], Some [(fld_0, (B "json")); (fld_1, v_na); (fld_2, v_na); (fld_3, v_na); (fld_30, (B "xtab")); (fld_31, (bs [10;10]%N)); (fld_32, (B ";")); (fld_33, (B " ")); (fld_37, v_true)]);
     ([tok_2; tok_30; tok_68], Some [(fld_0, (B "json")); (fld_1, v_na); (fld_2, v_na); (fld_3, v_na); (fld_30, (B "xtab")); (fld_31, (bs [10;10]%N)); (fld_32, (B ";")); (fld_33, (B " ")); (fld_37, v_true)]);
@@ -2683,11 +2683,11 @@ Definition gen_evals_by_head : list (bytes * list (list bytes * option (list (by
     ([tok_2; tok_31; tok_57], Some [(fld_0, (B "markdown")); (fld_1, (B " ")); (fld_2, v_na); (fld_30, (B "json")); (fld_31, v_na); (fld_32, (B ";")); (fld_33, v_na); (fld_37, v_true); (fld_65, v_false); (fld_66, v_true)]);
     ([tok_2; tok_127], Some [(fld_0, (B "markdown")); (fld_1, (B " ")); (fld_2, v_na); (fld_30, (B "jsonl")); (fld_31, (B "")); (fld_32, (B ";")); (fld_33, (B "")); (fld_37, v_true); (fld_65, v_false); (fld_66, v_true)]);
     ([tok_2; tok_31; tok_58], Some [(fld_0, (B "markdown")); (fld_1, (B " ")); (fld_2, v_na); (fld_30, (B "jsonl")); (fld_31, (B "")); (fld_32, (B ";")); (fld_33, (B "")); (fld_37, v_true); (fld_65, v_false); (fld_66, v_true)]);
-    ([tok_2; tok_128], Some [(fld_0, (B "markdown")); (fld_1, (B " ")); (fld_2, v_na); (fld_30, (B "nidx")); (fld_32, (B ";")); (fld_33, v_na); (fld_37, v_true)]);
+    ([tok_2; tok_128], Some [(fld_0, (B "markdown")); (fld_1, (B " ")); (fld_2, v_na); (fld_30, (B "nidx")); (fld_32, (B " ")); (fld_33, v_na); (fld_37, v_true)]);
     ([tok_2; tok_31; tok_61], Some [(fld_0, (B "markdown")); (fld_1, (B " ")); (fld_2, v_na); (fld_30, (B "nidx")); (fld_32, (B " ")); (fld_33, v_na); (fld_37, v_true)]);
     ([tok_2; tok_129], Some [(fld_0, (B "markdown")); (fld_1, (B " ")); (fld_2, v_na); (fld_30, (B "pprint")); (fld_32, (B ";")); (fld_33, v_na); (fld_37, v_true)]);
     ([tok_2; tok_31; tok_62], Some [(fld_0, (B "markdown")); (fld_1, (B " ")); (fld_2, v_na); (fld_30, (B "pprint")); (fld_32, (B ";")); (fld_33, v_na); (fld_37, v_true)]);
-    ([tok_2; tok_130], Some [(fld_0, (B "markdown")); (fld_1, (B " ")); (fld_2, v_na); (fld_30, (B "tsv")); (fld_32, (B ";")); (fld_33, v_na); (fld_37, v_true)]);
+    ([tok_2; tok_130], Some [(fld_0, (B "markdown")); (fld_1, (B " ")); (fld_2, v_na); (fld_30, (B "tsv")); (fld_32, (bs [9]%N)); (fld_33, v_na); (fld_37, v_true)]);
     ([tok_2; tok_31; tok_64], Some [(fld_0, (B "markdown")); (fld_1, (B " ")); (fld_2, v_na); (fld_30, (B "tsv")); (fld_32, (bs [9]%N)); (fld_33, v_na); (fld_37, v_true)]);
     ([tok_2; tok_131], Some [(fld_0, (B "markdown")); (fld_1, (B " ")); (fld_2, v_na); (fld_30, (B "xtab")); (fld_31, (bs [10;10]%N)); (fld_32, (B ";")); (fld_33, (B " ")); (fld_37, v_true)]);
     ([tok_2; tok_31; tok_68], Some [(fld_0, (B "markdown")); (fld_1, (B " ")); (fld_2, v_na); (fld_30, (B "xtab")); (fld_31, (bs [10;10]%N)); (fld_32, (B ";")); (fld_33, (B " ")); (fld_37, v_true)]);
@@ -2708,11 +2708,11 @@ Definition gen_evals_by_head : list (bytes * list (list bytes * option (list (by
     ([tok_2; tok_33; tok_58], Some [(fld_0, (B "nidx")); (fld_1, (B " ")); (fld_2, v_na); (fld_5, (B "([ \t])+")); (fld_30, (B "jsonl")); (fld_31, (B "")); (fld_32, (B ";")); (fld_33, (B "")); (fld_37, v_true); (fld_65, v_false); (fld_66, v_true)]);
     ([tok_2; tok_138], Some [(fld_0, (B "nidx")); (fld_1, (B " ")); (fld_2, v_na); (fld_5, (B "([ \t])+")); (fld_30, (B "markdown")); (fld_32, (B ";")); (fld_33, v_na); (fld_37, v_true)]);
     ([tok_2; tok_33; tok_59], Some [(fld_0, (B "nidx")); (fld_1, (B " ")); (fld_2, v_na); (fld_5, (B "([ \t])+")); (fld_30, (B "markdown")); (fld_32, (B ";")); (fld_33, v_na); (fld_37, v_true)]);
-    ([tok_2; tok_50], Some [(fld_0, (B "nidx")); (fld_1, (B " ")); (fld_2, v_na); (fld_5, (B "([ \t])+")); (fld_30, (B "nidx")); (fld_32, (B ";")); (fld_33, v_na); (fld_37, v_true)]);
+    ([tok_2; tok_50], Some [(fld_0, (B "nidx")); (fld_1, (B " ")); (fld_2, v_na); (fld_5, (B "([ \t])+")); (fld_30, (B "nidx")); (fld_32, (B " ")); (fld_33, v_na); (fld_37, v_true)]);
     ([tok_2; tok_33; tok_61], Some [(fld_0, (B "nidx")); (fld_1, (B " ")); (fld_2, v_na); (fld_5, (B "([ \t])+")); (fld_30, (B "nidx")); (fld_32, (B " ")); (fld_33, v_na); (fld_37, v_true)]);
     ([tok_2; tok_139], Some [(fld_0, (B "nidx")); (fld_1, (B " ")); (fld_2, v_na); (fld_5, (B "([ \t])+")); (fld_30, (B "pprint")); (fld_32, (B ";")); (fld_33, v_na); (fld_37, v_true)]);
     ([tok_2; tok_33; tok_62], Some [(fld_0, (B "nidx")); (fld_1, (B " ")); (fld_2, v_na); (fld_5, (B "([ \t])+")); (fld_30, (B "pprint")); (fld_32, (B ";")); (fld_33, v_na); (fld_37, v_true)]);
-    ([tok_2; tok_140], Some [(fld_0, (B "nidx")); (fld_1, (B " ")); (fld_2, v_na); (fld_5, (B "([ \t])+")); (fld_30, (B "tsv")); (fld_32, (B ";")); (fld_33, v_na); (fld_37, v_true)]);
+    ([tok_2; tok_140], Some [(fld_0, (B "nidx")); (fld_1, (B " ")); (fld_2, v_na); (fld_5, (B "([ \t])+")); (fld_30, (B "tsv")); (fld_32, (bs [9]%N)); (fld_33, v_na); (fld_37, v_true)]);
     ([tok_2; tok_33; tok_64], Some [(fld_0, (B "nidx")); (fld_1, (B " ")); (fld_2, v_na); (fld_5, (B "([ \t])+")); (fld_30, (B "tsv")); (fld_32, (bs [9]%N)); (fld_33, v_na); (fld_37, v_true)]);
     ([tok_2; tok_141], Some [(fld_0, (B "nidx")); (fld_1, (B " ")); (fld_2, v_na); (fld_5, (B "([ \t])+")); (fld_30, (B "xtab")); (fld_31, (bs [10;10]%N)); (fld_32, (B ";")); (fld_33, (B " ")); (fld_37, v_true)]);
     ([tok_2; tok_33; tok_68], Some [(fld_0, (B "nidx")); (fld_1, (B " ")); (fld_2, v_na); (fld_5, (B "([ \t])+")); (fld_30, (B "xtab")); (fld_31, (bs [10;10]%N)); (fld_32, (B ";")); (fld_33, (B " ")); (fld_37, v_true)]);
@@ -2728,11 +2728,11 @@ Definition gen_evals_by_head : list (bytes * list (list bytes * option (list (by
     ([tok_2; tok_34; tok_58], Some [(fld_0, (B "pprint")); (fld_1, (B " ")); (fld_2, v_na); (fld_4, v_true); (fld_8, v_true); (fld_30, (B "jsonl")); (fld_31, (B "")); (fld_32, (B ";")); (fld_33, (B "")); (fld_37, v_true); (fld_65, v_false); (fld_66, v_true)]);
     ([tok_2; tok_147], Some [(fld_0, (B "pprint")); (fld_1, (B " ")); (fld_2, v_na); (fld_4, v_true); (fld_8, v_true); (fld_30, (B "markdown")); (fld_32, (B ";")); (fld_33, v_na); (fld_37, v_true)]);
     ([tok_2; tok_34; tok_59], Some [(fld_0, (B "pprint")); (fld_1, (B " ")); (fld_2, v_na); (fld_4, v_true); (fld_8, v_true); (fld_30, (B "markdown")); (fld_32, (B ";")); (fld_33, v_na); (fld_37, v_true)]);
-    ([tok_2; tok_148], Some [(fld_0, (B "pprint")); (fld_1, (B " ")); (fld_2, v_na); (fld_4, v_true); (fld_8, v_true); (fld_30, (B "nidx")); (fld_32, (B ";")); (fld_33, v_na); (fld_37, v_true)]);
+    ([tok_2; tok_148], Some [(fld_0, (B "pprint")); (fld_1, (B " ")); (fld_2, v_na); (fld_4, v_true); (fld_8, v_true); (fld_30, (B "nidx")); (fld_32, (B " ")); (fld_33, v_na); (fld_37, v_true)]);
     ([tok_2; tok_34; tok_61], Some [(fld_0, (B "pprint")); (fld_1, (B " ")); (fld_2, v_na); (fld_4, v_true); (fld_8, v_true); (fld_30, (B "nidx")); (fld_32, (B " ")); (fld_33, v_na); (fld_37, v_true)]);
     ([tok_2; tok_71], Some [(fld_0, (B "pprint")); (fld_1, (B " ")); (fld_2, v_na); (fld_4, v_true); (fld_8, v_true); (fld_30, (B "pprint")); (fld_32, (B ";")); (fld_33, v_na); (fld_37, v_true)]);
     ([tok_2; tok_34; tok_62], Some [(fld_0, (B "pprint")); (fld_1, (B " ")); (fld_2, v_na); (fld_4, v_true); (fld_8, v_true); (fld_30, (B "pprint")); (fld_32, (B ";")); (fld_33, v_na); (fld_37, v_true)]);
-    ([tok_2; tok_149], Some [(fld_0, (B "pprint")); (fld_1, (B " ")); (fld_2, v_na); (fld_4, v_true); (fld_8, v_true); (fld_30, (B "tsv")); (fld_32, (B ";")); (fld_33, v_na); (fld_37, v_true)]);
+    ([tok_2; tok_149], Some [(fld_0, (B "pprint")); (fld_1, (B " ")); (fld_2, v_na); (fld_4, v_true); (fld_8, v_true); (fld_30, (B "tsv")); (fld_32, (bs [9]%N)); (fld_33, v_na); (fld_37, v_true)]);
     ([tok_2; tok_34; tok_64], Some [(fld_0, (B "pprint")); (fld_1, (B " ")); (fld_2, v_na); (fld_4, v_true); (fld_8, v_true); (fld_30, (B "tsv")); (fld_32, (bs [9]%N)); (fld_33, v_na); (fld_37, v_true)]);
     ([tok_2; tok_150], Some [(fld_0, (B "pprint")); (fld_1, (B " ")); (fld_2, v_na); (fld_4, v_true); (fld_8, v_true); (fld_30, (B "xtab")); (fld_31, (bs [10;10]%N)); (fld_32, (B ";")); (fld_33, (B " ")); (fld_37, v_true)]);
     ([tok_2; tok_34; tok_68], Some [(fld_0, (B "pprint")); (fld_1, (B " ")); (fld_2, v_na); (fld_4, v_true); (fld_8, v_true); (fld_30, (B "xtab")); (fld_31, (bs [10;10]%N)); (fld_32, (B ";")); (fld_33, (B " ")); (fld_37, v_true)]);
@@ -2754,7 +2754,7 @@ Definition gen_evals_by_head : list (bytes * list (list bytes * option (list (by
     ([tok_2; tok_36; tok_61], Some [(fld_0, (B "tsv")); (fld_1, (bs [9]%N)); (fld_2, v_na); (fld_30, (B "nidx")); (fld_32, (B " ")); (fld_33, v_na); (fld_37, v_true)]);
     ([tok_2; tok_159], Some [(fld_0, (B "tsv")); (fld_1, (bs [9]%N)); (fld_2, v_na); (fld_30, (B "pprint")); (fld_32, (B ";")); (fld_33, v_na); (fld_37, v_true)]);
     ([tok_2; tok_36; tok_62], Some [(fld_0, (B "tsv")); (fld_1, (bs [9]%N)); (fld_2, v_na); (fld_30, (B "pprint")); (fld_32, (B ";")); (fld_33, v_na); (fld_37, v_true)]);
-    ([tok_2; tok_75], Some [(fld_0, (B "tsv")); (fld_1, (bs [9]%N)); (fld_2, v_na); (fld_30, (B "tsv")); (fld_32, (B ";")); (fld_33, v_na); (fld_37, v_true)]);
+    ([tok_2; tok_75], Some [(fld_0, (B "tsv")); (fld_1, (bs [9]%N)); (fld_2, v_na); (fld_30, (B "tsv")); (fld_32, (bs [9]%N)); (fld_33, v_na); (fld_37, v_true)]);
     ([tok_2; tok_36; tok_64], Some [(fld_0, (B "tsv")); (fld_1, (bs [9]%N)); (fld_2, v_na); (fld_30, (B "tsv")); (fld_32, (bs [9]%N)); (fld_33, v_na); (fld_37, v_true)]);
     ([tok_2; tok_160], Some [(fld_0, (B "tsv")); (fld_1, (bs [9]%N)); (fld_2, v_na); (fld_30, (B "xtab")); (fld_31, (bs [10;10]%N)); (fld_32, (B ";")); (fld_33, (B " ")); (fld_37, v_true)]);
     ([tok_2; tok_36; tok_68], Some [(fld_0, (B "tsv")); (fld_1, (bs [9]%N)); (fld_2, v_na); (fld_30, (B "xtab")); (fld_31, (bs [10;10]%N)); (fld_32, (B ";")); (fld_33, (B " ")); (fld_37, v_true)]);
@@ -2772,11 +2772,11 @@ Definition gen_evals_by_head : list (bytes * list (list bytes * option (list (by
     ([tok_2; tok_40; tok_58], Some [(fld_0, (B "xtab")); (fld_1, (bs [10]%N)); (fld_2, (B " ")); (fld_3, (bs [10;10]%N)); (fld_30, (B "jsonl")); (fld_31, (B "")); (fld_32, (B ";")); (fld_33, (B "")); (fld_37, v_true); (fld_65, v_false); (fld_66, v_true)]);
     ([tok_2; tok_167], Some [(fld_0, (B "xtab")); (fld_1, (bs [10]%N)); (fld_2, (B " ")); (fld_3, (bs [10;10]%N)); (fld_30, (B "markdown")); (fld_32, (B ";")); (fld_33, v_na); (fld_37, v_true)]);
     ([tok_2; tok_40; tok_59], Some [(fld_0, (B "xtab")); (fld_1, (bs [10]%N)); (fld_2, (B " ")); (fld_3, (bs [10;10]%N)); (fld_30, (B "markdown")); (fld_32, (B ";")); (fld_33, v_na); (fld_37, v_true)]);
-    ([tok_2; tok_168], Some [(fld_0, (B "xtab")); (fld_1, (bs [10]%N)); (fld_2, (B " ")); (fld_3, (bs [10;10]%N)); (fld_30, (B "nidx")); (fld_32, (B ";")); (fld_33, v_na); (fld_37, v_true)]);
+    ([tok_2; tok_168], Some [(fld_0, (B "xtab")); (fld_1, (bs [10]%N)); (fld_2, (B " ")); (fld_3, (bs [10;10]%N)); (fld_30, (B "nidx")); (fld_32, (B " ")); (fld_33, v_na); (fld_37, v_true)]);
     ([tok_2; tok_40; tok_61], Some [(fld_0, (B "xtab")); (fld_1, (bs [10]%N)); (fld_2, (B " ")); (fld_3, (bs [10;10]%N)); (fld_30, (B "nidx")); (fld_32, (B " ")); (fld_33, v_na); (fld_37, v_true)]);
     ([tok_2; tok_169], Some [(fld_0, (B "xtab")); (fld_1, (bs [10]%N)); (fld_2, (B " ")); (fld_3, (bs [10;10]%N)); (fld_30, (B "pprint")); (fld_32, (B ";")); (fld_33, v_na); (fld_37, v_true)]);
     ([tok_2; tok_40; tok_62], Some [(fld_0, (B "xtab")); (fld_1, (bs [10]%N)); (fld_2, (B " ")); (fld_3, (bs [10;10]%N)); (fld_30, (B "pprint")); (fld_32, (B ";")); (fld_33, v_na); (fld_37, v_true)]);
-    ([tok_2; tok_170], Some [(fld_0, (B "xtab")); (fld_1, (bs [10]%N)); (fld_2, (B " ")); (fld_3, (bs [10;10]%N)); (fld_30, (B "tsv")); (fld_32, (B ";")); (fld_33, v_na); (fld_37, v_true)]);
+    ([tok_2; tok_170], Some [(fld_0, (B "xtab")); (fld_1, (bs [10]%N)); (fld_2, (B " ")); (fld_3, (bs [10;10]%N)); (fld_30, (B "tsv")); (fld_32, (bs [9]%N)); (fld_33, v_na); (fld_37, v_true)]);
     ([tok_2; tok_40; tok_64], Some [(fld_0, (B "xtab")); (fld_1, (bs [10]%N)); (fld_2, (B " ")); (fld_3, (bs [10;10]%N)); (fld_30, (B "tsv")); (fld_32, (bs [9]%N)); (fld_33, v_na); (fld_37, v_true)]);
     ([tok_2; tok_80], Some [(fld_0, (B "xtab")); (fld_1, (bs [10]%N)); (fld_2, (B " ")); (fld_3, (bs [10;10]%N)); (fld_30, (B "xtab")); (fld_31, (bs [10;10]%N)); (fld_32, (B ";")); (fld_33, (B " ")); (fld_37, v_true)]);
     ([tok_2; tok_40; tok_68], Some [(fld_0, (B "xtab")); (fld_1, (bs [10]%N)); (fld_2, (B " ")); (fld_3, (bs [10;10]%N)); (fld_30, (B "xtab")); (fld_31, (bs [10;10]%N)); (fld_32, (B ";")); (fld_33, (B " ")); (fld_37, v_true)]);
@@ -2792,11 +2792,11 @@ Definition gen_evals_by_head : list (bytes * list (list bytes * option (list (by
     ([tok_2; tok_41; tok_58], Some [(fld_0, (B "yaml")); (fld_1, v_na); (fld_2, v_na); (fld_3, v_na); (fld_30, (B "jsonl")); (fld_31, (B "")); (fld_32, (B ";")); (fld_33, (B "")); (fld_37, v_true); (fld_65, v_false)]);
     ([tok_2; tok_176], Some [(fld_0, (B "yaml")); (fld_1, v_na); (fld_2, v_na); (fld_3, v_na); (fld_30, (B "markdown")); (fld_32, (B ";")); (fld_33, v_na); (fld_37, v_true)]);
     ([tok_2; tok_41; tok_59], Some [(fld_0, (B "yaml")); (fld_1, v_na); (fld_2, v_na); (fld_3, v_na); (fld_30, (B "markdown")); (fld_32, (B ";")); (fld_33, v_na); (fld_37, v_true)]);
-    ([tok_2; tok_177], Some [(fld_0, (B "yaml")); (fld_1, v_na); (fld_2, v_na); (fld_3, v_na); (fld_30, (B "nidx")); (fld_32, (B ";")); (fld_33, v_na); (fld_37, v_true)]);
+    ([tok_2; tok_177], Some [(fld_0, (B "yaml")); (fld_1, v_na); (fld_2, v_na); (fld_3, v_na); (fld_30, (B "nidx")); (fld_32, (B " ")); (fld_33, v_na); (fld_37, v_true)]);
     ([tok_2; tok_41; tok_61], Some [(fld_0, (B "yaml")); (fld_1, v_na); (fld_2, v_na); (fld_3, v_na); (fld_30, (B "nidx")); (fld_32, (B " ")); (fld_33, v_na); (fld_37, v_true)]);
     ([tok_2; tok_178], Some [(fld_0, (B "yaml")); (fld_1, v_na); (fld_2, v_na); (fld_3, v_na); (fld_30, (B "pprint")); (fld_32, (B ";")); (fld_33, v_na); (fld_37, v_true)]);
     ([tok_2; tok_41; tok_62], Some [(fld_0, (B "yaml")); (fld_1, v_na); (fld_2, v_na); (fld_3, v_na); (fld_30, (B "pprint")); (fld_32, (B ";")); (fld_33, v_na); (fld_37, v_true)]);
-    ([tok_2; tok_179], Some [(fld_0, (B "yaml")); (fld_1, v_na); (fld_2, v_na); (fld_3, v_na); (fld_30, (B "tsv")); (fld_32, (B ";")); (fld_33, v_na); (fld_37, v_true)]);
+    ([tok_2; tok_179], Some [(fld_0, (B "yaml")); (fld_1, v_na); (fld_2, v_na); (fld_3, v_na); (fld_30, (B "tsv")); (fld_32, (bs [9]%N)); (fld_33, v_na); (fld_37, v_true)]);
     ([tok_2; tok_41; tok_64], Some [(fld_0, (B "yaml")); (fld_1, v_na); (fld_2, v_na); (fld_3, v_na); (fld_30, (B "tsv")); (fld_32, (bs [9]%N)); (fld_33, v_na); (fld_37, v_true)]);
     ([tok_2; tok_180], Some [(fld_0, (B "yaml")); (fld_1, v_na); (fld_2, v_na); (fld_3, v_na); (fld_30, (B "xtab")); (fld_31, (bs [10;10]%N)); (fld_32, (B ";")); (fld_33, (B " ")); (fld_37, v_true)]);
     ([tok_2; tok_41; tok_68], Some [(fld_0, (B "yaml")); (fld_1, v_na); (fld_2, v_na); (fld_3, v_na); (fld_30, (B "xtab")); (fld_31, (bs [10;10]%N)); (fld_32, (B ";")); (fld_33, (B " ")); (fld_37, v_true)]);
@@ -2878,7 +2878,7 @@ Definition gen_evals_by_head : list (bytes * list (list bytes * option (list (by
     ([tok_4; tok_24; tok_61], Some [(fld_0, (B "csv")); (fld_2, (B ":")); (fld_9, v_true); (fld_30, (B "nidx")); (fld_32, (B " ")); (fld_33, v_na); (fld_37, v_true)]);
     ([tok_4; tok_90], Some [(fld_0, (B "csv")); (fld_2, (B ":")); (fld_9, v_true); (fld_10, v_true); (fld_30, (B "pprint")); (fld_32, (B " ")); (fld_33, v_na)]);
     ([tok_4; tok_24; tok_62], Some [(fld_0, (B "csv")); (fld_2, (B ":")); (fld_9, v_true); (fld_30, (B "pprint")); (fld_32, (B " ")); (fld_33, v_na)]);
-    ([tok_4; tok_91], Some [(fld_0, (B "csv")); (fld_2, (B ":")); (fld_9, v_true); (fld_10, v_true); (fld_30, (B "tsv")); (fld_32, (bs [9]%N)); (fld_33, v_na)]);
+    ([tok_4; tok_91], Some [(fld_0, (B "csv")); (fld_2, (B ":")); (fld_9, v_true); (fld_10, v_true); (fld_30, (B "tsv")); (fld_32, (bs [9]%N)); (fld_33, v_na); (fld_37, v_true)]);
     ([tok_4; tok_24; tok_64], Some [(fld_0, (B "csv")); (fld_2, (B ":")); (fld_9, v_true); (fld_30, (B "tsv")); (fld_32, (bs [9]%N)); (fld_33, v_na); (fld_37, v_true)]);
     ([tok_4; tok_92], Some [(fld_0, (B "csv")); (fld_2, (B ":")); (fld_9, v_true); (fld_10, v_true); (fld_30, (B "xtab")); (fld_31, (bs [10;10]%N)); (fld_32, (bs [10]%N)); (fld_33, (B " "))]);
     ([tok_4; tok_24; tok_68], Some [(fld_0, (B "csv")); (fld_2, (B ":")); (fld_9, v_true); (fld_30, (B "xtab")); (fld_31, (bs [10;10]%N)); (fld_32, (bs [10]%N)); (fld_33, (B " "))]);
@@ -2918,11 +2918,11 @@ Definition gen_evals_by_head : list (bytes * list (list bytes * option (list (by
     ([tok_4; tok_29; tok_58], Some [(fld_0, (B "json")); (fld_1, v_na); (fld_2, (B ":")); (fld_3, v_na); (fld_9, v_true); (fld_30, (B "jsonl")); (fld_31, (B "")); (fld_32, (B "")); (fld_33, (B "")); (fld_65, v_false)]);
     ([tok_4; tok_108], Some [(fld_0, (B "json")); (fld_1, v_na); (fld_2, (B ":")); (fld_3, v_na); (fld_9, v_true); (fld_30, (B "markdown")); (fld_32, (B " ")); (fld_33, v_na)]);
     ([tok_4; tok_29; tok_59], Some [(fld_0, (B "json")); (fld_1, v_na); (fld_2, (B ":")); (fld_3, v_na); (fld_9, v_true); (fld_30, (B "markdown")); (fld_32, (B " ")); (fld_33, v_na)]);
-    ([tok_4; tok_109], Some [(fld_0, (B "json")); (fld_1, v_na); (fld_2, (B ":")); (fld_3, v_na); (fld_9, v_true); (fld_30, (B "nidx")); (fld_32, (B " ")); (fld_33, v_na)]);
+    ([tok_4; tok_109], Some [(fld_0, (B "json")); (fld_1, v_na); (fld_2, (B ":")); (fld_3, v_na); (fld_9, v_true); (fld_30, (B "nidx")); (fld_32, (B " ")); (fld_33, v_na); (fld_37, v_true)]);
     ([tok_4; tok_29; tok_61], Some [(fld_0, (B "json")); (fld_1, v_na); (fld_2, (B ":")); (fld_3, v_na); (fld_9, v_true); (fld_30, (B "nidx")); (fld_32, (B " ")); (fld_33, v_na); (fld_37, v_true)]);
     ([tok_4; tok_110], Some [(fld_0, (B "json")); (fld_1, v_na); (fld_2, (B ":")); (fld_3, v_na); (fld_9, v_true); (fld_30, (B "pprint")); (fld_32, (B " ")); (fld_33, v_na)]);
     ([tok_4; tok_29; tok_62], Some [(fld_0, (B "json")); (fld_1, v_na); (fld_2, (B ":")); (fld_3, v_na); (fld_9, v_true); (fld_30, (B "pprint")); (fld_32, (B " ")); (fld_33, v_na)]);
-    ([tok_4; tok_111], Some [(fld_0, (B "json")); (fld_1, v_na); (fld_2, (B ":")); (fld_3, v_na); (fld_9, v_true); (fld_30, (B "tsv")); (fld_32, (bs [9]%N)); (fld_33, v_na)]);
+    ([tok_4; tok_111], Some [(fld_0, (B "json")); (fld_1, v_na); (fld_2, (B ":")); (fld_3, v_na); (fld_9, v_true); (fld_30, (B "tsv")); (fld_32, (bs [9]%N)); (fld_33, v_na); (fld_37, v_true)]);
     ([tok_4; tok_29; tok_64], Some [(fld_0, (B "json")); (fld_1, v_na); (fld_2, (B ":")); (fld_3, v_na); (fld_9, v_true); (fld_30, (B "tsv")); (fld_32, (bs [9]%N)); (fld_33, v_na); (fld_37, v_true)]);
     ([tok_4; tok_112], Some [(fld_0, (B "json")); (fld_1, v_na); (fld_2, (B ":")); (fld_3, v_na); (fld_9, v_true); (fld_30, (B "xtab")); (fld_31, (bs [10;10]%N)); (fld_32, (bs [10]%N)); (fld_33, (B " "))]);
     ([tok_4; tok_29; tok_68], Some [(fld_0, (B "json")); (fld_1, v_na); (fld_2, (B ":")); (fld_3, v_na); (fld_9, v_true); (fld_30, (B "xtab")); (fld_31, (bs [10;10]%N)); (fld_32, (bs [10]%N)); (fld_33, (B " "))]);
@@ -2940,11 +2940,11 @@ Definition gen_evals_by_head : list (bytes * list (list bytes * option (list (by
     ([tok_4; tok_30; tok_58], Some [(fld_0, (B "json")); (fld_1, v_na); (fld_2, (B ":")); (fld_3, v_na); (fld_9, v_true); (fld_30, (B "jsonl")); (fld_31, (B "")); (fld_32, (B "")); (fld_33, (B "")); (fld_65, v_false)]);
     ([tok_4; tok_118], Some [(fld_0, (B "json")); (fld_1, v_na); (fld_2, (B ":")); (fld_3, v_na); (fld_9, v_true); (fld_30, (B "markdown")); (fld_32, (B " ")); (fld_33, v_na)]);
     ([tok_4; tok_30; tok_59], Some [(fld_0, (B "json")); (fld_1, v_na); (fld_2, (B ":")); (fld_3, v_na); (fld_9, v_true); (fld_30, (B "markdown")); (fld_32, (B " ")); (fld_33, v_na)]);
-    ([tok_4; tok_119], Some [(fld_0, (B "json")); (fld_1, v_na); (fld_2, (B ":")); (fld_3, v_na); (fld_9, v_true); (fld_30, (B "nidx")); (fld_32, (B " ")); (fld_33, v_na)]);
+    ([tok_4; tok_119], Some [(fld_0, (B "json")); (fld_1, v_na); (fld_2, (B ":")); (fld_3, v_na); (fld_9, v_true); (fld_30, (B "nidx")); (fld_32, (B " ")); (fld_33, v_na); (fld_37, v_true)]);
     ([tok_4; tok_30; tok_61], Some [(fld_0, (B "json")); (fld_1, v_na); (fld_2, (B ":")); (fld_3, v_na); (fld_9, v_true); (fld_30, (B "nidx")); (fld_32, (B " ")); (fld_33, v_na); (fld_37, v_true)]);
     ([tok_4; tok_120], Some [(fld_0, (B "json")); (fld_1, v_na); (fld_2, (B ":")); (fld_3, v_na); (fld_9, v_true); (fld_30, (B "pprint")); (fld_32, (B " ")); (fld_33, v_na)]);
     ([tok_4; tok_30; tok_62], Some [(fld_0, (B "json")); (fld_1, v_na); (fld_2, (B ":")); (fld_3, v_na); (fld_9, v_true); (fld_30, (B "pprint")); (fld_32, (B " ")); (fld_33, v_na)]);
-    ([tok_4; tok_121], Some [(fld_0, (B "json")); (fld_1, v_na); (fld_2, (B ":")); (fld_3, v_na); (fld_9, v_true); (fld_30, (B "tsv")); (fld_32, (bs [9]%N)); (fld_33, v_na)]);
+    ([tok_4; tok_121], Some [(fld_0, (B "json")); (fld_1, v_na); (fld_2, (B ":")); (fld_3, v_na); (fld_9, v_true); (fld_30, (B "tsv")); (fld_32, (bs [9]%N)); (fld_33, v_na); (fld_37, v_true)]);
     ([tok_4; tok_30; tok_64], Some [(fld_0, (B "json")); (fld_1, v_na); (fld_2, (B ":")); (fld_3, v_na); (fld_9, v_true); (fld_30, (B "tsv")); (fld_32, (bs [9]%N)); (fld_33, v_na); (fld_37, v_true)]);
     ([tok_4; tok_122], Some [(fld_0, (B "json")); (fld_1, v_na); (fld_2, (B ":")); (fld_3, v_na); (fld_9, v_true); (fld_30, (B "xtab")); (fld_31, (bs [10;10]%N)); (fld_32, (bs [10]%N)); (fld_33, (B " "))]);
     ([tok_4; tok_30; tok_68], Some [(fld_0, (B "json")); (fld_1, v_na); (fld_2, (B ":")); (fld_3, v_na); (fld_9, v_true); (fld_30, (B "xtab")); (fld_31, (bs [10;10]%N)); (fld_32, (bs [10]%N)); (fld_33, (B " "))]);
@@ -2958,11 +2958,11 @@ Definition gen_evals_by_head : list (bytes * list (list bytes * option (list (by
     ([tok_4; tok_31; tok_57], Some [(fld_0, (B "markdown")); (fld_1, (B " ")); (fld_2, (B ":")); (fld_9, v_true); (fld_30, (B "json")); (fld_31, v_na); (fld_32, v_na); (fld_33, v_na); (fld_65, v_false); (fld_66, v_true)]);
     ([tok_4; tok_127], Some [(fld_0, (B "markdown")); (fld_1, (B " ")); (fld_2, (B ":")); (fld_9, v_true); (fld_30, (B "jsonl")); (fld_31, (B "")); (fld_32, (B "")); (fld_33, (B "")); (fld_65, v_false); (fld_66, v_true)]);
     ([tok_4; tok_31; tok_58], Some [(fld_0, (B "markdown")); (fld_1, (B " ")); (fld_2, (B ":")); (fld_9, v_true); (fld_30, (B "jsonl")); (fld_31, (B "")); (fld_32, (B "")); (fld_33, (B "")); (fld_65, v_false); (fld_66, v_true)]);
-    ([tok_4; tok_128], Some [(fld_0, (B "markdown")); (fld_1, (B " ")); (fld_2, (B ":")); (fld_9, v_true); (fld_30, (B "nidx")); (fld_32, (B " ")); (fld_33, v_na)]);
+    ([tok_4; tok_128], Some [(fld_0, (B "markdown")); (fld_1, (B " ")); (fld_2, (B ":")); (fld_9, v_true); (fld_30, (B "nidx")); (fld_32, (B " ")); (fld_33, v_na); (fld_37, v_true)]);
     ([tok_4; tok_31; tok_61], Some [(fld_0, (B "markdown")); (fld_1, (B " ")); (fld_2, (B ":")); (fld_9, v_true); (fld_30, (B "nidx")); (fld_32, (B " ")); (fld_33, v_na); (fld_37, v_true)]);
     ([tok_4; tok_129], Some [(fld_0, (B "markdown")); (fld_1, (B " ")); (fld_2, (B ":")); (fld_9, v_true); (fld_30, (B "pprint")); (fld_32, (B " ")); (fld_33, v_na)]);
     ([tok_4; tok_31; tok_62], Some [(fld_0, (B "markdown")); (fld_1, (B " ")); (fld_2, (B ":")); (fld_9, v_true); (fld_30, (B "pprint")); (fld_32, (B " ")); (fld_33, v_na)]);
-    ([tok_4; tok_130], Some [(fld_0, (B "markdown")); (fld_1, (B " ")); (fld_2, (B ":")); (fld_9, v_true); (fld_30, (B "tsv")); (fld_32, (bs [9]%N)); (fld_33, v_na)]);
+    ([tok_4; tok_130], Some [(fld_0, (B "markdown")); (fld_1, (B " ")); (fld_2, (B ":")); (fld_9, v_true); (fld_30, (B "tsv")); (fld_32, (bs [9]%N)); (fld_33, v_na); (fld_37, v_true)]);
     ([tok_4; tok_31; tok_64], Some [(fld_0, (B "markdown")); (fld_1, (B " ")); (fld_2, (B ":")); (fld_9, v_true); (fld_30, (B "tsv")); (fld_32, (bs [9]%N)); (fld_33, v_na); (fld_37, v_true)]);
     ([tok_4; tok_131], Some [(fld_0, (B "markdown")); (fld_1, (B " ")); (fld_2, (B ":")); (fld_9, v_true); (fld_30, (B "xtab")); (fld_31, (bs [10;10]%N)); (fld_32, (bs [10]%N)); (fld_33, (B " "))]);
     ([tok_4; tok_31; tok_68], Some [(fld_0, (B "markdown")); (fld_1, (B " ")); (fld_2, (B ":")); (fld_9, v_true); (fld_30, (B "xtab")); (fld_31, (bs [10;10]%N)); (fld_32, (bs [10]%N)); (fld_33, (B " "))]);
@@ -2983,11 +2983,11 @@ Definition gen_evals_by_head : list (bytes * list (list bytes * option (list (by
     ([tok_4; tok_33; tok_58], Some [(fld_0, (B "nidx")); (fld_1, (B " ")); (fld_2, (B ":")); (fld_5, (B "([ \t])+")); (fld_9, v_true); (fld_30, (B "jsonl")); (fld_31, (B "")); (fld_32, (B "")); (fld_33, (B "")); (fld_65, v_false); (fld_66, v_true)]);
     ([tok_4; tok_138], Some [(fld_0, (B "nidx")); (fld_1, (B " ")); (fld_2, (B ":")); (fld_5, (B "([ \t])+")); (fld_9, v_true); (fld_30, (B "markdown")); (fld_32, (B " ")); (fld_33, v_na)]);
     ([tok_4; tok_33; tok_59], Some [(fld_0, (B "nidx")); (fld_1, (B " ")); (fld_2, (B ":")); (fld_5, (B "([ \t])+")); (fld_9, v_true); (fld_30, (B "markdown")); (fld_32, (B " ")); (fld_33, v_na)]);
-    ([tok_4; tok_50], Some [(fld_0, (B "nidx")); (fld_1, (B " ")); (fld_2, (B ":")); (fld_5, (B "([ \t])+")); (fld_9, v_true); (fld_30, (B "nidx")); (fld_32, (B " ")); (fld_33, v_na)]);
+    ([tok_4; tok_50], Some [(fld_0, (B "nidx")); (fld_1, (B " ")); (fld_2, (B ":")); (fld_5, (B "([ \t])+")); (fld_9, v_true); (fld_30, (B "nidx")); (fld_32, (B " ")); (fld_33, v_na); (fld_37, v_true)]);
     ([tok_4; tok_33; tok_61], Some [(fld_0, (B "nidx")); (fld_1, (B " ")); (fld_2, (B ":")); (fld_5, (B "([ \t])+")); (fld_9, v_true); (fld_30, (B "nidx")); (fld_32, (B " ")); (fld_33, v_na); (fld_37, v_true)]);
     ([tok_4; tok_139], Some [(fld_0, (B "nidx")); (fld_1, (B " ")); (fld_2, (B ":")); (fld_5, (B "([ \t])+")); (fld_9, v_true); (fld_30, (B "pprint")); (fld_32, (B " ")); (fld_33, v_na)]);
     ([tok_4; tok_33; tok_62], Some [(fld_0, (B "nidx")); (fld_1, (B " ")); (fld_2, (B ":")); (fld_5, (B "([ \t])+")); (fld_9, v_true); (fld_30, (B "pprint")); (fld_32, (B " ")); (fld_33, v_na)]);
-    ([tok_4; tok_140], Some [(fld_0, (B "nidx")); (fld_1, (B " ")); (fld_2, (B ":")); (fld_5, (B "([ \t])+")); (fld_9, v_true); (fld_30, (B "tsv")); (fld_32, (bs [9]%N)); (fld_33, v_na)]);
+    ([tok_4; tok_140], Some [(fld_0, (B "nidx")); (fld_1, (B " ")); (fld_2, (B ":")); (fld_5, (B "([ \t])+")); (fld_9, v_true); (fld_30, (B "tsv")); (fld_32, (bs [9]%N)); (fld_33, v_na); (fld_37, v_true)]);
     ([tok_4; tok_33; tok_64], Some [(fld_0, (B "nidx")); (fld_1, (B " ")); (fld_2, (B ":")); (fld_5, (B "([ \t])+")); (fld_9, v_true); (fld_30, (B "tsv")); (fld_32, (bs [9]%N)); (fld_33, v_na); (fld_37, v_true)]);
     ([tok_4; tok_141], Some [(fld_0, (B "nidx")); (fld_1, (B " ")); (fld_2, (B ":")); (fld_5, (B "([ \t])+")); (fld_9, v_true); (fld_30, (B "xtab")); (fld_31, (bs [10;10]%N)); (fld_32, (bs [10]%N)); (fld_33, (B " "))]);
     ([tok_4; tok_33; tok_68], Some [(fld_0, (B "nidx")); (fld_1, (B " ")); (fld_2, (B ":")); (fld_5, (B "([ \t])+")); (fld_9, v_true); (fld_30, (B "xtab")); (fld_31, (bs [10;10]%N)); (fld_32, (bs [10]%N)); (fld_33, (B " "))]);
@@ -3003,11 +3003,11 @@ Definition gen_evals_by_head : list (bytes * list (list bytes * option (list (by
     ([tok_4; tok_34; tok_58], Some [(fld_0, (B "pprint")); (fld_1, (B " ")); (fld_2, (B ":")); (fld_4, v_true); (fld_8, v_true); (fld_9, v_true); (fld_30, (B "jsonl")); (fld_31, (B "")); (fld_32, (B "")); (fld_33, (B "")); (fld_65, v_false); (fld_66, v_true)]);
     ([tok_4; tok_147], Some [(fld_0, (B "pprint")); (fld_1, (B " ")); (fld_2, (B ":")); (fld_4, v_true); (fld_8, v_true); (fld_9, v_true); (fld_30, (B "markdown")); (fld_32, (B " ")); (fld_33, v_na)]);
     ([tok_4; tok_34; tok_59], Some [(fld_0, (B "pprint")); (fld_1, (B " ")); (fld_2, (B ":")); (fld_4, v_true); (fld_8, v_true); (fld_9, v_true); (fld_30, (B "markdown")); (fld_32, (B " ")); (fld_33, v_na)]);
-    ([tok_4; tok_148], Some [(fld_0, (B "pprint")); (fld_1, (B " ")); (fld_2, (B ":")); (fld_4, v_true); (fld_8, v_true); (fld_9, v_true); (fld_30, (B "nidx")); (fld_32, (B " ")); (fld_33, v_na)]);
+    ([tok_4; tok_148], Some [(fld_0, (B "pprint")); (fld_1, (B " ")); (fld_2, (B ":")); (fld_4, v_true); (fld_8, v_true); (fld_9, v_true); (fld_30, (B "nidx")); (fld_32, (B " ")); (fld_33, v_na); (fld_37, v_true)]);
     ([tok_4; tok_34; tok_61], Some [(fld_0, (B "pprint")); (fld_1, (B " ")); (fld_2, (B ":")); (fld_4, v_true); (fld_8, v_true); (fld_9, v_true); (fld_30, (B "nidx")); (fld_32, (B " ")); (fld_33, v_na); (fld_37, v_true)]);
     ([tok_4; tok_71], Some [(fld_0, (B "pprint")); (fld_1, (B " ")); (fld_2, (B ":")); (fld_4, v_true); (fld_8, v_true); (fld_9, v_true); (fld_30, (B "pprint")); (fld_32, (B " ")); (fld_33, v_na)]);
     ([tok_4; tok_34; tok_62], Some [(fld_0, (B "pprint")); (fld_1, (B " ")); (fld_2, (B ":")); (fld_4, v_true); (fld_8, v_true); (fld_9, v_true); (fld_30, (B "pprint")); (fld_32, (B " ")); (fld_33, v_na)]);
-    ([tok_4; tok_149], Some [(fld_0, (B "pprint")); (fld_1, (B " ")); (fld_2, (B ":")); (fld_4, v_true); (fld_8, v_true); (fld_9, v_true); (fld_30, (B "tsv")); (fld_32, (bs [9]%N)); (fld_33, v_na)]);
+    ([tok_4; tok_149], Some [(fld_0, (B "pprint")); (fld_1, (B " ")); (fld_2, (B ":")); (fld_4, v_true); (fld_8, v_true); (fld_9, v_true); (fld_30, (B "tsv")); (fld_32, (bs [9]%N)); (fld_33, v_na); (fld_37, v_true)]);
     ([tok_4; tok_34; tok_64], Some [(fld_0, (B "pprint")); (fld_1, (B " ")); (fld_2, (B ":")); (fld_4, v_true); (fld_8, v_true); (fld_9, v_true); (fld_30, (B "tsv")); (fld_32, (bs [9]%N)); (fld_33, v_na); (fld_37, v_true)]);
     ([tok_4; tok_150], Some [(fld_0, (B "pprint")); (fld_1, (B " ")); (fld_2, (B ":")); (fld_4, v_true); (fld_8, v_true); (fld_9, v_true); (fld_30, (B "xtab")); (fld_31, (bs [10;10]%N)); (fld_32, (bs [10]%N)); (fld_33, (B " "))]);
     ([tok_4; tok_34; tok_68], Some [(fld_0, (B "pprint")); (fld_1, (B " ")); (fld_2, (B ":")); (fld_4, v_true); (fld_8, v_true); (fld_9, v_true); (fld_30, (B "xtab")); (fld_31, (bs [10;10]%N)); (fld_32, (bs [10]%N)); (fld_33, (B " "))]);
@@ -3029,7 +3029,7 @@ Definition gen_evals_by_head : list (bytes * list (list bytes * option (list (by
     ([tok_4; tok_36; tok_61], Some [(fld_0, (B "tsv")); (fld_1, (bs [9]%N)); (fld_2, (B ":")); (fld_9, v_true); (fld_30, (B "nidx")); (fld_32, (B " ")); (fld_33, v_na); (fld_37, v_true)]);
     ([tok_4; tok_159], Some [(fld_0, (B "tsv")); (fld_1, (bs [9]%N)); (fld_2, (B ":")); (fld_9, v_true); (fld_30, (B "pprint")); (fld_32, (B " ")); (fld_33, v_na)]);
     ([tok_4; tok_36; tok_62], Some [(fld_0, (B "tsv")); (fld_1, (bs [9]%N)); (fld_2, (B ":")); (fld_9, v_true); (fld_30, (B "pprint")); (fld_32, (B " ")); (fld_33, v_na)]);
-    ([tok_4; tok_75], Some [(fld_0, (B "tsv")); (fld_1, (bs [9]%N)); (fld_2, (B ":")); (fld_9, v_true); (fld_30, (B "tsv")); (fld_32, (bs [9]%N)); (fld_33, v_na)]);
+    ([tok_4; tok_75], Some [(fld_0, (B "tsv")); (fld_1, (bs [9]%N)); (fld_2, (B ":")); (fld_9, v_true); (fld_30, (B "tsv")); (fld_32, (bs [9]%N)); (fld_33, v_na); (fld_37, v_true)]);
     ([tok_4; tok_36; tok_64], Some [(fld_0, (B "tsv")); (fld_1, (bs [9]%N)); (fld_2, (B ":")); (fld_9, v_true); (fld_30, (B "tsv")); (fld_32, (bs [9]%N)); (fld_33, v_na); (fld_37, v_true)]);
     ([tok_4; tok_160], Some [(fld_0, (B "tsv")); (fld_1, (bs [9]%N)); (fld_2, (B ":")); (fld_9, v_true); (fld_30, (B "xtab")); (fld_31, (bs [10;10]%N)); (fld_32, (bs [10]%N)); (fld_33, (B " "))]);
     ([tok_4; tok_36; tok_68], Some [(fld_0, (B "tsv")); (fld_1, (bs [9]%N)); (fld_2, (B ":")); (fld_9, v_true); (fld_30, (B "xtab")); (fld_31, (bs [10;10]%N)); (fld_32, (bs [10]%N)); (fld_33, (B " "))]);
@@ -3047,11 +3047,11 @@ Definition gen_evals_by_head : list (bytes * list (list bytes * option (list (by
     ([tok_4; tok_40; tok_58], Some [(fld_0, (B "xtab")); (fld_1, (bs [10]%N)); (fld_2, (B ":")); (fld_3, (bs [10;10]%N)); (fld_9, v_true); (fld_30, (B "jsonl")); (fld_31, (B "")); (fld_32, (B "")); (fld_33, (B "")); (fld_65, v_false); (fld_66, v_true)]);
     ([tok_4; tok_167], Some [(fld_0, (B "xtab")); (fld_1, (bs [10]%N)); (fld_2, (B ":")); (fld_3, (bs [10;10]%N)); (fld_9, v_true); (fld_30, (B "markdown")); (fld_32, (B " ")); (fld_33, v_na)]);
     ([tok_4; tok_40; tok_59], Some [(fld_0, (B "xtab")); (fld_1, (bs [10]%N)); (fld_2, (B ":")); (fld_3, (bs [10;10]%N)); (fld_9, v_true); (fld_30, (B "markdown")); (fld_32, (B " ")); (fld_33, v_na)]);
-    ([tok_4; tok_168], Some [(fld_0, (B "xtab")); (fld_1, (bs [10]%N)); (fld_2, (B ":")); (fld_3, (bs [10;10]%N)); (fld_9, v_true); (fld_30, (B "nidx")); (fld_32, (B " ")); (fld_33, v_na)]);
+    ([tok_4; tok_168], Some [(fld_0, (B "xtab")); (fld_1, (bs [10]%N)); (fld_2, (B ":")); (fld_3, (bs [10;10]%N)); (fld_9, v_true); (fld_30, (B "nidx")); (fld_32, (B " ")); (fld_33, v_na); (fld_37, v_true)]);
     ([tok_4; tok_40; tok_61], Some [(fld_0, (B "xtab")); (fld_1, (bs [10]%N)); (fld_2, (B ":")); (fld_3, (bs [10;10]%N)); (fld_9, v_true); (fld_30, (B "nidx")); (fld_32, (B " ")); (fld_33, v_na); (fld_37, v_true)]);
     ([tok_4; tok_169], Some [(fld_0, (B "xtab")); (fld_1, (bs [10]%N)); (fld_2, (B ":")); (fld_3, (bs [10;10]%N)); (fld_9, v_true); (fld_30, (B "pprint")); (fld_32, (B " ")); (fld_33, v_na)]);
     ([tok_4; tok_40; tok_62], Some [(fld_0, (B "xtab")); (fld_1, (bs [10]%N)); (fld_2, (B ":")); (fld_3, (bs [10;10]%N)); (fld_9, v_true); (fld_30, (B "pprint")); (fld_32, (B " ")); (fld_33, v_na)]);
-    ([tok_4; tok_170], Some [(fld_0, (B "xtab")); (fld_1, (bs [10]%N)); (fld_2, (B ":")); (fld_3, (bs [10;10]%N)); (fld_9, v_true); (fld_30, (B "tsv")); (fld_32, (bs [9]%N)); (fld_33, v_na)]);
+    ([tok_4; tok_170], Some [(fld_0, (B "xtab")); (fld_1, (bs [10]%N)); (fld_2, (B ":")); (fld_3, (bs [10;10]%N)); (fld_9, v_true); (fld_30, (B "tsv")); (fld_32, (bs [9]%N)); (fld_33, v_na); (fld_37, v_true)]);
     ([tok_4; tok_40; tok_64], Some [(fld_0, (B "xtab")); (fld_1, (bs [10]%N)); (fld_2, (B ":")); (fld_3, (bs [10;10]%N)); (fld_9, v_true); (fld_30, (B "tsv")); (fld_32, (bs [9]%N)); (fld_33, v_na); (fld_37, v_true)]);
     ([tok_4; tok_80], Some [(fld_0, (B "xtab")); (fld_1, (bs [10]%N)); (fld_2, (B ":")); (fld_3, (bs [10;10]%N)); (fld_9, v_true); (fld_30, (B "xtab")); (fld_31, (bs [10;10]%N)); (fld_32, (bs [10]%N)); (fld_33, (B " "))]);
     ([tok_4; tok_40; tok_68], Some [(fld_0, (B "xtab")); (fld_1, (bs [10]%N)); (fld_2, (B ":")); (fld_3, (bs [10;10]%N)); (fld_9, v_true); (fld_30, (B "xtab")); (fld_31, (bs [10;10]%N)); (fld_32, (bs [10]%N)); (fld_33, (B " "))]);
@@ -3067,11 +3067,11 @@ Definition gen_evals_by_head : list (bytes * list (list bytes * option (list (by
     ([tok_4; tok_41; tok_58], Some [(fld_0, (B "yaml")); (fld_1, v_na); (fld_2, (B ":")); (fld_3, v_na); (fld_9, v_true); (fld_30, (B "jsonl")); (fld_31, (B "")); (fld_32, (B "")); (fld_33, (B "")); (fld_65, v_false)]);
     ([tok_4; tok_176], Some [(fld_0, (B "yaml")); (fld_1, v_na); (fld_2, (B ":")); (fld_3, v_na); (fld_9, v_true); (fld_30, (B "markdown")); (fld_32, (B " ")); (fld_33, v_na)]);
     ([tok_4; tok_41; tok_59], Some [(fld_0, (B "yaml")); (fld_1, v_na); (fld_2, (B ":")); (fld_3, v_na); (fld_9, v_true); (fld_30, (B "markdown")); (fld_32, (B " ")); (fld_33, v_na)]);
-    ([tok_4; tok_177], Some [(fld_0, (B "yaml")); (fld_1, v_na); (fld_2, (B ":")); (fld_3, v_na); (fld_9, v_true); (fld_30, (B "nidx")); (fld_32, (B " ")); (fld_33, v_na)]);
+    ([tok_4; tok_177], Some [(fld_0, (B "yaml")); (fld_1, v_na); (fld_2, (B ":")); (fld_3, v_na); (fld_9, v_true); (fld_30, (B "nidx")); (fld_32, (B " ")); (fld_33, v_na); (fld_37, v_true)]);
     ([tok_4; tok_41; tok_61], Some [(fld_0, (B "yaml")); (fld_1, v_na); (fld_2, (B ":")); (fld_3, v_na); (fld_9, v_true); (fld_30, (B "nidx")); (fld_32, (B " ")); (fld_33, v_na); (fld_37, v_true)]);
     ([tok_4; tok_178], Some [(fld_0, (B "yaml")); (fld_1, v_na); (fld_2, (B ":")); (fld_3, v_na); (fld_9, v_true); (fld_30, (B "pprint")); (fld_32, (B " ")); (fld_33, v_na)]);
     ([tok_4; tok_41; tok_62], Some [(fld_0, (B "yaml")); (fld_1, v_na); (fld_2, (B ":")); (fld_3, v_na); (fld_9, v_true); (fld_30, (B "pprint")); (fld_32, (B " ")); (fld_33, v_na)]);
-    ([tok_4; tok_179], Some [(fld_0, (B "yaml")); (fld_1, v_na); (fld_2, (B ":")); (fld_3, v_na); (fld_9, v_true); (fld_30, (B "tsv")); (fld_32, (bs [9]%N)); (fld_33, v_na)]);
+    ([tok_4; tok_179], Some [(fld_0, (B "yaml")); (fld_1, v_na); (fld_2, (B ":")); (fld_3, v_na); (fld_9, v_true); (fld_30, (B "tsv")); (fld_32, (bs [9]%N)); (fld_33, v_na); (fld_37, v_true)]);
     ([tok_4; tok_41; tok_64], Some [(fld_0, (B "yaml")); (fld_1, v_na); (fld_2, (B ":")); (fld_3, v_na); (fld_9, v_true); (fld_30, (B "tsv")); (fld_32, (bs [9]%N)); (fld_33, v_na); (fld_37, v_true)]);
     ([tok_4; tok_180], Some [(fld_0, (B "yaml")); (fld_1, v_na); (fld_2, (B ":")); (fld_3, v_na); (fld_9, v_true); (fld_30, (B "xtab")); (fld_31, (bs [10;10]%N)); (fld_32, (bs [10]%N)); (fld_33, (B " "))]);
     ([tok_4; tok_41; tok_68], Some [(fld_0, (B "yaml")); (fld_1, v_na); (fld_2, (B ":")); (fld_3, v_na); (fld_9, v_true); (fld_30, (B "xtab")); (fld_31, (bs [10;10]%N)); (fld_32, (bs [10]%N)); (fld_33, (B " "))]);
@@ -3153,7 +3153,7 @@ Definition gen_evals_by_head : list (bytes * list (list bytes * option (list (by
     ([tok_4; tok_24; tok_61], Some [(fld_0, (B "csv")); (fld_2, v_na); (fld_30, (B "nidx")); (fld_32, (B " ")); (fld_33, (B ":")); (fld_37, v_true); (fld_38, v_true)]);
     ([tok_4; tok_90], Some [(fld_0, (B "csv")); (fld_2, v_na); (fld_10, v_true); (fld_30, (B "pprint")); (fld_32, (B " ")); (fld_33, (B ":")); (fld_38, v_true)]);
     ([tok_4; tok_24; tok_62], Some [(fld_0, (B "csv")); (fld_2, v_na); (fld_30, (B "pprint")); (fld_32, (B " ")); (fld_33, (B ":")); (fld_38, v_true)]);
-    ([tok_4; tok_91], Some [(fld_0, (B "csv")); (fld_2, v_na); (fld_10, v_true); (fld_30, (B "tsv")); (fld_32, (bs [9]%N)); (fld_33, (B ":")); (fld_38, v_true)]);
+    ([tok_4; tok_91], Some [(fld_0, (B "csv")); (fld_2, v_na); (fld_10, v_true); (fld_30, (B "tsv")); (fld_32, (bs [9]%N)); (fld_33, (B ":")); (fld_37, v_true); (fld_38, v_true)]);
     ([tok_4; tok_24; tok_64], Some [(fld_0, (B "csv")); (fld_2, v_na); (fld_30, (B "tsv")); (fld_32, (bs [9]%N)); (fld_33, (B ":")); (fld_37, v_true); (fld_38, v_true)]);
     ([tok_4; tok_92], Some [(fld_0, (B "csv")); (fld_2, v_na); (fld_10, v_true); (fld_30, (B "xtab")); (fld_31, (bs [10;10]%N)); (fld_32, (bs [10]%N)); (fld_33, (B ":")); (fld_38, v_true)]);
     ([tok_4; tok_24; tok_68], Some [(fld_0, (B "csv")); (fld_2, v_na); (fld_30, (B "xtab")); (fld_31, (bs [10;10]%N)); (fld_32, (bs [10]%N)); (fld_33, (B ":")); (fld_38, v_true)]);
@@ -3193,11 +3193,11 @@ Definition gen_evals_by_head : list (bytes * list (list bytes * option (list (by
     ([tok_4; tok_29; tok_58], Some [(fld_0, (B "json")); (fld_1, v_na); (fld_2, v_na); (fld_3, v_na); (fld_30, (B "jsonl")); (fld_31, (B "")); (fld_32, (B "")); (fld_33, (B ":")); (fld_38, v_true); (fld_65, v_false)]);
     ([tok_4; tok_108], Some [(fld_0, (B "json")); (fld_1, v_na); (fld_2, v_na); (fld_3, v_na); (fld_30, (B "markdown")); (fld_32, (B " ")); (fld_33, (B ":")); (fld_38, v_true)]);
     ([tok_4; tok_29; tok_59], Some [(fld_0, (B "json")); (fld_1, v_na); (fld_2, v_na); (fld_3, v_na); (fld_30, (B "markdown")); (fld_32, (B " ")); (fld_33, (B ":")); (fld_38, v_true)]);
-    ([tok_4; tok_109], Some [(fld_0, (B "json")); (fld_1, v_na); (fld_2, v_na); (fld_3, v_na); (fld_30, (B "nidx")); (fld_32, (B " ")); (fld_33, (B ":")); (fld_38, v_true)]);
+    ([tok_4; tok_109], Some [(fld_0, (B "json")); (fld_1, v_na); (fld_2, v_na); (fld_3, v_na); (fld_30, (B "nidx")); (fld_32, (B " ")); (fld_33, (B ":")); (fld_37, v_true); (fld_38, v_true)]);
     ([tok_4; tok_29; tok_61], Some [(fld_0, (B "json")); (fld_1, v_na); (fld_2, v_na); (fld_3, v_na); (fld_30, (B "nidx")); (fld_32, (B " ")); (fld_33, (B ":")); (fld_37, v_true); (fld_38, v_true)]);
     ([tok_4; tok_110], Some [(fld_0, (B "json")); (fld_1, v_na); (fld_2, v_na); (fld_3, v_na); (fld_30, (B "pprint")); (fld_32, (B " ")); (fld_33, (B ":")); (fld_38, v_true)]);
     ([tok_4; tok_29; tok_62], Some [(fld_0, (B "json")); (fld_1, v_na); (fld_2, v_na); (fld_3, v_na); (fld_30, (B "pprint")); (fld_32, (B " ")); (fld_33, (B ":")); (fld_38, v_true)]);
-    ([tok_4; tok_111], Some [(fld_0, (B "json")); (fld_1, v_na); (fld_2, v_na); (fld_3, v_na); (fld_30, (B "tsv")); (fld_32, (bs [9]%N)); (fld_33, (B ":")); (fld_38, v_true)]);
+    ([tok_4; tok_111], Some [(fld_0, (B "json")); (fld_1, v_na); (fld_2, v_na); (fld_3, v_na); (fld_30, (B "tsv")); (fld_32, (bs [9]%N)); (fld_33, (B ":")); (fld_37, v_true); (fld_38, v_true)]);
     ([tok_4; tok_29; tok_64], Some [(fld_0, (B "json")); (fld_1, v_na); (fld_2, v_na); (fld_3, v_na); (fld_30, (B "tsv")); (fld_32, (bs [9]%N)); (fld_33, (B ":")); (fld_37, v_true); (fld_38, v_true)]);
     ([tok_4; tok_112], Some [(fld_0, (B "json")); (fld_1, v_na); (fld_2, v_na); (fld_3, v_na); (fld_30, (B "xtab")); (fld_31, (bs [10;10]%N)); (fld_32, (bs [10]%N)); (fld_33, (B ":")); (fld_38, v_true)]);
     ([tok_4; tok_29; tok_68], Some [(fld_0, (B "json")); (fld_1, v_na); (fld_2, v_na); (fld_3, v_na); (fld_30, (B "xtab")); (fld_31, (bs [10;10]%N)); (fld_32, (bs [10]%N)); (fld_33, (B ":")); (fld_38, v_true)]);
@@ -3215,11 +3215,11 @@ Definition gen_evals_by_head : list (bytes * list (list bytes * option (list (by
     ([tok_4; tok_30; tok_58], Some [(fld_0, (B "json")); (fld_1, v_na); (fld_2, v_na); (fld_3, v_na); (fld_30, (B "jsonl")); (fld_31, (B "")); (fld_32, (B "")); (fld_33, (B ":")); (fld_38, v_true); (fld_65, v_false)]);
     ([tok_4; tok_118], Some [(fld_0, (B "json")); (fld_1, v_na); (fld_2, v_na); (fld_3, v_na); (fld_30, (B "markdown")); (fld_32, (B " ")); (fld_33, (B ":")); (fld_38, v_true)]);
     ([tok_4; tok_30; tok_59], Some [(fld_0, (B "json")); (fld_1, v_na); (fld_2, v_na); (fld_3, v_na); (fld_30, (B "markdown")); (fld_32, (B " ")); (fld_33, (B ":")); (fld_38, v_true)]);
-    ([tok_4; tok_119], Some [(fld_0, (B "json")); (fld_1, v_na); (fld_2, v_na); (fld_3, v_na); (fld_30, (B "nidx")); (fld_32, (B " ")); (fld_33, (B ":")); (fld_38, v_true)]);
+    ([tok_4; tok_119], Some [(fld_0, (B "json")); (fld_1, v_na); (fld_2, v_na); (fld_3, v_na); (fld_30, (B "nidx")); (fld_32, (B " ")); (fld_33, (B ":")); (fld_37, v_true); (fld_38, v_true)]);
     ([tok_4; tok_30; tok_61], Some [(fld_0, (B "json")); (fld_1, v_na); (fld_2, v_na); (fld_3, v_na); (fld_30, (B "nidx")); (fld_32, (B " ")); (fld_33, (B ":")); (fld_37, v_true); (fld_38, v_true)]);
     ([tok_4; tok_120], Some [(fld_0, (B "json")); (fld_1, v_na); (fld_2, v_na); (fld_3, v_na); (fld_30, (B "pprint")); (fld_32, (B " ")); (fld_33, (B ":")); (fld_38, v_true)]);
     ([tok_4; tok_30; tok_62], Some [(fld_0, (B "json")); (fld_1, v_na); (fld_2, v_na); (fld_3, v_na); (fld_30, (B "pprint")); (fld_32, (B " ")); (fld_33, (B ":")); (fld_38, v_true)]);
-    ([tok_4; tok_121], Some [(fld_0, (B "json")); (fld_1, v_na); (fld_2, v_na); (fld_3, v_na); (fld_30, (B "tsv")); (fld_32, (bs [9]%N)); (fld_33, (B ":")); (fld_38, v_true)]);
+    ([tok_4; tok_121], Some [(fld_0, (B "json")); (fld_1, v_na); (fld_2, v_na); (fld_3, v_na); (fld_30, (B "tsv")); (fld_32, (bs [9]%N)); (fld_33, (B ":")); (fld_37, v_true); (fld_38, v_true)]);
     ([tok_4; tok_30; tok_64], Some [(fld_0, (B "json")); (fld_1, v_na); (fld_2, v_na); (fld_3, v_na); (fld_30, (B "tsv")); (fld_32, (bs [9]%N)); (fld_33, (B ":")); (fld_37, v_true); (fld_38, v_true)]);
     ([tok_4; tok_122], Some [(fld_0, (B "json")); (fld_1, v_na); (fld_2, v_na); (fld_3, v_na); (fld_30, (B "xtab")); (fld_31, (bs [10;10]%N)); (fld_32, (bs [10]%N)); (fld_33, (B ":")); (fld_38, v_true)]);
     ([tok_4; tok_30; tok_68], Some [(fld_0, (B "json")); (fld_1, v_na); (fld_2, v_na); (fld_3, v_na); (fld_30, (B "xtab")); (fld_31, (bs [10;10]%N)); (fld_32, (bs [10]%N)); (fld_33, (B ":")); (fld_38, v_true)]);
@@ -3233,11 +3233,11 @@ Definition gen_evals_by_head : list (bytes * list (list bytes * option (list (by
     ([tok_4; tok_31; tok_57], Some [(fld_0, (B "markdown")); (fld_1, (B " ")); (fld_2, v_na); (fld_30, (B "json")); (fld_31, v_na); (fld_32, v_na); (fld_33, (B ":")); (fld_38, v_true); (fld_65, v_false); (fld_66, v_true)]);
     ([tok_4; tok_127], Some [(fld_0, (B "markdown")); (fld_1, (B " ")); (fld_2, v_na); (fld_30, (B "jsonl")); (fld_31, (B "")); (fld_32, (B "")); (fld_33, (B ":")); (fld_38, v_true); (fld_65, v_false); (fld_66, v_true)]);
     ([tok_4; tok_31; tok_58], Some [(fld_0, (B "markdown")); (fld_1, (B " ")); (fld_2, v_na); (fld_30, (B "jsonl")); (fld_31, (B "")); (fld_32, (B "")); (fld_33, (B ":")); (fld_38, v_true); (fld_65, v_false); (fld_66, v_true)]);
-    ([tok_4; tok_128], Some [(fld_0, (B "markdown")); (fld_1, (B " ")); (fld_2, v_na); (fld_30, (B "nidx")); (fld_32, (B " ")); (fld_33, (B ":")); (fld_38, v_true)]);
+    ([tok_4; tok_128], Some [(fld_0, (B "markdown")); (fld_1, (B " ")); (fld_2, v_na); (fld_30, (B "nidx")); (fld_32, (B " ")); (fld_33, (B ":")); (fld_37, v_true); (fld_38, v_true)]);
     ([tok_4; tok_31; tok_61], Some [(fld_0, (B "markdown")); (fld_1, (B " ")); (fld_2, v_na); (fld_30, (B "nidx")); (fld_32, (B " ")); (fld_33, (B ":")); (fld_37, v_true); (fld_38, v_true)]);
     ([tok_4; tok_129], Some [(fld_0, (B "markdown")); (fld_1, (B " ")); (fld_2, v_na); (fld_30, (B "pprint")); (fld_32, (B " ")); (fld_33, (B ":")); (fld_38, v_true)]);
     ([tok_4; tok_31; tok_62], Some [(fld_0, (B "markdown")); (fld_1, (B " ")); (fld_2, v_na); (fld_30, (B "pprint")); (fld_32, (B " ")); (fld_33, (B ":")); (fld_38, v_true)]);
-    ([tok_4; tok_130], Some [(fld_0, (B "markdown")); (fld_1, (B " ")); (fld_2, v_na); (fld_30, (B "tsv")); (fld_32, (bs [9]%N)); (fld_33, (B ":")); (fld_38, v_true)]);
+    ([tok_4; tok_130], Some [(fld_0, (B "markdown")); (fld_1, (B " ")); (fld_2, v_na); (fld_30, (B "tsv")); (fld_32, (bs [9]%N)); (fld_33, (B ":")); (fld_37, v_true); (fld_38, v_true)]);
     ([tok_4; tok_31; tok_64], Some [(fld_0, (B "markdown")); (fld_1, (B " ")); (fld_2, v_na); (fld_30, (B "tsv")); (fld_32, (bs [9]%N)); (fld_33, (B ":")); (fld_37, v_true); (fld_38, v_true)]);
     ([tok_4; tok_131], Some [(fld_0, (B "markdown")); (fld_1, (B " ")); (fld_2, v_na); (fld_30, (B "xtab")); (fld_31, (bs [10;10]%N)); (fld_32, (bs [10]%N)); (fld_33, (B ":")); (fld_38, v_true)]);
     ([tok_4; tok_31; tok_68], Some [(fld_0, (B "markdown")); (fld_1, (B " ")); (fld_2, v_na); (fld_30, (B "xtab")); (fld_31, (bs [10;10]%N)); (fld_32, (bs [10]%N)); (fld_33, (B ":")); (fld_38, v_true)]);
@@ -3258,11 +3258,11 @@ Definition gen_evals_by_head : list (bytes * list (list bytes * option (list (by
     ([tok_4; tok_33; tok_58], Some [(fld_0, (B "nidx")); (fld_1, (B " ")); (fld_2, v_na); (fld_5, (B "([ \t])+")); (fld_30, (B "jsonl")); (fld_31, (B "")); (fld_32, (B "")); (fld_33, (B ":")); (fld_38, v_true); (fld_65, v_false); (fld_66, v_true)]);
     ([tok_4; tok_138], Some [(fld_0, (B "nidx")); (fld_1, (B " ")); (fld_2, v_na); (fld_5, (B "([ \t])+")); (fld_30, (B "markdown")); (fld_32, (B " ")); (fld_33, (B ":")); (fld_38, v_true)]);
     ([tok_4; tok_33; tok_59], Some [(fld_0, (B "nidx")); (fld_1, (B " ")); (fld_2, v_na); (fld_5, (B "([ \t])+")); (fld_30, (B "markdown")); (fld_32, (B " ")); (fld_33, (B ":")); (fld_38, v_true)]);
-    ([tok_4; tok_50], Some [(fld_0, (B "nidx")); (fld_1, (B " ")); (fld_2, v_na); (fld_5, (B "([ \t])+")); (fld_30, (B "nidx")); (fld_32, (B " ")); (fld_33, (B ":")); (fld_38, v_true)]);
+    ([tok_4; tok_50], Some [(fld_0, (B "nidx")); (fld_1, (B " ")); (fld_2, v_na); (fld_5, (B "([ \t])+")); (fld_30, (B "nidx")); (fld_32, (B " ")); (fld_33, (B ":")); (fld_37, v_true); (fld_38, v_true)]);
     ([tok_4; tok_33; tok_61], Some [(fld_0, (B "nidx")); (fld_1, (B " ")); (fld_2, v_na); (fld_5, (B "([ \t])+")); (fld_30, (B "nidx")); (fld_32, (B " ")); (fld_33, (B ":")); (fld_37, v_true); (fld_38, v_true)]);
     ([tok_4; tok_139], Some [(fld_0, (B "nidx")); (fld_1, (B " ")); (fld_2, v_na); (fld_5, (B "([ \t])+")); (fld_30, (B "pprint")); (fld_32, (B " ")); (fld_33, (B ":")); (fld_38, v_true)]);
     ([tok_4; tok_33; tok_62], Some [(fld_0, (B "nidx")); (fld_1, (B " ")); (fld_2, v_na); (fld_5, (B "([ \t])+")); (fld_30, (B "pprint")); (fld_32, (B " ")); (fld_33, (B ":")); (fld_38, v_true)]);
-    ([tok_4; tok_140], Some [(fld_0, (B "nidx")); (fld_1, (B " ")); (fld_2, v_na); (fld_5, (B "([ \t])+")); (fld_30, (B "tsv")); (fld_32, (bs [9]%N)); (fld_33, (B ":")); (fld_38, v_true)]);
+    ([tok_4; tok_140], Some [(fld_0, (B "nidx")); (fld_1, (B " ")); (fld_2, v_na); (fld_5, (B "([ \t])+")); (fld_30, (B "tsv")); (fld_32, (bs [9]%N)); (fld_33, (B ":")); (fld_37, v_true); (fld_38, v_true)]);
     ([tok_4; tok_33; tok_64], Some [(fld_0, (B "nidx")); (fld_1, (B " ")); (fld_2, v_na); (fld_5, (B "([ \t])+")); (fld_30, (B "tsv")); (fld_32, (bs [9]%N)); (fld_33, (B ":")); (fld_37, v_true); (fld_38, v_true)]);
     ([tok_4; tok_141], Some [(fld_0, (B "nidx")); (fld_1, (B " ")); (fld_2, v_na); (fld_5, (B "([ \t])+")); (fld_30, (B "xtab")); (fld_31, (bs [10;10]%N)); (fld_32, (bs [10]%N)); (fld_33, (B ":")); (fld_38, v_true)]);
     ([tok_4; tok_33; tok_68], Some [(fld_0, (B "nidx")); (fld_1, (B " ")); (fld_2, v_na); (fld_5, (B "([ \t])+")); (fld_30, (B "xtab")); (fld_31, (bs [10;10]%N)); (fld_32, (bs [10]%N)); (fld_33, (B ":")); (fld_38, v_true)]);
@@ -3278,11 +3278,11 @@ Definition gen_evals_by_head : list (bytes * list (list bytes * option (list (by
     ([tok_4; tok_34; tok_58], Some [(fld_0, (B "pprint")); (fld_1, (B " ")); (fld_2, v_na); (fld_4, v_true); (fld_8, v_true); (fld_30, (B "jsonl")); (fld_31, (B "")); (fld_32, (B "")); (fld_33, (B ":")); (fld_38, v_true); (fld_65, v_false); (fld_66, v_true)]);
     ([tok_4; tok_147], Some [(fld_0, (B "pprint")); (fld_1, (B " ")); (fld_2, v_na); (fld_4, v_true); (fld_8, v_true); (fld_30, (B "markdown")); (fld_32, (B " ")); (fld_33, (B ":")); (fld_38, v_true)]);
     ([tok_4; tok_34; tok_59], Some [(fld_0, (B "pprint")); (fld_1, (B " ")); (fld_2, v_na); (fld_4, v_true); (fld_8, v_true); (fld_30, (B "markdown")); (fld_32, (B " ")); (fld_33, (B ":")); (fld_38, v_true)]);
-    ([tok_4; tok_148], Some [(fld_0, (B "pprint")); (fld_1, (B " ")); (fld_2, v_na); (fld_4, v_true); (fld_8, v_true); (fld_30, (B "nidx")); (fld_32, (B " ")); (fld_33, (B ":")); (fld_38, v_true)]);
+    ([tok_4; tok_148], Some [(fld_0, (B "pprint")); (fld_1, (B " ")); (fld_2, v_na); (fld_4, v_true); (fld_8, v_true); (fld_30, (B "nidx")); (fld_32, (B " ")); (fld_33, (B ":")); (fld_37, v_true); (fld_38, v_true)]);
     ([tok_4; tok_34; tok_61], Some [(fld_0, (B "pprint")); (fld_1, (B " ")); (fld_2, v_na); (fld_4, v_true); (fld_8, v_true); (fld_30, (B "nidx")); (fld_32, (B " ")); (fld_33, (B ":")); (fld_37, v_true); (fld_38, v_true)]);
     ([tok_4; tok_71], Some [(fld_0, (B "pprint")); (fld_1, (B " ")); (fld_2, v_na); (fld_4, v_true); (fld_8, v_true); (fld_30, (B "pprint")); (fld_32, (B " ")); (fld_33, (B ":")); (fld_38, v_true)]);
     ([tok_4; tok_34; tok_62], Some [(fld_0, (B "pprint")); (fld_1, (B " ")); (fld_2, v_na); (fld_4, v_true); (fld_8, v_true); (fld_30, (B "pprint")); (fld_32, (B " ")); (fld_33, (B ":")); (fld_38, v_true)]);
-    ([tok_4; tok_149], Some [(fld_0, (B "pprint")); (fld_1, (B " ")); (fld_2, v_na); (fld_4, v_true); (fld_8, v_true); (fld_30, (B "tsv")); (fld_32, (bs [9]%N)); (fld_33, (B ":")); (fld_38, v_true)]);
+    ([tok_4; tok_149], Some [(fld_0, (B "pprint")); (fld_1, (B " ")); (fld_2, v_na); (fld_4, v_true); (fld_8, v_true); (fld_30, (B "tsv")); (fld_32, (bs [9]%N)); (fld_33, (B ":")); (fld_37, v_true); (fld_38, v_true)]);
     ([tok_4; tok_34; tok_64], Some [(fld_0, (B "pprint")); (fld_1, (B " ")); (fld_2, v_na); (fld_4, v_true); (fld_8, v_true); (fld_30, (B "tsv")); (fld_32, (bs [9]%N)); (fld_33, (B ":")); (fld_37, v_true); (fld_38, v_true)]);
     ([tok_4; tok_150], Some [(fld_0, (B "pprint")); (fld_1, (B " ")); (fld_2, v_na); (fld_4, v_true); (fld_8, v_true); (fld_30, (B "xtab")); (fld_31, (bs [10;10]%N)); (fld_32, (bs [10]%N)); (fld_33, (B ":")); (fld_38, v_true)]);
     ([tok_4; tok_34; tok_68], Some [(fld_0, (B "pprint")); (fld_1, (B " ")); (fld_2, v_na); (fld_4, v_true); (fld_8, v_true); (fld_30, (B "xtab")); (fld_31, (bs [10;10]%N)); (fld_32, (bs [10]%N)); (fld_33, (B ":")); (fld_38, v_true)]);
@@ -3304,7 +3304,7 @@ Definition gen_evals_by_head : list (bytes * list (list bytes * option (list (by
     ([tok_4; tok_36; tok_61], Some [(fld_0, (B "tsv")); (fld_1, (bs [9]%N)); (fld_2, v_na); (fld_30, (B "nidx")); (fld_32, (B " ")); (fld_33, (B ":")); (fld_37, v_true); (fld_38, v_true)]);
     ([tok_4; tok_159], Some [(fld_0, (B "tsv")); (fld_1, (bs [9]%N)); (fld_2, v_na); (fld_30, (B "pprint")); (fld_32, (B " ")); (fld_33, (B ":")); (fld_38, v_true)]);
     ([tok_4; tok_36; tok_62], Some [(fld_0, (B "tsv")); (fld_1, (bs [9]%N)); (fld_2, v_na); (fld_30, (B "pprint")); (fld_32, (B " ")); (fld_33, (B ":")); (fld_38, v_true)]);
-    ([tok_4; tok_75], Some [(fld_0, (B "tsv")); (fld_1, (bs [9]%N)); (fld_2, v_na); (fld_30, (B "tsv")); (fld_32, (bs [9]%N)); (fld_33, (B ":")); (fld_38, v_true)]);
+    ([tok_4; tok_75], Some [(fld_0, (B "tsv")); (fld_1, (bs [9]%N)); (fld_2, v_na); (fld_30, (B "tsv")); (fld_32, (bs [9]%N)); (fld_33, (B ":")); (fld_37, v_true); (fld_38, v_true)]);
     ([tok_4; tok_36; tok_64], Some [(fld_0, (B "tsv")); (fld_1, (bs [9]%N)); (fld_2, v_na); (fld_30, (B "tsv")); (fld_32, (bs [9]%N)); (fld_33, (B ":")); (fld_37, v_true); (fld_38, v_true)]);
     ([tok_4; tok_160], Some [(fld_0, (B "tsv")); (fld_1, (bs [9]%N)); (fld_2, v_na); (fld_30, (B "xtab")); (fld_31, (bs [10;10]%N)); (fld_32, (bs [10]%N)); (fld_33, (B ":")); (fld_38, v_true)]);
     ([tok_4; tok_36; tok_68], Some [(fld_0, (B "tsv")); (fld_1, (bs [9]%N)); (fld_2, v_na); (fld_30, (B "xtab")); (fld_31, (bs [10;10]%N)); (fld_32, (bs [10]%N)); (fld_33, (B ":")); (fld_38, v_true)]);
@@ -3322,11 +3322,11 @@ Definition gen_evals_by_head : list (bytes * list (list bytes * option (list (by
     ([tok_4; tok_40; tok_58], Some [(fld_0, (B "xtab")); (fld_1, (bs [10]%N)); (fld_2, (B " ")); (fld_3, (bs [10;10]%N)); (fld_30, (B "jsonl")); (fld_31, (B "")); (fld_32, (B "")); (fld_33, (B ":")); (fld_38, v_true); (fld_65, v_false); (fld_66, v_true)]);
     ([tok_4; tok_167], Some [(fld_0, (B "xtab")); (fld_1, (bs [10]%N)); (fld_2, (B " ")); (fld_3, (bs [10;10]%N)); (fld_30, (B "markdown")); (fld_32, (B " ")); (fld_33, (B ":")); (fld_38, v_true)]);
     ([tok_4; tok_40; tok_59], Some [(fld_0, (B "xtab")); (fld_1, (bs [10]%N)); (fld_2, (B " ")); (fld_3, (bs [10;10]%N)); (fld_30, (B "markdown")); (fld_32, (B " ")); (fld_33, (B ":")); (fld_38, v_true)]);
-    ([tok_4; tok_168], Some [(fld_0, (B "xtab")); (fld_1, (bs [10]%N)); (fld_2, (B " ")); (fld_3, (bs [10;10]%N)); (fld_30, (B "nidx")); (fld_32, (B " ")); (fld_33, (B ":")); (fld_38, v_true)]);
+    ([tok_4; tok_168], Some [(fld_0, (B "xtab")); (fld_1, (bs [10]%N)); (fld_2, (B " ")); (fld_3, (bs [10;10]%N)); (fld_30, (B "nidx")); (fld_32, (B " ")); (fld_33, (B ":")); (fld_37, v_true); (fld_38, v_true)]);
     ([tok_4; tok_40; tok_61], Some [(fld_0, (B "xtab")); (fld_1, (bs [10]%N)); (fld_2, (B " ")); (fld_3, (bs [10;10]%N)); (fld_30, (B "nidx")); (fld_32, (B " ")); (fld_33, (B ":")); (fld_37, v_true); (fld_38, v_true)]);
     ([tok_4; tok_169], Some [(fld_0, (B "xtab")); (fld_1, (bs [10]%N)); (fld_2, (B " ")); (fld_3, (bs [10;10]%N)); (fld_30, (B "pprint")); (fld_32, (B " ")); (fld_33, (B ":")); (fld_38, v_true)]);
     ([tok_4; tok_40; tok_62], Some [(fld_0, (B "xtab")); (fld_1, (bs [10]%N)); (fld_2, (B " ")); (fld_3, (bs [10;10]%N)); (fld_30, (B "pprint")); (fld_32, (B " ")); (fld_33, (B ":")); (fld_38, v_true)]);
-    ([tok_4; tok_170], Some [(fld_0, (B "xtab")); (fld_1, (bs [10]%N)); (fld_2, (B " ")); (fld_3, (bs [10;10]%N)); (fld_30, (B "tsv")); (fld_32, (bs [9]%N)); (fld_33, (B ":")); (fld_38, v_true)]);
+    ([tok_4; tok_170], Some [(fld_0, (B "xtab")); (fld_1, (bs [10]%N)); (fld_2, (B " ")); (fld_3, (bs [10;10]%N)); (fld_30, (B "tsv")); (fld_32, (bs [9]%N)); (fld_33, (B ":")); (fld_37, v_true); (fld_38, v_true)]);
     ([tok_4; tok_40; tok_64], Some [(fld_0, (B "xtab")); (fld_1, (bs [10]%N)); (fld_2, (B " ")); (fld_3, (bs [10;10]%N)); (fld_30, (B "tsv")); (fld_32, (bs [9]%N)); (fld_33, (B ":")); (fld_37, v_true); (fld_38, v_true)]);
     ([tok_4; tok_80], Some [(fld_0, (B "xtab")); (fld_1, (bs [10]%N)); (fld_2, (B " ")); (fld_3, (bs [10;10]%N)); (fld_30, (B "xtab")); (fld_31, (bs [10;10]%N)); (fld_32, (bs [10]%N)); (fld_33, (B ":")); (fld_38, v_true)]);
     ([tok_4; tok_40; tok_68], Some [(fld_0, (B "xtab")); (fld_1, (bs [10]%N)); (fld_2, (B " ")); (fld_3, (bs [10;10]%N)); (fld_30, (B "xtab")); (fld_31, (bs [10;10]%N)); (fld_32, (bs [10]%N)); (fld_33, (B ":")); (fld_38, v_true)]);
@@ -3342,11 +3342,11 @@ Definition gen_evals_by_head : list (bytes * list (list bytes * option (list (by
     ([tok_4; tok_41; tok_58], Some [(fld_0, (B "yaml")); (fld_1, v_na); (fld_2, v_na); (fld_3, v_na); (fld_30, (B "jsonl")); (fld_31, (B "")); (fld_32, (B "")); (fld_33, (B ":")); (fld_38, v_true); (fld_65, v_false)]);
     ([tok_4; tok_176], Some [(fld_0, (B "yaml")); (fld_1, v_na); (fld_2, v_na); (fld_3, v_na); (fld_30, (B "markdown")); (fld_32, (B " ")); (fld_33, (B ":")); (fld_38, v_true)]);
     ([tok_4; tok_41; tok_59], Some [(fld_0, (B "yaml")); (fld_1, v_na); (fld_2, v_na); (fld_3, v_na); (fld_30, (B "markdown")); (fld_32, (B " ")); (fld_33, (B ":")); (fld_38, v_true)]);
-    ([tok_4; tok_177], Some [(fld_0, (B "yaml")); (fld_1, v_na); (fld_2, v_na); (fld_3, v_na); (fld_30, (B "nidx")); (fld_32, (B " ")); (fld_33, (B ":")); (fld_38, v_true)]);
+    ([tok_4; tok_177], Some [(fld_0, (B "yaml")); (fld_1, v_na); (fld_2, v_na); (fld_3, v_na); (fld_30, (B "nidx")); (fld_32, (B " ")); (fld_33, (B ":")); (fld_37, v_true); (fld_38, v_true)]);
     ([tok_4; tok_41; tok_61], Some [(fld_0, (B "yaml")); (fld_1, v_na); (fld_2, v_na); (fld_3, v_na); (fld_30, (B "nidx")); (fld_32, (B " ")); (fld_33, (B ":")); (fld_37, v_true); (fld_38, v_true)]);
     ([tok_4; tok_178], Some [(fld_0, (B "yaml")); (fld_1, v_na); (fld_2, v_na); (fld_3, v_na); (fld_30, (B "pprint")); (fld_32, (B " ")); (fld_33, (B ":")); (fld_38, v_true)]);
     ([tok_4; tok_41; tok_62], Some [(fld_0, (B "yaml")); (fld_1, v_na); (fld_2, v_na); (fld_3, v_na); (fld_30, (B "pprint")); (fld_32, (B " ")); (fld_33, (B ":")); (fld_38, v_true)]);
-    ([tok_4; tok_179], Some [(fld_0, (B "yaml")); (fld_1, v_na); (fld_2, v_na); (fld_3, v_na); (fld_30, (B "tsv")); (fld_32, (bs [9]%N)); (fld_33, (B ":")); (fld_38, v_true)]);
+    ([tok_4; tok_179], Some [(fld_0, (B "yaml")); (fld_1, v_na); (fld_2, v_na); (fld_3, v_na); (fld_30, (B "tsv")); (fld_32, (bs [9]%N)); (fld_33, (B ":")); (fld_37, v_true); (fld_38, v_true)]);
     ([tok_4; tok_41; tok_64], Some [(fld_0, (B "yaml")); (fld_1, v_na); (fld_2, v_na); (fld_3, v_na); (fld_30, (B "tsv")); (fld_32, (bs [9]%N)); (fld_33, (B ":")); (fld_37, v_true); (fld_38, v_true)]);
     ([tok_4; tok_180], Some [(fld_0, (B "yaml")); (fld_1, v_na); (fld_2, v_na); (fld_3, v_na); (fld_30, (B "xtab")); (fld_31, (bs [10;10]%N)); (fld_32, (bs [10]%N)); (fld_33, (B ":")); (fld_38, v_true)]);
     ([tok_4; tok_41; tok_68], Some [(fld_0, (B "yaml")); (fld_1, v_na); (fld_2, v_na); (fld_3, v_na); (fld_30, (B "xtab")); (fld_31, (bs [10;10]%N)); (fld_32, (bs [10]%N)); (fld_33, (B ":")); (fld_38, v_true)]);
@@ -3428,7 +3428,7 @@ Definition gen_evals_by_head : list (bytes * list (list bytes * option (list (by
     ([tok_2; tok_24; tok_61], Some [(fld_0, (B "csv")); (fld_2, v_na); (fld_3, (B ";")); (fld_10, v_true); (fld_30, (B "nidx")); (fld_32, (B " ")); (fld_33, v_na); (fld_37, v_true)]);
     ([tok_2; tok_90], Some [(fld_0, (B "csv")); (fld_2, v_na); (fld_3, (B ";")); (fld_10, v_true); (fld_30, (B "pprint")); (fld_32, (B " ")); (fld_33, v_na)]);
     ([tok_2; tok_24; tok_62], Some [(fld_0, (B "csv")); (fld_2, v_na); (fld_3, (B ";")); (fld_10, v_true); (fld_30, (B "pprint")); (fld_32, (B " ")); (fld_33, v_na)]);
-    ([tok_2; tok_91], Some [(fld_0, (B "csv")); (fld_2, v_na); (fld_3, (B ";")); (fld_10, v_true); (fld_30, (B "tsv")); (fld_32, (bs [9]%N)); (fld_33, v_na)]);
+    ([tok_2; tok_91], Some [(fld_0, (B "csv")); (fld_2, v_na); (fld_3, (B ";")); (fld_10, v_true); (fld_30, (B "tsv")); (fld_32, (bs [9]%N)); (fld_33, v_na); (fld_37, v_true)]);
     ([tok_2; tok_24; tok_64], Some [(fld_0, (B "csv")); (fld_2, v_na); (fld_3, (B ";")); (fld_10, v_true); (fld_30, (B "tsv")); (fld_32, (bs [9]%N)); (fld_33, v_na); (fld_37, v_true)]);
     ([tok_2; tok_92], Some [(fld_0, (B "csv")); (fld_2, v_na); (fld_3, (B ";")); (fld_10, v_true); (fld_30, (B "xtab")); (fld_31, (bs [10;10]%N)); (fld_32, (bs [10]%N)); (fld_33, (B " "))]);
     ([tok_2; tok_24; tok_68], Some [(fld_0, (B "csv")); (fld_2, v_na); (fld_3, (B ";")); (fld_10, v_true); (fld_30, (B "xtab")); (fld_31, (bs [10;10]%N)); (fld_32, (bs [10]%N)); (fld_33, (B " "))]);
@@ -3468,11 +3468,11 @@ Definition gen_evals_by_head : list (bytes * list (list bytes * option (list (by
     ([tok_2; tok_29; tok_58], Some [(fld_0, (B "json")); (fld_1, v_na); (fld_2, v_na); (fld_3, (B ";")); (fld_10, v_true); (fld_30, (B "jsonl")); (fld_31, (B "")); (fld_32, (B "")); (fld_33, (B "")); (fld_65, v_false)]);
     ([tok_2; tok_108], Some [(fld_0, (B "json")); (fld_1, v_na); (fld_2, v_na); (fld_3, (B ";")); (fld_10, v_true); (fld_30, (B "markdown")); (fld_32, (B " ")); (fld_33, v_na)]);
     ([tok_2; tok_29; tok_59], Some [(fld_0, (B "json")); (fld_1, v_na); (fld_2, v_na); (fld_3, (B ";")); (fld_10, v_true); (fld_30, (B "markdown")); (fld_32, (B " ")); (fld_33, v_na)]);
-    ([tok_2; tok_109], Some [(fld_0, (B "json")); (fld_1, v_na); (fld_2, v_na); (fld_3, (B ";")); (fld_10, v_true); (fld_30, (B "nidx")); (fld_32, (B " ")); (fld_33, v_na)]);
+    ([tok_2; tok_109], Some [(fld_0, (B "json")); (fld_1, v_na); (fld_2, v_na); (fld_3, (B ";")); (fld_10, v_true); (fld_30, (B "nidx")); (fld_32, (B " ")); (fld_33, v_na); (fld_37, v_true)]);
     ([tok_2; tok_29; tok_61], Some [(fld_0, (B "json")); (fld_1, v_na); (fld_2, v_na); (fld_3, (B ";")); (fld_10, v_true); (fld_30, (B "nidx")); (fld_32, (B " ")); (fld_33, v_na); (fld_37, v_true)]);
     ([tok_2; tok_110], Some [(fld_0, (B "json")); (fld_1, v_na); (fld_2, v_na); (fld_3, (B ";")); (fld_10, v_true); (fld_30, (B "pprint")); (fld_32, (B " ")); (fld_33, v_na)]);
     ([tok_2; tok_29; tok_62], Some [(fld_0, (B "json")); (fld_1, v_na); (fld_2, v_na); (fld_3, (B ";")); (fld_10, v_true); (fld_30, (B "pprint")); (fld_32, (B " ")); (fld_33, v_na)]);
-    ([tok_2; tok_111], Some [(fld_0, (B "json")); (fld_1, v_na); (fld_2, v_na); (fld_3, (B ";")); (fld_10, v_true); (fld_30, (B "tsv")); (fld_32, (bs [9]%N)); (fld_33, v_na)]);
+    ([tok_2; tok_111], Some [(fld_0, (B "json")); (fld_1, v_na); (fld_2, v_na); (fld_3, (B ";")); (fld_10, v_true); (fld_30, (B "tsv")); (fld_32, (bs [9]%N)); (fld_33, v_na); (fld_37, v_true)]);
     ([tok_2; tok_29; tok_64], Some [(fld_0, (B "json")); (fld_1, v_na); (fld_2, v_na); (fld_3, (B ";")); (fld_10, v_true); (fld_30, (B "tsv")); (fld_32, (bs [9]%N)); (fld_33, v_na); (fld_37, v_true)]);
     ([tok_2; tok_112], Some [(fld_0, (B "json")); (fld_1, v_na); (fld_2, v_na); (fld_3, (B ";")); (fld_10, v_true); (fld_30, (B "xtab")); (fld_31, (bs [10;10]%N)); (fld_32, (bs [10]%N)); (fld_33, (B " "))]);
     ([tok_2; tok_29; tok_68], Some [(fld_0, (B "json")); (fld_1, v_na); (fld_2, v_na); (fld_3, (B ";")); (fld_10, v_true); (fld_30, (B "xtab")); (fld_31, (bs [10;10]%N)); (fld_32, (bs [10]%N)); (fld_33, (B " "))]);
@@ -3490,11 +3490,11 @@ Definition gen_evals_by_head : list (bytes * list (list bytes * option (list (by
     ([tok_2; tok_30; tok_58], Some [(fld_0, (B "json")); (fld_1, v_na); (fld_2, v_na); (fld_3, (B ";")); (fld_10, v_true); (fld_30, (B "jsonl")); (fld_31, (B "")); (fld_32, (B "")); (fld_33, (B "")); (fld_65, v_false)]);
     ([tok_2; tok_118], Some [(fld_0, (B "json")); (fld_1, v_na); (fld_2, v_na); (fld_3, (B ";")); (fld_10, v_true); (fld_30, (B "markdown")); (fld_32, (B " ")); (fld_33, v_na)]);
     ([tok_2; tok_30; tok_59], Some [(fld_0, (B "json")); (fld_1, v_na); (fld_2, v_na); (fld_3, (B ";")); (fld_10, v_true); (fld_30, (B "markdown")); (fld_32, (B " ")); (fld_33, v_na)]);
-    ([tok_2; tok_119], Some [(fld_0, (B "json")); (fld_1, v_na); (fld_2, v_na); (fld_3, (B ";")); (fld_10, v_true); (fld_30, (B "nidx")); (fld_32, (B " ")); (fld_33, v_na)]);
+    ([tok_2; tok_119], Some [(fld_0, (B "json")); (fld_1, v_na); (fld_2, v_na); (fld_3, (B ";")); (fld_10, v_true); (fld_30, (B "nidx")); (fld_32, (B " ")); (fld_33, v_na); (fld_37, v_true)]);
     ([tok_2; tok_30; tok_61], Some [(fld_0, (B "json")); (fld_1, v_na); (fld_2, v_na); (fld_3, (B ";")); (fld_10, v_true); (fld_30, (B "nidx")); (fld_32, (B " ")); (fld_33, v_na); (fld_37, v_true)]);
     ([tok_2; tok_120], Some [(fld_0, (B "json")); (fld_1, v_na); (fld_2, v_na); (fld_3, (B ";")); (fld_10, v_true); (fld_30, (B "pprint")); (fld_32, (B " ")); (fld_33, v_na)]);
     ([tok_2; tok_30; tok_62], Some [(fld_0, (B "json")); (fld_1, v_na); (fld_2, v_na); (fld_3, (B ";")); (fld_10, v_true); (fld_30, (B "pprint")); (fld_32, (B " ")); (fld_33, v_na)]);
-    ([tok_2; tok_121], Some [(fld_0, (B "json")); (fld_1, v_na); (fld_2, v_na); (fld_3, (B ";")); (fld_10, v_true); (fld_30, (B "tsv")); (fld_32, (bs [9]%N)); (fld_33, v_na)]);
+    ([tok_2; tok_121], Some [(fld_0, (B "json")); (fld_1, v_na); (fld_2, v_na); (fld_3, (B ";")); (fld_10, v_true); (fld_30, (B "tsv")); (fld_32, (bs [9]%N)); (fld_33, v_na); (fld_37, v_true)]);
     ([tok_2; tok_30; tok_64], Some [(fld_0, (B "json")); (fld_1, v_na); (fld_2, v_na); (fld_3, (B ";")); (fld_10, v_true); (fld_30, (B "tsv")); (fld_32, (bs [9]%N)); (fld_33, v_na); (fld_37, v_true)]);
     ([tok_2; tok_122], Some [(fld_0, (B "json")); (fld_1, v_na); (fld_2, v_na); (fld_3, (B ";")); (fld_10, v_true); (fld_30, (B "xtab")); (fld_31, (bs [10;10]%N)); (fld_32, (bs [10]%N)); (fld_33, (B " "))]);
     ([tok_2; tok_30; tok_68], Some [(fld_0, (B "json")); (fld_1, v_na); (fld_2, v_na); (fld_3, (B ";")); (fld_10, v_true); (fld_30, (B "xtab")); (fld_31, (bs [10;10]%N)); (fld_32, (bs [10]%N)); (fld_33, (B " "))]);
@@ -3508,11 +3508,11 @@ Definition gen_evals_by_head : list (bytes * list (list bytes * option (list (by
     ([tok_2; tok_31; tok_57], Some [(fld_0, (B "markdown")); (fld_1, (B " ")); (fld_2, v_na); (fld_3, (B ";")); (fld_10, v_true); (fld_30, (B "json")); (fld_31, v_na); (fld_32, v_na); (fld_33, v_na); (fld_65, v_false); (fld_66, v_true)]);
     ([tok_2; tok_127], Some [(fld_0, (B "markdown")); (fld_1, (B " ")); (fld_2, v_na); (fld_3, (B ";")); (fld_10, v_true); (fld_30, (B "jsonl")); (fld_31, (B "")); (fld_32, (B "")); (fld_33, (B "")); (fld_65, v_false); (fld_66, v_true)]);
     ([tok_2; tok_31; tok_58], Some [(fld_0, (B "markdown")); (fld_1, (B " ")); (fld_2, v_na); (fld_3, (B ";")); (fld_10, v_true); (fld_30, (B "jsonl")); (fld_31, (B "")); (fld_32, (B "")); (fld_33, (B "")); (fld_65, v_false); (fld_66, v_true)]);
-    ([tok_2; tok_128], Some [(fld_0, (B "markdown")); (fld_1, (B " ")); (fld_2, v_na); (fld_3, (B ";")); (fld_10, v_true); (fld_30, (B "nidx")); (fld_32, (B " ")); (fld_33, v_na)]);
+    ([tok_2; tok_128], Some [(fld_0, (B "markdown")); (fld_1, (B " ")); (fld_2, v_na); (fld_3, (B ";")); (fld_10, v_true); (fld_30, (B "nidx")); (fld_32, (B " ")); (fld_33, v_na); (fld_37, v_true)]);
     ([tok_2; tok_31; tok_61], Some [(fld_0, (B "markdown")); (fld_1, (B " ")); (fld_2, v_na); (fld_3, (B ";")); (fld_10, v_true); (fld_30, (B "nidx")); (fld_32, (B " ")); (fld_33, v_na); (fld_37, v_true)]);
     ([tok_2; tok_129], Some [(fld_0, (B "markdown")); (fld_1, (B " ")); (fld_2, v_na); (fld_3, (B ";")); (fld_10, v_true); (fld_30, (B "pprint")); (fld_32, (B " ")); (fld_33, v_na)]);
     ([tok_2; tok_31; tok_62], Some [(fld_0, (B "markdown")); (fld_1, (B " ")); (fld_2, v_na); (fld_3, (B ";")); (fld_10, v_true); (fld_30, (B "pprint")); (fld_32, (B " ")); (fld_33, v_na)]);
-    ([tok_2; tok_130], Some [(fld_0, (B "markdown")); (fld_1, (B " ")); (fld_2, v_na); (fld_3, (B ";")); (fld_10, v_true); (fld_30, (B "tsv")); (fld_32, (bs [9]%N)); (fld_33, v_na)]);
+    ([tok_2; tok_130], Some [(fld_0, (B "markdown")); (fld_1, (B " ")); (fld_2, v_na); (fld_3, (B ";")); (fld_10, v_true); (fld_30, (B "tsv")); (fld_32, (bs [9]%N)); (fld_33, v_na); (fld_37, v_true)]);
     ([tok_2; tok_31; tok_64], Some [(fld_0, (B "markdown")); (fld_1, (B " ")); (fld_2, v_na); (fld_3, (B ";")); (fld_10, v_true); (fld_30, (B "tsv")); (fld_32, (bs [9]%N)); (fld_33, v_na); (fld_37, v_true)]);
     ([tok_2; tok_131], Some [(fld_0, (B "markdown")); (fld_1, (B " ")); (fld_2, v_na); (fld_3, (B ";")); (fld_10, v_true); (fld_30, (B "xtab")); (fld_31, (bs [10;10]%N)); (fld_32, (bs [10]%N)); (fld_33, (B " "))]);
     ([tok_2; tok_31; tok_68], Some [(fld_0, (B "markdown")); (fld_1, (B " ")); (fld_2, v_na); (fld_3, (B ";")); (fld_10, v_true); (fld_30, (B "xtab")); (fld_31, (bs [10;10]%N)); (fld_32, (bs [10]%N)); (fld_33, (B " "))]);
@@ -3533,11 +3533,11 @@ Definition gen_evals_by_head : list (bytes * list (list bytes * option (list (by
     ([tok_2; tok_33; tok_58], Some [(fld_0, (B "nidx")); (fld_1, (B " ")); (fld_2, v_na); (fld_3, (B ";")); (fld_5, (B "([ \t])+")); (fld_10, v_true); (fld_30, (B "jsonl")); (fld_31, (B "")); (fld_32, (B "")); (fld_33, (B "")); (fld_65, v_false); (fld_66, v_true)]);
     ([tok_2; tok_138], Some [(fld_0, (B "nidx")); (fld_1, (B " ")); (fld_2, v_na); (fld_3, (B ";")); (fld_5, (B "([ \t])+")); (fld_10, v_true); (fld_30, (B "markdown")); (fld_32, (B " ")); (fld_33, v_na)]);
     ([tok_2; tok_33; tok_59], Some [(fld_0, (B "nidx")); (fld_1, (B " ")); (fld_2, v_na); (fld_3, (B ";")); (fld_5, (B "([ \t])+")); (fld_10, v_true); (fld_30, (B "markdown")); (fld_32, (B " ")); (fld_33, v_na)]);
-    ([tok_2; tok_50], Some [(fld_0, (B "nidx")); (fld_1, (B " ")); (fld_2, v_na); (fld_3, (B ";")); (fld_5, (B "([ \t])+")); (fld_10, v_true); (fld_30, (B "nidx")); (fld_32, (B " ")); (fld_33, v_na)]);
+    ([tok_2; tok_50], Some [(fld_0, (B "nidx")); (fld_1, (B " ")); (fld_2, v_na); (fld_3, (B ";")); (fld_5, (B "([ \t])+")); (fld_10, v_true); (fld_30, (B "nidx")); (fld_32, (B " ")); (fld_33, v_na); (fld_37, v_true)]);
     ([tok_2; tok_33; tok_61], Some [(fld_0, (B "nidx")); (fld_1, (B " ")); (fld_2, v_na); (fld_3, (B ";")); (fld_5, (B "([ \t])+")); (fld_10, v_true); (fld_30, (B "nidx")); (fld_32, (B " ")); (fld_33, v_na); (fld_37, v_true)]);
     ([tok_2; tok_139], Some [(fld_0, (B "nidx")); (fld_1, (B " ")); (fld_2, v_na); (fld_3, (B ";")); (fld_5, (B "([ \t])+")); (fld_10, v_true); (fld_30, (B "pprint")); (fld_32, (B " ")); (fld_33, v_na)]);
     ([tok_2; tok_33; tok_62], Some [(fld_0, (B "nidx")); (fld_1, (B " ")); (fld_2, v_na); (fld_3, (B ";")); (fld_5, (B "([ \t])+")); (fld_10, v_true); (fld_30, (B "pprint")); (fld_32, (B " ")); (fld_33, v_na)]);
-    ([tok_2; tok_140], Some [(fld_0, (B "nidx")); (fld_1, (B " ")); (fld_2, v_na); (fld_3, (B ";")); (fld_5, (B "([ \t])+")); (fld_10, v_true); (fld_30, (B "tsv")); (fld_32, (bs [9]%N)); (fld_33, v_na)]);
+    ([tok_2; tok_140], Some [(fld_0, (B "nidx")); (fld_1, (B " ")); (fld_2, v_na); (fld_3, (B ";")); (fld_5, (B "([ \t])+")); (fld_10, v_true); (fld_30, (B "tsv")); (fld_32, (bs [9]%N)); (fld_33, v_na); (fld_37, v_true)]);
     ([tok_2; tok_33; tok_64], Some [(fld_0, (B "nidx")); (fld_1, (B " ")); (fld_2, v_na); (fld_3, (B ";")); (fld_5, (B "([ \t])+")); (fld_10, v_true); (fld_30, (B "tsv")); (fld_32, (bs [9]%N)); (fld_33, v_na); (fld_37, v_true)]);
     ([tok_2; tok_141], Some [(fld_0, (B "nidx")); (fld_1, (B " ")); (fld_2, v_na); (fld_3, (B ";")); (fld_5, (B "([ \t])+")); (fld_10, v_true); (fld_30, (B "xtab")); (fld_31, (bs [10;10]%N)); (fld_32, (bs [10]%N)); (fld_33, (B " "))]);
     ([tok_2; tok_33; tok_68], Some [(fld_0, (B "nidx")); (fld_1, (B " ")); (fld_2, v_na); (fld_3, (B ";")); (fld_5, (B "([ \t])+")); (fld_10, v_true); (fld_30, (B "xtab")); (fld_31, (bs [10;10]%N)); (fld_32, (bs [10]%N)); (fld_33, (B " "))]);
@@ -3553,11 +3553,11 @@ Definition gen_evals_by_head : list (bytes * list (list bytes * option (list (by
     ([tok_2; tok_34; tok_58], Some [(fld_0, (B "pprint")); (fld_1, (B " ")); (fld_2, v_na); (fld_3, (B ";")); (fld_4, v_true); (fld_8, v_true); (fld_10, v_true); (fld_30, (B "jsonl")); (fld_31, (B "")); (fld_32, (B "")); (fld_33, (B "")); (fld_65, v_false); (fld_66, v_true)]);
     ([tok_2; tok_147], Some [(fld_0, (B "pprint")); (fld_1, (B " ")); (fld_2, v_na); (fld_3, (B ";")); (fld_4, v_true); (fld_8, v_true); (fld_10, v_true); (fld_30, (B "markdown")); (fld_32, (B " ")); (fld_33, v_na)]);
     ([tok_2; tok_34; tok_59], Some [(fld_0, (B "pprint")); (fld_1, (B " ")); (fld_2, v_na); (fld_3, (B ";")); (fld_4, v_true); (fld_8, v_true); (fld_10, v_true); (fld_30, (B "markdown")); (fld_32, (B " ")); (fld_33, v_na)]);
-    ([tok_2; tok_148], Some [(fld_0, (B "pprint")); (fld_1, (B " ")); (fld_2, v_na); (fld_3, (B ";")); (fld_4, v_true); (fld_8, v_true); (fld_10, v_true); (fld_30, (B "nidx")); (fld_32, (B " ")); (fld_33, v_na)]);
+    ([tok_2; tok_148], Some [(fld_0, (B "pprint")); (fld_1, (B " ")); (fld_2, v_na); (fld_3, (B ";")); (fld_4, v_true); (fld_8, v_true); (fld_10, v_true); (fld_30, (B "nidx")); (fld_32, (B " ")); (fld_33, v_na); (fld_37, v_true)]);
     ([tok_2; tok_34; tok_61], Some [(fld_0, (B "pprint")); (fld_1, (B " ")); (fld_2, v_na); (fld_3, (B ";")); (fld_4, v_true); (fld_8, v_true); (fld_10, v_true); (fld_30, (B "nidx")); (fld_32, (B " ")); (fld_33, v_na); (fld_37, v_true)]);
     ([tok_2; tok_71], Some [(fld_0, (B "pprint")); (fld_1, (B " ")); (fld_2, v_na); (fld_3, (B ";")); (fld_4, v_true); (fld_8, v_true); (fld_10, v_true); (fld_30, (B "pprint")); (fld_32, (B " ")); (fld_33, v_na)]);
     ([tok_2; tok_34; tok_62], Some [(fld_0, (B "pprint")); (fld_1, (B " ")); (fld_2, v_na); (fld_3, (B ";")); (fld_4, v_true); (fld_8, v_true); (fld_10, v_true); (fld_30, (B "pprint")); (fld_32, (B " ")); (fld_33, v_na)]);
-    ([tok_2; tok_149], Some [(fld_0, (B "pprint")); (fld_1, (B " ")); (fld_2, v_na); (fld_3, (B ";")); (fld_4, v_true); (fld_8, v_true); (fld_10, v_true); (fld_30, (B "tsv")); (fld_32, (bs [9]%N)); (fld_33, v_na)]);
+    ([tok_2; tok_149], Some [(fld_0, (B "pprint")); (fld_1, (B " ")); (fld_2, v_na); (fld_3, (B ";")); (fld_4, v_true); (fld_8, v_true); (fld_10, v_true); (fld_30, (B "tsv")); (fld_32, (bs [9]%N)); (fld_33, v_na); (fld_37, v_true)]);
     ([tok_2; tok_34; tok_64], Some [(fld_0, (B "pprint")); (fld_1, (B " ")); (fld_2, v_na); (fld_3, (B ";")); (fld_4, v_true); (fld_8, v_true); (fld_10, v_true); (fld_30, (B "tsv")); (fld_32, (bs [9]%N)); (fld_33, v_na); (fld_37, v_true)]);
     ([tok_2; tok_150], Some [(fld_0, (B "pprint")); (fld_1, (B " ")); (fld_2, v_na); (fld_3, (B ";")); (fld_4, v_true); (fld_8, v_true); (fld_10, v_true); (fld_30, (B "xtab")); (fld_31, (bs [10;10]%N)); (fld_32, (bs [10]%N)); (fld_33, (B " "))]);
     ([tok_2; tok_34; tok_68], Some [(fld_0, (B "pprint")); (fld_1, (B " ")); (fld_2, v_na); (fld_3, (B ";")); (fld_4, v_true); (fld_8, v_true); (fld_10, v_true); (fld_30, (B "xtab")); (fld_31, (bs [10;10]%N)); (fld_32, (bs [10]%N)); (fld_33, (B " "))]);
@@ -3579,7 +3579,7 @@ Definition gen_evals_by_head : list (bytes * list (list bytes * option (list (by
     ([tok_2; tok_36; tok_61], Some [(fld_0, (B "tsv")); (fld_1, (bs [9]%N)); (fld_2, v_na); (fld_3, (B ";")); (fld_10, v_true); (fld_30, (B "nidx")); (fld_32, (B " ")); (fld_33, v_na); (fld_37, v_true)]);
     ([tok_2; tok_159], Some [(fld_0, (B "tsv")); (fld_1, (bs [9]%N)); (fld_2, v_na); (fld_3, (B ";")); (fld_10, v_true); (fld_30, (B "pprint")); (fld_32, (B " ")); (fld_33, v_na)]);
     ([tok_2; tok_36; tok_62], Some [(fld_0, (B "tsv")); (fld_1, (bs [9]%N)); (fld_2, v_na); (fld_3, (B ";")); (fld_10, v_true); (fld_30, (B "pprint")); (fld_32, (B " ")); (fld_33, v_na)]);
-    ([tok_2; tok_75], Some [(fld_0, (B "tsv")); (fld_1, (bs [9]%N)); (fld_2, v_na); (fld_3, (B ";")); (fld_10, v_true); (fld_30, (B "tsv")); (fld_32, (bs [9]%N)); (fld_33, v_na)]);
+    ([tok_2; tok_75], Some [(fld_0, (B "tsv")); (fld_1, (bs [9]%N)); (fld_2, v_na); (fld_3, (B ";")); (fld_10, v_true); (fld_30, (B "tsv")); (fld_32, (bs [9]%N)); (fld_33, v_na); (fld_37, v_true)]);
     ([tok_2; tok_36; tok_64], Some [(fld_0, (B "tsv")); (fld_1, (bs [9]%N)); (fld_2, v_na); (fld_3, (B ";")); (fld_10, v_true); (fld_30, (B "tsv")); (fld_32, (bs [9]%N)); (fld_33, v_na); (fld_37, v_true)]);
     ([tok_2; tok_160], Some [(fld_0, (B "tsv")); (fld_1, (bs [9]%N)); (fld_2, v_na); (fld_3, (B ";")); (fld_10, v_true); (fld_30, (B "xtab")); (fld_31, (bs [10;10]%N)); (fld_32, (bs [10]%N)); (fld_33, (B " "))]);
     ([tok_2; tok_36; tok_68], Some [(fld_0, (B "tsv")); (fld_1, (bs [9]%N)); (fld_2, v_na); (fld_3, (B ";")); (fld_10, v_true); (fld_30, (B "xtab")); (fld_31, (bs [10;10]%N)); (fld_32, (bs [10]%N)); (fld_33, (B " "))]);
@@ -3597,11 +3597,11 @@ Definition gen_evals_by_head : list (bytes * list (list bytes * option (list (by
     ([tok_2; tok_40; tok_58], Some [(fld_0, (B "xtab")); (fld_1, (bs [10]%N)); (fld_2, (B " ")); (fld_3, (B ";")); (fld_10, v_true); (fld_30, (B "jsonl")); (fld_31, (B "")); (fld_32, (B "")); (fld_33, (B "")); (fld_65, v_false); (fld_66, v_true)]);
     ([tok_2; tok_167], Some [(fld_0, (B "xtab")); (fld_1, (bs [10]%N)); (fld_2, (B " ")); (fld_3, (B ";")); (fld_10, v_true); (fld_30, (B "markdown")); (fld_32, (B " ")); (fld_33, v_na)]);
     ([tok_2; tok_40; tok_59], Some [(fld_0, (B "xtab")); (fld_1, (bs [10]%N)); (fld_2, (B " ")); (fld_3, (B ";")); (fld_10, v_true); (fld_30, (B "markdown")); (fld_32, (B " ")); (fld_33, v_na)]);
-    ([tok_2; tok_168], Some [(fld_0, (B "xtab")); (fld_1, (bs [10]%N)); (fld_2, (B " ")); (fld_3, (B ";")); (fld_10, v_true); (fld_30, (B "nidx")); (fld_32, (B " ")); (fld_33, v_na)]);
+    ([tok_2; tok_168], Some [(fld_0, (B "xtab")); (fld_1, (bs [10]%N)); (fld_2, (B " ")); (fld_3, (B ";")); (fld_10, v_true); (fld_30, (B "nidx")); (fld_32, (B " ")); (fld_33, v_na); (fld_37, v_true)]);
     ([tok_2; tok_40; tok_61], Some [(fld_0, (B "xtab")); (fld_1, (bs [10]%N)); (fld_2, (B " ")); (fld_3, (B ";")); (fld_10, v_true); (fld_30, (B "nidx")); (fld_32, (B " ")); (fld_33, v_na); (fld_37, v_true)]);
     ([tok_2; tok_169], Some [(fld_0, (B "xtab")); (fld_1, (bs [10]%N)); (fld_2, (B " ")); (fld_3, (B ";")); (fld_10, v_true); (fld_30, (B "pprint")); (fld_32, (B " ")); (fld_33, v_na)]);
     ([tok_2; tok_40; tok_62], Some [(fld_0, (B "xtab")); (fld_1, (bs [10]%N)); (fld_2, (B " ")); (fld_3, (B ";")); (fld_10, v_true); (fld_30, (B "pprint")); (fld_32, (B " ")); (fld_33, v_na)]);
-    ([tok_2; tok_170], Some [(fld_0, (B "xtab")); (fld_1, (bs [10]%N)); (fld_2, (B " ")); (fld_3, (B ";")); (fld_10, v_true); (fld_30, (B "tsv")); (fld_32, (bs [9]%N)); (fld_33, v_na)]);
+    ([tok_2; tok_170], Some [(fld_0, (B "xtab")); (fld_1, (bs [10]%N)); (fld_2, (B " ")); (fld_3, (B ";")); (fld_10, v_true); (fld_30, (B "tsv")); (fld_32, (bs [9]%N)); (fld_33, v_na); (fld_37, v_true)]);
     ([tok_2; tok_40; tok_64], Some [(fld_0, (B "xtab")); (fld_1, (bs [10]%N)); (fld_2, (B " ")); (fld_3, (B ";")); (fld_10, v_true); (fld_30, (B "tsv")); (fld_32, (bs [9]%N)); (fld_33, v_na); (fld_37, v_true)]);
     ([tok_2; tok_80], Some [(fld_0, (B "xtab")); (fld_1, (bs [10]%N)); (fld_2, (B " ")); (fld_3, (B ";")); (fld_10, v_true); (fld_30, (B "xtab")); (fld_31, (bs [10;10]%N)); (fld_32, (bs [10]%N)); (fld_33, (B " "))]);
     ([tok_2; tok_40; tok_68], Some [(fld_0, (B "xtab")); (fld_1, (bs [10]%N)); (fld_2, (B " ")); (fld_3, (B ";")); (fld_10, v_true); (fld_30, (B "xtab")); (fld_31, (bs [10;10]%N)); (fld_32, (bs [10]%N)); (fld_33, (B " "))]);
@@ -3617,11 +3617,11 @@ Definition gen_evals_by_head : list (bytes * list (list bytes * option (list (by
     ([tok_2; tok_41; tok_58], Some [(fld_0, (B "yaml")); (fld_1, v_na); (fld_2, v_na); (fld_3, (B ";")); (fld_10, v_true); (fld_30, (B "jsonl")); (fld_31, (B "")); (fld_32, (B "")); (fld_33, (B "")); (fld_65, v_false)]);
     ([tok_2; tok_176], Some [(fld_0, (B "yaml")); (fld_1, v_na); (fld_2, v_na); (fld_3, (B ";")); (fld_10, v_true); (fld_30, (B "markdown")); (fld_32, (B " ")); (fld_33, v_na)]);
     ([tok_2; tok_41; tok_59], Some [(fld_0, (B "yaml")); (fld_1, v_na); (fld_2, v_na); (fld_3, (B ";")); (fld_10, v_true); (fld_30, (B "markdown")); (fld_32, (B " ")); (fld_33, v_na)]);
-    ([tok_2; tok_177], Some [(fld_0, (B "yaml")); (fld_1, v_na); (fld_2, v_na); (fld_3, (B ";")); (fld_10, v_true); (fld_30, (B "nidx")); (fld_32, (B " ")); (fld_33, v_na)]);
+    ([tok_2; tok_177], Some [(fld_0, (B "yaml")); (fld_1, v_na); (fld_2, v_na); (fld_3, (B ";")); (fld_10, v_true); (fld_30, (B "nidx")); (fld_32, (B " ")); (fld_33, v_na); (fld_37, v_true)]);
     ([tok_2; tok_41; tok_61], Some [(fld_0, (B "yaml")); (fld_1, v_na); (fld_2, v_na); (fld_3, (B ";")); (fld_10, v_true); (fld_30, (B "nidx")); (fld_32, (B " ")); (fld_33, v_na); (fld_37, v_true)]);
     ([tok_2; tok_178], Some [(fld_0, (B "yaml")); (fld_1, v_na); (fld_2, v_na); (fld_3, (B ";")); (fld_10, v_true); (fld_30, (B "pprint")); (fld_32, (B " ")); (fld_33, v_na)]);
     ([tok_2; tok_41; tok_62], Some [(fld_0, (B "yaml")); (fld_1, v_na); (fld_2, v_na); (fld_3, (B ";")); (fld_10, v_true); (fld_30, (B "pprint")); (fld_32, (B " ")); (fld_33, v_na)]);
-    ([tok_2; tok_179], Some [(fld_0, (B "yaml")); (fld_1, v_na); (fld_2, v_na); (fld_3, (B ";")); (fld_10, v_true); (fld_30, (B "tsv")); (fld_32, (bs [9]%N)); (fld_33, v_na)]);
+    ([tok_2; tok_179], Some [(fld_0, (B "yaml")); (fld_1, v_na); (fld_2, v_na); (fld_3, (B ";")); (fld_10, v_true); (fld_30, (B "tsv")); (fld_32, (bs [9]%N)); (fld_33, v_na); (fld_37, v_true)]);
     ([tok_2; tok_41; tok_64], Some [(fld_0, (B "yaml")); (fld_1, v_na); (fld_2, v_na); (fld_3, (B ";")); (fld_10, v_true); (fld_30, (B "tsv")); (fld_32, (bs [9]%N)); (fld_33, v_na); (fld_37, v_true)]);
     ([tok_2; tok_180], Some [(fld_0, (B "yaml")); (fld_1, v_na); (fld_2, v_na); (fld_3, (B ";")); (fld_10, v_true); (fld_30, (B "xtab")); (fld_31, (bs [10;10]%N)); (fld_32, (bs [10]%N)); (fld_33, (B " "))]);
     ([tok_2; tok_41; tok_68], Some [(fld_0, (B "yaml")); (fld_1, v_na); (fld_2, v_na); (fld_3, (B ";")); (fld_10, v_true); (fld_30, (B "xtab")); (fld_31, (bs [10;10]%N)); (fld_32, (bs [10]%N)); (fld_33, (B " "))]);
@@ -3703,7 +3703,7 @@ Definition gen_evals_by_head : list (bytes * list (list bytes * option (list (by
     ([tok_2; tok_24; tok_61], Some [(fld_0, (B "csv")); (fld_2, v_na); (fld_30, (B "nidx")); (fld_31, (B ";")); (fld_32, (B " ")); (fld_33, v_na); (fld_37, v_true); (fld_39, v_true)]);
     ([tok_2; tok_90], Some [(fld_0, (B "csv")); (fld_2, v_na); (fld_10, v_true); (fld_30, (B "pprint")); (fld_31, (B ";")); (fld_32, (B " ")); (fld_33, v_na); (fld_39, v_true)]);
     ([tok_2; tok_24; tok_62], Some [(fld_0, (B "csv")); (fld_2, v_na); (fld_30, (B "pprint")); (fld_31, (B ";")); (fld_32, (B " ")); (fld_33, v_na); (fld_39, v_true)]);
-    ([tok_2; tok_91], Some [(fld_0, (B "csv")); (fld_2, v_na); (fld_10, v_true); (fld_30, (B "tsv")); (fld_31, (B ";")); (fld_32, (bs [9]%N)); (fld_33, v_na); (fld_39, v_true)]);
+    ([tok_2; tok_91], Some [(fld_0, (B "csv")); (fld_2, v_na); (fld_10, v_true); (fld_30, (B "tsv")); (fld_31, (B ";")); (fld_32, (bs [9]%N)); (fld_33, v_na); (fld_37, v_true); (fld_39, v_true)]);
     ([tok_2; tok_24; tok_64], Some [(fld_0, (B "csv")); (fld_2, v_na); (fld_30, (B "tsv")); (fld_31, (B ";")); (fld_32, (bs [9]%N)); (fld_33, v_na); (fld_37, v_true); (fld_39, v_true)]);
     ([tok_2; tok_92], Some [(fld_0, (B "csv")); (fld_2, v_na); (fld_10, v_true); (fld_30, (B "xtab")); (fld_31, (B ";")); (fld_32, (bs [10]%N)); (fld_33, (B " ")); (fld_39, v_true)]);
     ([tok_2; tok_24; tok_68], Some [(fld_0, (B "csv")); (fld_2, v_na); (fld_30, (B "xtab")); (fld_31, (B ";")); (fld_32, (bs [10]%N)); (fld_33, (B " ")); (fld_39, v_true)]);
@@ -3743,11 +3743,11 @@ Definition gen_evals_by_head : list (bytes * list (list bytes * option (list (by
     ([tok_2; tok_29; tok_58], Some [(fld_0, (B "json")); (fld_1, v_na); (fld_2, v_na); (fld_3, v_na); (fld_30, (B "jsonl")); (fld_31, (B ";")); (fld_32, (B "")); (fld_33, (B "")); (fld_39, v_true); (fld_65, v_false)]);
     ([tok_2; tok_108], Some [(fld_0, (B "json")); (fld_1, v_na); (fld_2, v_na); (fld_3, v_na); (fld_30, (B "markdown")); (fld_31, (B ";")); (fld_32, (B " ")); (fld_33, v_na); (fld_39, v_true)]);
     ([tok_2; tok_29; tok_59], Some [(fld_0, (B "json")); (fld_1, v_na); (fld_2, v_na); (fld_3, v_na); (fld_30, (B "markdown")); (fld_31, (B ";")); (fld_32, (B " ")); (fld_33, v_na); (fld_39, v_true)]);
-    ([tok_2; tok_109], Some [(fld_0, (B "json")); (fld_1, v_na); (fld_2, v_na); (fld_3, v_na); (fld_30, (B "nidx")); (fld_31, (B ";")); (fld_32, (B " ")); (fld_33, v_na); (fld_39, v_true)]);
+    ([tok_2; tok_109], Some [(fld_0, (B "json")); (fld_1, v_na); (fld_2, v_na); (fld_3, v_na); (fld_30, (B "nidx")); (fld_31, (B ";")); (fld_32, (B " ")); (fld_33, v_na); (fld_37, v_true); (fld_39, v_true)]);
     ([tok_2; tok_29; tok_61], Some [(fld_0, (B "json")); (fld_1, v_na); (fld_2, v_na); (fld_3, v_na); (fld_30, (B "nidx")); (fld_31, (B ";")); (fld_32, (B " ")); (fld_33, v_na); (fld_37, v_true); (fld_39, v_true)]);
     ([tok_2; tok_110], Some [(fld_0, (B "json")); (fld_1, v_na); (fld_2, v_na); (fld_3, v_na); (fld_30, (B "pprint")); (fld_31, (B ";")); (fld_32, (B " ")); (fld_33, v_na); (fld_39, v_true)]);
     ([tok_2; tok_29; tok_62], Some [(fld_0, (B "json")); (fld_1, v_na); (fld_2, v_na); (fld_3, v_na); (fld_30, (B "pprint")); (fld_31, (B ";")); (fld_32, (B " ")); (fld_33, v_na); (fld_39, v_true)]);
-    ([tok_2; tok_111], Some [(fld_0, (B "json")); (fld_1, v_na); (fld_2, v_na); (fld_3, v_na); (fld_30, (B "tsv")); (fld_31, (B ";")); (fld_32, (bs [9]%N)); (fld_33, v_na); (fld_39, v_true)]);
+    ([tok_2; tok_111], Some [(fld_0, (B "json")); (fld_1, v_na); (fld_2, v_na); (fld_3, v_na); (fld_30, (B "tsv")); (fld_31, (B ";")); (fld_32, (bs [9]%N)); (fld_33, v_na); (fld_37, v_true); (fld_39, v_true)]);
     ([tok_2; tok_29; tok_64], Some [(fld_0, (B "json")); (fld_1, v_na); (fld_2, v_na); (fld_3, v_na); (fld_30, (B "tsv")); (fld_31, (B ";")); (fld_32, (bs [9]%N)); (fld_33, v_na); (fld_37, v_true); (fld_39, v_true)]);
     ([tok_2; tok_112], Some [(fld_0, (B "json")); (fld_1, v_na); (fld_2, v_na); (fld_3, v_na); (fld_30, (B "xtab")); (fld_31, (B ";")); (fld_32, (bs [10]%N)); (fld_33, (B " ")); (fld_39, v_true)]);
     ([tok_2; tok_29; tok_68], Some [(fld_0, (B "json")); (fld_1, v_na); (fld_2, v_na); (fld_3, v_na); (fld_30, (B "xtab")); (fld_31, (B ";")); (fld_32, (bs [10]%N)); (fld_33, (B " ")); (fld_39, v_true)]);
@@ -3765,11 +3765,11 @@ Definition gen_evals_by_head : list (bytes * list (list bytes * option (list (by
     ([tok_2; tok_30; tok_58], Some [(fld_0, (B "json")); (fld_1, v_na); (fld_2, v_na); (fld_3, v_na); (fld_30, (B "jsonl")); (fld_31, (B ";")); (fld_32, (B "")); (fld_33, (B "")); (fld_39, v_true); (fld_65, v_false)]);
     ([tok_2; tok_118], Some [(fld_0, (B "json")); (fld_1, v_na); (fld_2, v_na); (fld_3, v_na); (fld_30, (B "markdown")); (fld_31, (B ";")); (fld_32, (B " ")); (fld_33, v_na); (fld_39, v_true)]);
     ([tok_2; tok_30; tok_59], Some [(fld_0, (B "json")); (fld_1, v_na); (fld_2, v_na); (fld_3, v_na); (fld_30, (B "markdown")); (fld_31, (B ";")); (fld_32, (B " ")); (fld_33, v_na); (fld_39, v_true)]);
-    ([tok_2; tok_119], Some [(fld_0, (B "json")); (fld_1, v_na); (fld_2, v_na); (fld_3, v_na); (fld_30, (B "nidx")); (fld_31, (B ";")); (fld_32, (B " ")); (fld_33, v_na); (fld_39, v_true)]);
+    ([tok_2; tok_119], Some [(fld_0, (B "json")); (fld_1, v_na); (fld_2, v_na); (fld_3, v_na); (fld_30, (B "nidx")); (fld_31, (B ";")); (fld_32, (B " ")); (fld_33, v_na); (fld_37, v_true); (fld_39, v_true)]);
     ([tok_2; tok_30; tok_61], Some [(fld_0, (B "json")); (fld_1, v_na); (fld_2, v_na); (fld_3, v_na); (fld_30, (B "nidx")); (fld_31, (B ";")); (fld_32, (B " ")); (fld_33, v_na); (fld_37, v_true); (fld_39, v_true)]);
     ([tok_2; tok_120], Some [(fld_0, (B "json")); (fld_1, v_na); (fld_2, v_na); (fld_3, v_na); (fld_30, (B "pprint")); (fld_31, (B ";")); (fld_32, (B " ")); (fld_33, v_na); (fld_39, v_true)]);
     ([tok_2; tok_30; tok_62], Some [(fld_0, (B "json")); (fld_1, v_na); (fld_2, v_na); (fld_3, v_na); (fld_30, (B "pprint")); (fld_31, (B ";")); (fld_32, (B " ")); (fld_33, v_na); (fld_39, v_true)]);
-    ([tok_2; tok_121], Some [(fld_0, (B "json")); (fld_1, v_na); (fld_2, v_na); (fld_3, v_na); (fld_30, (B "tsv")); (fld_31, (B ";")); (fld_32, (bs [9]%N)); (fld_33, v_na); (fld_39, v_true)]);
+    ([tok_2; tok_121], Some [(fld_0, (B "json")); (fld_1, v_na); (fld_2, v_na); (fld_3, v_na); (fld_30, (B "tsv")); (fld_31, (B ";")); (fld_32, (bs [9]%N)); (fld_33, v_na); (fld_37, v_true); (fld_39, v_true)]);
     ([tok_2; tok_30; tok_64], Some [(fld_0, (B "json")); (fld_1, v_na); (fld_2, v_na); (fld_3, v_na); (fld_30, (B "tsv")); (fld_31, (B ";")); (fld_32, (bs [9]%N)); (fld_33, v_na); (fld_37, v_true); (fld_39, v_true)]);
     ([tok_2; tok_122], Some [(fld_0, (B "json")); (fld_1, v_na); (fld_2, v_na); (fld_3, v_na); (fld_30, (B "xtab")); (fld_31, (B ";")); (fld_32, (bs [10]%N)); (fld_33, (B " ")); (fld_39, v_true)]);
     ([tok_2; tok_30; tok_68], Some [(fld_0, (B "json")); (fld_1, v_na); (fld_2, v_na); (fld_3, v_na); (fld_30, (B "xtab")); (fld_31, (B ";")); (fld_32, (bs [10]%N)); (fld_33, (B " ")); (fld_39, v_true)]);
@@ -3783,11 +3783,11 @@ Definition gen_evals_by_head : list (bytes * list (list bytes * option (list (by
     ([tok_2; tok_31; tok_57], Some [(fld_0, (B "markdown")); (fld_1, (B " ")); (fld_2, v_na); (fld_30, (B "json")); (fld_31, (B ";")); (fld_32, v_na); (fld_33, v_na); (fld_39, v_true); (fld_65, v_false); (fld_66, v_true)]);
     ([tok_2; tok_127], Some [(fld_0, (B "markdown")); (fld_1, (B " ")); (fld_2, v_na); (fld_30, (B "jsonl")); (fld_31, (B ";")); (fld_32, (B "")); (fld_33, (B "")); (fld_39, v_true); (fld_65, v_false); (fld_66, v_true)]);
     ([tok_2; tok_31; tok_58], Some [(fld_0, (B "markdown")); (fld_1, (B " ")); (fld_2, v_na); (fld_30, (B "jsonl")); (fld_31, (B ";")); (fld_32, (B "")); (fld_33, (B "")); (fld_39, v_true); (fld_65, v_false); (fld_66, v_true)]);
-    ([tok_2; tok_128], Some [(fld_0, (B "markdown")); (fld_1, (B " ")); (fld_2, v_na); (fld_30, (B "nidx")); (fld_31, (B ";")); (fld_32, (B " ")); (fld_33, v_na); (fld_39, v_true)]);
+    ([tok_2; tok_128], Some [(fld_0, (B "markdown")); (fld_1, (B " ")); (fld_2, v_na); (fld_30, (B "nidx")); (fld_31, (B ";")); (fld_32, (B " ")); (fld_33, v_na); (fld_37, v_true); (fld_39, v_true)]);
     ([tok_2; tok_31; tok_61], Some [(fld_0, (B "markdown")); (fld_1, (B " ")); (fld_2, v_na); (fld_30, (B "nidx")); (fld_31, (B ";")); (fld_32, (B " ")); (fld_33, v_na); (fld_37, v_true); (fld_39, v_true)]);
     ([tok_2; tok_129], Some [(fld_0, (B "markdown")); (fld_1, (B " ")); (fld_2, v_na); (fld_30, (B "pprint")); (fld_31, (B ";")); (fld_32, (B " ")); (fld_33, v_na); (fld_39, v_true)]);
     ([tok_2; tok_31; tok_62], Some [(fld_0, (B "markdown")); (fld_1, (B " ")); (fld_2, v_na); (fld_30, (B "pprint")); (fld_31, (B ";")); (fld_32, (B " ")); (fld_33, v_na); (fld_39, v_true)]);
-    ([tok_2; tok_130], Some [(fld_0, (B "markdown")); (fld_1, (B " ")); (fld_2, v_na); (fld_30, (B "tsv")); (fld_31, (B ";")); (fld_32, (bs [9]%N)); (fld_33, v_na); (fld_39, v_true)]);
+    ([tok_2; tok_130], Some [(fld_0, (B "markdown")); (fld_1, (B " ")); (fld_2, v_na); (fld_30, (B "tsv")); (fld_31, (B ";")); (fld_32, (bs [9]%N)); (fld_33, v_na); (fld_37, v_true); (fld_39, v_true)]);
     ([tok_2; tok_31; tok_64], Some [(fld_0, (B "markdown")); (fld_1, (B " ")); (fld_2, v_na); (fld_30, (B "tsv")); (fld_31, (B ";")); (fld_32, (bs [9]%N)); (fld_33, v_na); (fld_37, v_true); (fld_39, v_true)]);
     ([tok_2; tok_131], Some [(fld_0, (B "markdown")); (fld_1, (B " ")); (fld_2, v_na); (fld_30, (B "xtab")); (fld_31, (B ";")); (fld_32, (bs [10]%N)); (fld_33, (B " ")); (fld_39, v_true)]);
     ([tok_2; tok_31; tok_68], Some [(fld_0, (B "markdown")); (fld_1, (B " ")); (fld_2, v_na); (fld_30, (B "xtab")); (fld_31, (B ";")); (fld_32, (bs [10]%N)); (fld_33, (B " ")); (fld_39, v_true)]);
@@ -3808,11 +3808,11 @@ Definition gen_evals_by_head : list (bytes * list (list bytes * option (list (by
     ([tok_2; tok_33; tok_58], Some [(fld_0, (B "nidx")); (fld_1, (B " ")); (fld_2, v_na); (fld_5, (B "([ \t])+")); (fld_30, (B "jsonl")); (fld_31, (B ";")); (fld_32, (B "")); (fld_33, (B "")); (fld_39, v_true); (fld_65, v_false); (fld_66, v_true)]);
     ([tok_2; tok_138], Some [(fld_0, (B "nidx")); (fld_1, (B " ")); (fld_2, v_na); (fld_5, (B "([ \t])+")); (fld_30, (B "markdown")); (fld_31, (B ";")); (fld_32, (B " ")); (fld_33, v_na); (fld_39, v_true)]);
     ([tok_2; tok_33; tok_59], Some [(fld_0, (B "nidx")); (fld_1, (B " ")); (fld_2, v_na); (fld_5, (B "([ \t])+")); (fld_30, (B "markdown")); (fld_31, (B ";")); (fld_32, (B " ")); (fld_33, v_na); (fld_39, v_true)]);
-    ([tok_2; tok_50], Some [(fld_0, (B "nidx")); (fld_1, (B " ")); (fld_2, v_na); (fld_5, (B "([ \t])+")); (fld_30, (B "nidx")); (fld_31, (B ";")); (fld_32, (B " ")); (fld_33, v_na); (fld_39, v_true)]);
+    ([tok_2; tok_50], Some [(fld_0, (B "nidx")); (fld_1, (B " ")); (fld_2, v_na); (fld_5, (B "([ \t])+")); (fld_30, (B "nidx")); (fld_31, (B ";")); (fld_32, (B " ")); (fld_33, v_na); (fld_37, v_true); (fld_39, v_true)]);
     ([tok_2; tok_33; tok_61], Some [(fld_0, (B "nidx")); (fld_1, (B " ")); (fld_2, v_na); (fld_5, (B "([ \t])+")); (fld_30, (B "nidx")); (fld_31, (B ";")); (fld_32, (B " ")); (fld_33, v_na); (fld_37, v_true); (fld_39, v_true)]);
     ([tok_2; tok_139], Some [(fld_0, (B "nidx")); (fld_1, (B " ")); (fld_2, v_na); (fld_5, (B "([ \t])+")); (fld_30, (B "pprint")); (fld_31, (B ";")); (fld_32, (B " ")); (fld_33, v_na); (fld_39, v_true)]);
     ([tok_2; tok_33; tok_62], Some [(fld_0, (B "nidx")); (fld_1, (B " ")); (fld_2, v_na); (fld_5, (B "([ \t])+")); (fld_30, (B "pprint")); (fld_31, (B ";")); (fld_32, (B " ")); (fld_33, v_na); (fld_39, v_true)]);
-    ([tok_2; tok_140], Some [(fld_0, (B "nidx")); (fld_1, (B " ")); (fld_2, v_na); (fld_5, (B "([ \t])+")); (fld_30, (B "tsv")); (fld_31, (B ";")); (fld_32, (bs [9]%N)); (fld_33, v_na); (fld_39, v_true)]);
+    ([tok_2; tok_140], Some [(fld_0, (B "nidx")); (fld_1, (B " ")); (fld_2, v_na); (fld_5, (B "([ \t])+")); (fld_30, (B "tsv")); (fld_31, (B ";")); (fld_32, (bs [9]%N)); (fld_33, v_na); (fld_37, v_true); (fld_39, v_true)]);
     ([tok_2; tok_33; tok_64], Some [(fld_0, (B "nidx")); (fld_1, (B " ")); (fld_2, v_na); (fld_5, (B "([ \t])+")); (fld_30, (B "tsv")); (fld_31, (B ";")); (fld_32, (bs [9]%N)); (fld_33, v_na); (fld_37, v_true); (fld_39, v_true)]);
     ([tok_2; tok_141], Some [(fld_0, (B "nidx")); (fld_1, (B " ")); (fld_2, v_na); (fld_5, (B "([ \t])+")); (fld_30, (B "xtab")); (fld_31, (B ";")); (fld_32, (bs [10]%N)); (fld_33, (B " ")); (fld_39, v_true)]);
     ([tok_2; tok_33; tok_68], Some [(fld_0, (B "nidx")); (fld_1, (B " ")); (fld_2, v_na); (fld_5, (B "([ \t])+")); (fld_30, (B "xtab")); (fld_31, (B ";")); (fld_32, (bs [10]%N)); (fld_33, (B " ")); (fld_39, v_true)]);
@@ -3828,11 +3828,11 @@ Definition gen_evals_by_head : list (bytes * list (list bytes * option (list (by
     ([tok_2; tok_34; tok_58], Some [(fld_0, (B "pprint")); (fld_1, (B " ")); (fld_2, v_na); (fld_4, v_true); (fld_8, v_true); (fld_30, (B "jsonl")); (fld_31, (B ";")); (fld_32, (B "")); (fld_33, (B "")); (fld_39, v_true); (fld_65, v_false); (fld_66, v_true)]);
     ([tok_2; tok_147], Some [(fld_0, (B "pprint")); (fld_1, (B " ")); (fld_2, v_na); (fld_4, v_true); (fld_8, v_true); (fld_30, (B "markdown")); (fld_31, (B ";")); (fld_32, (B " ")); (fld_33, v_na); (fld_39, v_true)]);
     ([tok_2; tok_34; tok_59], Some [(fld_0, (B "pprint")); (fld_1, (B " ")); (fld_2, v_na); (fld_4, v_true); (fld_8, v_true); (fld_30, (B "markdown")); (fld_31, (B ";")); (fld_32, (B " ")); (fld_33, v_na); (fld_39, v_true)]);
-    ([tok_2; tok_148], Some [(fld_0, (B "pprint")); (fld_1, (B " ")); (fld_2, v_na); (fld_4, v_true); (fld_8, v_true); (fld_30, (B "nidx")); (fld_31, (B ";")); (fld_32, (B " ")); (fld_33, v_na); (fld_39, v_true)]);
+    ([tok_2; tok_148], Some [(fld_0, (B "pprint")); (fld_1, (B " ")); (fld_2, v_na); (fld_4, v_true); (fld_8, v_true); (fld_30, (B "nidx")); (fld_31, (B ";")); (fld_32, (B " ")); (fld_33, v_na); (fld_37, v_true); (fld_39, v_true)]);
     ([tok_2; tok_34; tok_61], Some [(fld_0, (B "pprint")); (fld_1, (B " ")); (fld_2, v_na); (fld_4, v_true); (fld_8, v_true); (fld_30, (B "nidx")); (fld_31, (B ";")); (fld_32, (B " ")); (fld_33, v_na); (fld_37, v_true); (fld_39, v_true)]);
     ([tok_2; tok_71], Some [(fld_0, (B "pprint")); (fld_1, (B " ")); (fld_2, v_na); (fld_4, v_true); (fld_8, v_true); (fld_30, (B "pprint")); (fld_31, (B ";")); (fld_32, (B " ")); (fld_33, v_na); (fld_39, v_true)]);
     ([tok_2; tok_34; tok_62], Some [(fld_0, (B "pprint")); (fld_1, (B " ")); (fld_2, v_na); (fld_4, v_true); (fld_8, v_true); (fld_30, (B "pprint")); (fld_31, (B ";")); (fld_32, (B " ")); (fld_33, v_na); (fld_39, v_true)]);
-    ([tok_2; tok_149], Some [(fld_0, (B "pprint")); (fld_1, (B " ")); (fld_2, v_na); (fld_4, v_true); (fld_8, v_true); (fld_30, (B "tsv")); (fld_31, (B ";")); (fld_32, (bs [9]%N)); (fld_33, v_na); (fld_39, v_true)]);
+    ([tok_2; tok_149], Some [(fld_0, (B "pprint")); (fld_1, (B " ")); (fld_2, v_na); (fld_4, v_true); (fld_8, v_true); (fld_30, (B "tsv")); (fld_31, (B ";")); (fld_32, (bs [9]%N)); (fld_33, v_na); (fld_37, v_true); (fld_39, v_true)]);
     ([tok_2; tok_34; tok_64], Some [(fld_0, (B "pprint")); (fld_1, (B " ")); (fld_2, v_na); (fld_4, v_true); (fld_8, v_true); (fld_30, (B "tsv")); (fld_31, (B ";")); (fld_32, (bs [9]%N)); (fld_33, v_na); (fld_37, v_true); (fld_39, v_true)]);
     ([tok_2; tok_150], Some [(fld_0, (B "pprint")); (fld_1, (B " ")); (fld_2, v_na); (fld_4, v_true); (fld_8, v_true); (fld_30, (B "xtab")); (fld_31, (B ";")); (fld_32, (bs [10]%N)); (fld_33, (B " ")); (fld_39, v_true)]);
     ([tok_2; tok_34; tok_68], Some [(fld_0, (B "pprint")); (fld_1, (B " ")); (fld_2, v_na); (fld_4, v_true); (fld_8, v_true); (fld_30, (B "xtab")); (fld_31, (B ";")); (fld_32, (bs [10]%N)); (fld_33, (B " ")); (fld_39, v_true)]);
@@ -3854,7 +3854,7 @@ Definition gen_evals_by_head : list (bytes * list (list bytes * option (list (by
     ([tok_2; tok_36; tok_61], Some [(fld_0, (B "tsv")); (fld_1, (bs [9]%N)); (fld_2, v_na); (fld_30, (B "nidx")); (fld_31, (B ";")); (fld_32, (B " ")); (fld_33, v_na); (fld_37, v_true); (fld_39, v_true)]);
     ([tok_2; tok_159], Some [(fld_0, (B "tsv")); (fld_1, (bs [9]%N)); (fld_2, v_na); (fld_30, (B "pprint")); (fld_31, (B ";")); (fld_32, (B " ")); (fld_33, v_na); (fld_39, v_true)]);
     ([tok_2; tok_36; tok_62], Some [(fld_0, (B "tsv")); (fld_1, (bs [9]%N)); (fld_2, v_na); (fld_30, (B "pprint")); (fld_31, (B ";")); (fld_32, (B " ")); (fld_33, v_na); (fld_39, v_true)]);
-    ([tok_2; tok_75], Some [(fld_0, (B "tsv")); (fld_1, (bs [9]%N)); (fld_2, v_na); (fld_30, (B "tsv")); (fld_31, (B ";")); (fld_32, (bs [9]%N)); (fld_33, v_na); (fld_39, v_true)]);
+    ([tok_2; tok_75], Some [(fld_0, (B "tsv")); (fld_1, (bs [9]%N)); (fld_2, v_na); (fld_30, (B "tsv")); (fld_31, (B ";")); (fld_32, (bs [9]%N)); (fld_33, v_na); (fld_37, v_true); (fld_39, v_true)]);
     ([tok_2; tok_36; tok_64], Some [(fld_0, (B "tsv")); (fld_1, (bs [9]%N)); (fld_2, v_na); (fld_30, (B "tsv")); (fld_31, (B ";")); (fld_32, (bs [9]%N)); (fld_33, v_na); (fld_37, v_true); (fld_39, v_true)]);
     ([tok_2; tok_160], Some [(fld_0, (B "tsv")); (fld_1, (bs [9]%N)); (fld_2, v_na); (fld_30, (B "xtab")); (fld_31, (B ";")); (fld_32, (bs [10]%N)); (fld_33, (B " ")); (fld_39, v_true)]);
     ([tok_2; tok_36; tok_68], Some [(fld_0, (B "tsv")); (fld_1, (bs [9]%N)); (fld_2, v_na); (fld_30, (B "xtab")); (fld_31, (B ";")); (fld_32, (bs [10]%N)); (fld_33, (B " ")); (fld_39, v_true)]);
@@ -3872,11 +3872,11 @@ Definition gen_evals_by_head : list (bytes * list (list bytes * option (list (by
     ([tok_2; tok_40; tok_58], Some [(fld_0, (B "xtab")); (fld_1, (bs [10]%N)); (fld_2, (B " ")); (fld_3, (bs [10;10]%N)); (fld_30, (B "jsonl")); (fld_31, (B ";")); (fld_32, (B "")); (fld_33, (B "")); (fld_39, v_true); (fld_65, v_false); (fld_66, v_true)]);
     ([tok_2; tok_167], Some [(fld_0, (B "xtab")); (fld_1, (bs [10]%N)); (fld_2, (B " ")); (fld_3, (bs [10;10]%N)); (fld_30, (B "markdown")); (fld_31, (B ";")); (fld_32, (B " ")); (fld_33, v_na); (fld_39, v_true)]);
     ([tok_2; tok_40; tok_59], Some [(fld_0, (B "xtab")); (fld_1, (bs [10]%N)); (fld_2, (B " ")); (fld_3, (bs [10;10]%N)); (fld_30, (B "markdown")); (fld_31, (B ";")); (fld_32, (B " ")); (fld_33, v_na); (fld_39, v_true)]);
-    ([tok_2; tok_168], Some [(fld_0, (B "xtab")); (fld_1, (bs [10]%N)); (fld_2, (B " ")); (fld_3, (bs [10;10]%N)); (fld_30, (B "nidx")); (fld_31, (B ";")); (fld_32, (B " ")); (fld_33, v_na); (fld_39, v_true)]);
+    ([tok_2; tok_168], Some [(fld_0, (B "xtab")); (fld_1, (bs [10]%N)); (fld_2, (B " ")); (fld_3, (bs [10;10]%N)); (fld_30, (B "nidx")); (fld_31, (B ";")); (fld_32, (B " ")); (fld_33, v_na); (fld_37, v_true); (fld_39, v_true)]);
     ([tok_2; tok_40; tok_61], Some [(fld_0, (B "xtab")); (fld_1, (bs [10]%N)); (fld_2, (B " ")); (fld_3, (bs [10;10]%N)); (fld_30, (B "nidx")); (fld_31, (B ";")); (fld_32, (B " ")); (fld_33, v_na); (fld_37, v_true); (fld_39, v_true)]);
     ([tok_2; tok_169], Some [(fld_0, (B "xtab")); (fld_1, (bs [10]%N)); (fld_2, (B " ")); (fld_3, (bs [10;10]%N)); (fld_30, (B "pprint")); (fld_31, (B ";")); (fld_32, (B " ")); (fld_33, v_na); (fld_39, v_true)]);
     ([tok_2; tok_40; tok_62], Some [(fld_0, (B "xtab")); (fld_1, (bs [10]%N)); (fld_2, (B " ")); (fld_3, (bs [10;10]%N)); (fld_30, (B "pprint")); (fld_31, (B ";")); (fld_32, (B " ")); (fld_33, v_na); (fld_39, v_true)]);
-    ([tok_2; tok_170], Some [(fld_0, (B "xtab")); (fld_1, (bs [10]%N)); (fld_2, (B " ")); (fld_3, (bs [10;10]%N)); (fld_30, (B "tsv")); (fld_31, (B ";")); (fld_32, (bs [9]%N)); (fld_33, v_na); (fld_39, v_true)]);
+    ([tok_2; tok_170], Some [(fld_0, (B "xtab")); (fld_1, (bs [10]%N)); (fld_2, (B " ")); (fld_3, (bs [10;10]%N)); (fld_30, (B "tsv")); (fld_31, (B ";")); (fld_32, (bs [9]%N)); (fld_33, v_na); (fld_37, v_true); (fld_39, v_true)]);
     ([tok_2; tok_40; tok_64], Some [(fld_0, (B "xtab")); (fld_1, (bs [10]%N)); (fld_2, (B " ")); (fld_3, (bs [10;10]%N)); (fld_30, (B "tsv")); (fld_31, (B ";")); (fld_32, (bs [9]%N)); (fld_33, v_na); (fld_37, v_true); (fld_39, v_true)]);
     ([tok_2; tok_80], Some [(fld_0, (B "xtab")); (fld_1, (bs [10]%N)); (fld_2, (B " ")); (fld_3, (bs [10;10]%N)); (fld_30, (B "xtab")); (fld_31, (B ";")); (fld_32, (bs [10]%N)); (fld_33, (B " ")); (fld_39, v_true)]);
     ([tok_2; tok_40; tok_68], Some [(fld_0, (B "xtab")); (fld_1, (bs [10]%N)); (fld_2, (B " ")); (fld_3, (bs [10;10]%N)); (fld_30, (B "xtab")); (fld_31, (B ";")); (fld_32, (bs [10]%N)); (fld_33, (B " ")); (fld_39, v_true)]);
@@ -3892,11 +3892,11 @@ Definition gen_evals_by_head : list (bytes * list (list bytes * option (list (by
     ([tok_2; tok_41; tok_58], Some [(fld_0, (B "yaml")); (fld_1, v_na); (fld_2, v_na); (fld_3, v_na); (fld_30, (B "jsonl")); (fld_31, (B ";")); (fld_32, (B "")); (fld_33, (B "")); (fld_39, v_true); (fld_65, v_false)]);
     ([tok_2; tok_176], Some [(fld_0, (B "yaml")); (fld_1, v_na); (fld_2, v_na); (fld_3, v_na); (fld_30, (B "markdown")); (fld_31, (B ";")); (fld_32, (B " ")); (fld_33, v_na); (fld_39, v_true)]);
     ([tok_2; tok_41; tok_59], Some [(fld_0, (B "yaml")); (fld_1, v_na); (fld_2, v_na); (fld_3, v_na); (fld_30, (B "markdown")); (fld_31, (B ";")); (fld_32, (B " ")); (fld_33, v_na); (fld_39, v_true)]);
-    ([tok_2; tok_177], Some [(fld_0, (B "yaml")); (fld_1, v_na); (fld_2, v_na); (fld_3, v_na); (fld_30, (B "nidx")); (fld_31, (B ";")); (fld_32, (B " ")); (fld_33, v_na); (fld_39, v_true)]);
+    ([tok_2; tok_177], Some [(fld_0, (B "yaml")); (fld_1, v_na); (fld_2, v_na); (fld_3, v_na); (fld_30, (B "nidx")); (fld_31, (B ";")); (fld_32, (B " ")); (fld_33, v_na); (fld_37, v_true); (fld_39, v_true)]);
     ([tok_2; tok_41; tok_61], Some [(fld_0, (B "yaml")); (fld_1, v_na); (fld_2, v_na); (fld_3, v_na); (fld_30, (B "nidx")); (fld_31, (B ";")); (fld_32, (B " ")); (fld_33, v_na); (fld_37, v_true); (fld_39, v_true)]);
     ([tok_2; tok_178], Some [(fld_0, (B "yaml")); (fld_1, v_na); (fld_2, v_na); (fld_3, v_na); (fld_30, (B "pprint")); (fld_31, (B ";")); (fld_32, (B " ")); (fld_33, v_na); (fld_39, v_true)]);
     ([tok_2; tok_41; tok_62], Some [(fld_0, (B "yaml")); (fld_1, v_na); (fld_2, v_na); (fld_3, v_na); (fld_30, (B "pprint")); (fld_31, (B ";")); (fld_32, (B " ")); (fld_33, v_na); (fld_39, v_true)]);
-    ([tok_2; tok_179], Some [(fld_0, (B "yaml")); (fld_1, v_na); (fld_2, v_na); (fld_3, v_na); (fld_30, (B "tsv")); (fld_31, (B ";")); (fld_32, (bs [9]%N)); (fld_33, v_na); (fld_39, v_true)]);
+    ([tok_2; tok_179], Some [(fld_0, (B "yaml")); (fld_1, v_na); (fld_2, v_na); (fld_3, v_na); (fld_30, (B "tsv")); (fld_31, (B ";")); (fld_32, (bs [9]%N)); (fld_33, v_na); (fld_37, v_true); (fld_39, v_true)]);
     ([tok_2; tok_41; tok_64], Some [(fld_0, (B "yaml")); (fld_1, v_na); (fld_2, v_na); (fld_3, v_na); (fld_30, (B "tsv")); (fld_31, (B ";")); (fld_32, (bs [9]%N)); (fld_33, v_na); (fld_37, v_true); (fld_39, v_true)]);
     ([tok_2; tok_180], Some [(fld_0, (B "yaml")); (fld_1, v_na); (fld_2, v_na); (fld_3, v_na); (fld_30, (B "xtab")); (fld_31, (B ";")); (fld_32, (bs [10]%N)); (fld_33, (B " ")); (fld_39, v_true)]);
     ([tok_2; tok_41; tok_68], Some [(fld_0, (B "yaml")); (fld_1, v_na); (fld_2, v_na); (fld_3, v_na); (fld_30, (B "xtab")); (fld_31, (B ";")); (fld_32, (bs [10]%N)); (fld_33, (B " ")); (fld_39, v_true)]);
@@ -4027,10 +4027,10 @@ Definition gen_evals_by_head : list (bytes * list (list bytes * option (list (by
     ([tok_261; tok_1; tok_2; tok_3; tok_4], Some [(fld_0, (B "markdown")); (fld_1, (B ";")); (fld_2, (B ":")); (fld_8, v_true); (fld_9, v_true)]);
     ([tok_261; tok_5; tok_2; tok_6; tok_4], Some [(fld_0, (B "markdown")); (fld_1, (B " ")); (fld_2, v_na); (fld_32, (B ";")); (fld_33, (B ":")); (fld_37, v_true); (fld_38, v_true)]);
     ([tok_261; tok_7; tok_2; tok_8; tok_2], Some [(fld_0, (B "markdown")); (fld_1, (B " ")); (fld_2, v_na); (fld_3, (B ";")); (fld_10, v_true); (fld_31, (B ";")); (fld_39, v_true)]);
-    ([tok_262], None);
-    ([tok_262; tok_1; tok_2; tok_3; tok_4], None);
-    ([tok_262; tok_5; tok_2; tok_6; tok_4], None);
-    ([tok_262; tok_7; tok_2; tok_8; tok_2], None)]);
+    ([tok_262], Some [(fld_0, (B "json")); (fld_1, v_na); (fld_2, v_na); (fld_3, v_na)]);
+    ([tok_262; tok_1; tok_2; tok_3; tok_4], Some [(fld_0, (B "json")); (fld_1, (B ";")); (fld_2, (B ":")); (fld_3, v_na); (fld_8, v_true); (fld_9, v_true)]);
+    ([tok_262; tok_5; tok_2; tok_6; tok_4], Some [(fld_0, (B "json")); (fld_1, v_na); (fld_2, v_na); (fld_3, v_na); (fld_32, (B ";")); (fld_33, (B ":")); (fld_37, v_true); (fld_38, v_true)]);
+    ([tok_262; tok_7; tok_2; tok_8; tok_2], Some [(fld_0, (B "json")); (fld_1, v_na); (fld_2, v_na); (fld_3, (B ";")); (fld_10, v_true); (fld_31, (B ";")); (fld_39, v_true)])]);
   (tok_242, [
     ([tok_241], Some [(fld_30, (B "csv")); (fld_33, v_na)]);
     ([tok_241; tok_1; tok_2; tok_3; tok_4], Some [(fld_1, (B ";")); (fld_2, (B ":")); (fld_8, v_true); (fld_9, v_true); (fld_30, (B "csv")); (fld_33, v_na)]);
@@ -4153,14 +4153,14 @@ Definition gen_evals_by_head : list (bytes * list (list bytes * option (list (by
     ([tok_260; tok_1; tok_2; tok_3; tok_4], Some [(fld_0, (B "yaml")); (fld_1, (B ";")); (fld_2, (B ":")); (fld_3, v_na); (fld_8, v_true); (fld_9, v_true); (fld_30, (B "yaml")); (fld_31, v_na); (fld_32, v_na); (fld_33, v_na); (fld_65, v_false)]);
     ([tok_260; tok_5; tok_2; tok_6; tok_4], Some [(fld_0, (B "yaml")); (fld_1, v_na); (fld_2, v_na); (fld_3, v_na); (fld_30, (B "yaml")); (fld_31, v_na); (fld_32, (B ";")); (fld_33, (B ":")); (fld_37, v_true); (fld_38, v_true); (fld_65, v_false)]);
     ([tok_260; tok_7; tok_2; tok_8; tok_2], Some [(fld_0, (B "yaml")); (fld_1, v_na); (fld_2, v_na); (fld_3, (B ";")); (fld_10, v_true); (fld_30, (B "yaml")); (fld_31, (B ";")); (fld_32, v_na); (fld_33, v_na); (fld_39, v_true); (fld_65, v_false)]);
-    ([tok_261], None);
-    ([tok_261; tok_1; tok_2; tok_3; tok_4], None);
-    ([tok_261; tok_5; tok_2; tok_6; tok_4], None);
-    ([tok_261; tok_7; tok_2; tok_8; tok_2], None);
-    ([tok_262], None);
-    ([tok_262; tok_1; tok_2; tok_3; tok_4], None);
-    ([tok_262; tok_5; tok_2; tok_6; tok_4], None);
-    ([tok_262; tok_7; tok_2; tok_8; tok_2], None)]);
+    ([tok_261], Some [(fld_0, (B "markdown")); (fld_1, (B " ")); (fld_2, v_na); (fld_30, (B "markdown")); (fld_32, (B " ")); (fld_33, v_na)]);
+    ([tok_261; tok_1; tok_2; tok_3; tok_4], Some [(fld_0, (B "markdown")); (fld_1, (B ";")); (fld_2, (B ":")); (fld_8, v_true); (fld_9, v_true); (fld_30, (B "markdown")); (fld_32, (B " ")); (fld_33, v_na)]);
+    ([tok_261; tok_5; tok_2; tok_6; tok_4], Some [(fld_0, (B "markdown")); (fld_1, (B " ")); (fld_2, v_na); (fld_30, (B "markdown")); (fld_32, (B ";")); (fld_33, (B ":")); (fld_37, v_true); (fld_38, v_true)]);
+    ([tok_261; tok_7; tok_2; tok_8; tok_2], Some [(fld_0, (B "markdown")); (fld_1, (B " ")); (fld_2, v_na); (fld_3, (B ";")); (fld_10, v_true); (fld_30, (B "markdown")); (fld_31, (B ";")); (fld_32, (B " ")); (fld_33, v_na); (fld_39, v_true)]);
+    ([tok_262], Some [(fld_0, (B "json")); (fld_1, v_na); (fld_2, v_na); (fld_3, v_na); (fld_30, (B "jsonl")); (fld_31, (B "")); (fld_32, (B "")); (fld_33, (B "")); (fld_65, v_false)]);
+    ([tok_262; tok_1; tok_2; tok_3; tok_4], Some [(fld_0, (B "json")); (fld_1, (B ";")); (fld_2, (B ":")); (fld_3, v_na); (fld_8, v_true); (fld_9, v_true); (fld_30, (B "jsonl")); (fld_31, (B "")); (fld_32, (B "")); (fld_33, (B "")); (fld_65, v_false)]);
+    ([tok_262; tok_5; tok_2; tok_6; tok_4], Some [(fld_0, (B "json")); (fld_1, v_na); (fld_2, v_na); (fld_3, v_na); (fld_30, (B "jsonl")); (fld_31, (B "")); (fld_32, (B ";")); (fld_33, (B ":")); (fld_37, v_true); (fld_38, v_true); (fld_65, v_false)]);
+    ([tok_262; tok_7; tok_2; tok_8; tok_2], Some [(fld_0, (B "json")); (fld_1, v_na); (fld_2, v_na); (fld_3, (B ";")); (fld_10, v_true); (fld_30, (B "jsonl")); (fld_31, (B ";")); (fld_32, (B "")); (fld_33, (B "")); (fld_39, v_true); (fld_65, v_false)])]);
   (tok_248, [
     ([], None);
     ([tok_1; tok_2; tok_3; tok_4], None);
